@@ -1,5 +1,7 @@
 (* C11 — export followed by import with SIMPLE MULTIPLEXERS: buses of RoundTripEnum's fragment whose
-   messages may hold one multiplexer signal (top level) whose children are standard or enum signals, each
+   messages may hold any number of multiplexer signals at top level (one: the importer's single-multiplexer path;
+   several: every child gets an SG_MUL_VAL_ line and the importer's several-multiplexer path is proved through the
+   restriction of the message to one multiplexer at a time) whose children are standard or enum signals, each
    child in one group (plain `m<k>`), in several groups or fixed (SG_MUL_VAL_ ranges written by the exporter
    and expanded by the importer); standard and enum signals beside the multiplexer; descriptions everywhere.
    No attributes.  The exporter writes a
@@ -50,11 +52,17 @@ Definition kids_of (sigs : list signal) (mx : signal) : list signal :=
 Definition msigs_ok (es : list enum_def) (sigs : list signal) : Prop :=
   NoDup (map s_id sigs) /\ NoDup (map (fun s => clear (s_name s)) sigs) /\
   Forall (top_ok es) (filter is_topb sigs) /\
-  (forall a b, In a sigs -> In b sigs -> is_muxb a = true -> is_muxb b = true -> a = b) /\
+  (forall a, In a sigs -> is_muxb a = true -> is_topb a = true) /\
   (forall c, In c sigs -> is_topb c = false -> exists mx, In mx sigs /\ is_topb mx = true /\ is_muxb mx = true /\ child_ok es mx c) /\
-  (forall c c', In c sigs -> In c' sigs -> is_topb c = false -> is_topb c' = false -> c <> c' ->
+  (forall c c', In c sigs -> In c' sigs -> is_topb c = false -> is_topb c' = false -> c <> c' -> s_parent c = s_parent c' ->
      (exists g, 0 <= g /\ in_group c g = true /\ in_group c' g = true) ->
      s_rel c + sig_size es c <= s_rel c' \/ s_rel c' + sig_size es c' <= s_rel c).
+
+(* at most one multiplexer / more than one top-level multiplexer *)
+Definition one_mux (sigs : list signal) : Prop :=
+  forall a b, In a sigs -> In b sigs -> is_muxb a = true -> is_muxb b = true -> a = b.
+Definition many_of (sigs : list signal) : bool :=
+  Nat.ltb 1 (length (filter (fun s => match s_kind s with KMux => true | _ => false end) (filter is_topb sigs))).
 
 Definition mmessage (es : list enum_def) (node_names : list string) (m : message) : Prop :=
   m_attrs m = [] /\ m_cycle m = 0 /\ m_delay m = 0 /\ m_startdelay m = 0 /\
@@ -303,18 +311,18 @@ Section MuxWalk.
   Lemma lookup_str_skip : forall {V} k k' (v : V) l, k <> k' -> lookup String.eqb k ((k', v) :: l) = lookup String.eqb k l.
   Proof. intros V k k' v l H. cbn [lookup]. destruct (String.eqb k k') eqn:E; [apply String.eqb_eq in E; contradiction|reflexivity]. Qed.
 
-  Lemma walk_inner : forall k j l acc names gmap ext,
+  Lemma walk_inner : forall k j l acc names gmap nst ext,
     Forall (gok mx) l -> NoDup (map cn l) -> 0 <= j < gc ->
     (forall c, In c l -> lookup String.eqb (cn c) gmap = optl (vis c j)) ->
     exists gmap',
-      fold_left (wstep k j) l (acc, names, gmap, false, ext)
+      fold_left (wstep k j) l (acc, names, gmap, nst, ext)
       = (fold_left (xstep k) (map (pair j) (filter (fun c => j =? grp c) l)) acc,
-         names ++ map cn (filter (fun c => j =? grp c) l), gmap', false,
+         names ++ map cn (filter (fun c => j =? grp c) l), gmap', nst,
          ext || existsb (fun c => in_group c j && negb (j =? grp c)) l) /\
       (forall c, In c l -> lookup String.eqb (cn c) gmap' = optl (vis c (j + 1))) /\
       (forall x, ~ In x (map cn l) -> lookup String.eqb x gmap' = lookup String.eqb x gmap).
   Proof.
-    intros k j l. induction l as [|c r IH]; intros acc names gmap ext Hl Hnd Hj HG; cbn [fold_left filter map existsb].
+    intros k j l. induction l as [|c r IH]; intros acc names gmap nst ext Hl Hnd Hj HG; cbn [fold_left filter map existsb].
     - exists gmap. rewrite app_nil_r, orb_false_r. split; [reflexivity|]. split; [intros c []|auto].
     - inversion Hl as [|? ? Hc Hr]; subst. cbn [map] in Hnd. inversion Hnd as [|? ? Hni Hndr]; subst.
       pose proof (HG c (or_introl eq_refl)) as Hlk.
@@ -325,7 +333,7 @@ Section MuxWalk.
       { destruct Hc as [Hk _]. destruct (s_kind c); try reflexivity. exfalso. apply Hk. reflexivity. }
       pose proof (vis_succ mx c j ltac:(lia)) as Hvs.
       unfold wstep at 2. destruct (in_group c j) eqn:Eg; cbn [negb andb].
-      + rewrite Hkm. cbn [orb]. rewrite Hlk.
+      + rewrite Hkm, orb_false_r. rewrite Hlk.
         destruct (vis c j) as [|v0 vr] eqn:Ev; cbn [optl].
         * (* first visit: j is the child's first group *)
           assert (Hjg : j = grp c).
@@ -333,7 +341,7 @@ Section MuxWalk.
             destruct (Z_lt_ge_dec j (grp c)) as [Hlt|Hge]; [|lia].
             rewrite (in_group_below mx c Hc Hgc j) in Eg by lia. discriminate. }
           replace (j =? grp c) with true by lia. cbn [negb andb orb map fold_left].
-          destruct (IH (xstep k acc (j, c)) (names ++ [cn c]) ((cn c, [j]) :: gmap) ext Hr Hndr Hj) as [gmap' [E1 [E2 E3]]].
+          destruct (IH (xstep k acc (j, c)) (names ++ [cn c]) ((cn c, [j]) :: gmap) nst ext Hr Hndr Hj) as [gmap' [E1 [E2 E3]]].
           { apply HGr. intros x Hx. apply lookup_str_skip. assumption. }
           exists gmap'. split; [|split].
           -- assert (Hx : xstep k acc (j, c) = set_sigs (set_last_switch (u32 j) (ea_sigs (export_signal es sigs order msgid recs many k c acc)))
@@ -347,7 +355,7 @@ Section MuxWalk.
           { destruct (j =? grp c) eqn:E; [|reflexivity]. apply Z.eqb_eq in E. exfalso.
             assert (Hn : vis c j = []) by (apply (vis_nil mx c Hc Hgc j); [fold gc; lia|lia]). rewrite Hn in Ev. discriminate. }
           rewrite Hjg. cbn [negb andb orb].
-          destruct (IH acc names ((cn c, (v0 :: vr) ++ [j]) :: gmap) true Hr Hndr Hj) as [gmap' [E1 [E2 E3]]].
+          destruct (IH acc names ((cn c, (v0 :: vr) ++ [j]) :: gmap) nst true Hr Hndr Hj) as [gmap' [E1 [E2 E3]]].
           { apply HGr. intros x Hx. apply lookup_str_skip. assumption. }
           exists gmap'. split; [|split].
           -- rewrite E1. rewrite orb_true_r. reflexivity.
@@ -357,7 +365,7 @@ Section MuxWalk.
       + assert (Hjg : (j =? grp c) = false).
         { destruct (j =? grp c) eqn:E; [|reflexivity]. apply Z.eqb_eq in E. rewrite E, (in_group_grp_true mx c Hc Hgc) in Eg. discriminate. }
         rewrite Hjg. cbn [orb].
-        destruct (IH acc names gmap ext Hr Hndr Hj) as [gmap' [E1 [E2 E3]]].
+        destruct (IH acc names gmap nst ext Hr Hndr Hj) as [gmap' [E1 [E2 E3]]].
         { intros c' Hc'. apply HG. right. assumption. }
         exists gmap'. split; [exact E1|]. split.
         * intros c' [<-|Hc']; [|apply E2; assumption]. rewrite E3 by assumption. rewrite Hlk, Hvs, app_nil_r. reflexivity.
@@ -367,50 +375,50 @@ Section MuxWalk.
   Definition wall (ids : list Z) : list signal := flat_map (fun id => filter (fun c => id =? grp c) K) ids.
   Definition wpairs (ids : list Z) : list (Z * signal) := flat_map (fun id => map (pair id) (filter (fun c => id =? grp c) K)) ids.
 
-  Lemma walk_outer : forall k n from acc names gmap ext,
+  Lemma walk_outer : forall k n from acc names gmap nst ext,
     0 <= from -> from + Z.of_nat n = gc ->
     (forall c, In c K -> lookup String.eqb (cn c) gmap = optl (vis c from)) ->
     exists gmap',
-      fold_left (fun st id => fold_left (wstep k id) K st) (zrange from n) (acc, names, gmap, false, ext)
-      = (fold_left (xstep k) (wpairs (zrange from n)) acc, names ++ map cn (wall (zrange from n)), gmap', false,
+      fold_left (fun st id => fold_left (wstep k id) K st) (zrange from n) (acc, names, gmap, nst, ext)
+      = (fold_left (xstep k) (wpairs (zrange from n)) acc, names ++ map cn (wall (zrange from n)), gmap', nst,
          ext || existsb (fun id => existsb (fun c => in_group c id && negb (id =? grp c)) K) (zrange from n)) /\
       (forall c, In c K -> lookup String.eqb (cn c) gmap' = optl (vis c gc)).
   Proof.
-    intros k n. induction n as [|n IH]; intros from acc names gmap ext H0 Hn HG; cbn [zrange fold_left wpairs wall flat_map existsb].
+    intros k n. induction n as [|n IH]; intros from acc names gmap nst ext H0 Hn HG; cbn [zrange fold_left wpairs wall flat_map existsb].
     - exists gmap. rewrite app_nil_r, orb_false_r. split; [reflexivity|]. replace gc with from by lia. exact HG.
-    - destruct (walk_inner k from K acc names gmap ext HK HKn ltac:(lia) HG) as [gmap1 [E1 [E2 _]]].
+    - destruct (walk_inner k from K acc names gmap nst ext HK HKn ltac:(lia) HG) as [gmap1 [E1 [E2 _]]].
       rewrite E1.
       destruct (IH (from + 1) (fold_left (xstep k) (map (pair from) (filter (fun c => from =? grp c) K)) acc)
-                   (names ++ map cn (filter (fun c => from =? grp c) K)) gmap1
+                   (names ++ map cn (filter (fun c => from =? grp c) K)) gmap1 nst
                    (ext || existsb (fun c => in_group c from && negb (from =? grp c)) K) ltac:(lia) ltac:(lia) E2) as [gmap' [E3 E4]].
       exists gmap'. split; [|exact E4]. rewrite E3. unfold wpairs, wall. rewrite fold_left_app, map_app, <- app_assoc, orb_assoc. reflexivity.
   Qed.
 
   (* the SG_MUL_VAL_ entries: one per child that is in several groups or fixed *)
-  Definition ext_of (c : signal) : list dextmux :=
-    if Nat.eqb (length (mem_of gc c)) 1 then [] else [mkdextmux msgid (clear (s_name mx)) (cn c) (ranges_of (mem_of gc c))].
+  Definition ext_of (nst : bool) (c : signal) : list dextmux :=
+    if negb nst && Nat.eqb (length (mem_of gc c)) 1 then [] else [mkdextmux msgid (clear (s_name mx)) (cn c) (ranges_of (mem_of gc c))].
 
-  Lemma ext_fold : forall (gmap : list (string * list Z)) l acc,
+  Lemma ext_fold : forall nst (gmap : list (string * list Z)) l acc,
     (forall c, In c l -> lookup String.eqb (cn c) gmap = Some (mem_of gc c)) ->
     fold_left (fun acc cn0 =>
         let g := match lookup String.eqb cn0 gmap with Some g => g | None => [] end in
-        if negb false && Nat.eqb (length g) 1 then acc
+        if negb nst && Nat.eqb (length g) 1 then acc
         else add_extmux (mkdextmux msgid (clear (s_name mx)) cn0 (ranges_of g)) acc) (map cn l) acc
-    = fold_left (fun a e => add_extmux e a) (flat_map ext_of l) acc.
+    = fold_left (fun a e => add_extmux e a) (flat_map (ext_of nst) l) acc.
   Proof.
-    intros gmap l. induction l as [|c r IH]; intros acc HG; cbn [map fold_left flat_map]; [reflexivity|].
-    rewrite (HG c (or_introl eq_refl)). cbn [negb andb]. rewrite fold_left_app.
-    assert (He : fold_left (fun a e => add_extmux e a) (ext_of c) acc
-                 = (if Nat.eqb (length (mem_of gc c)) 1 then acc else add_extmux (mkdextmux msgid (clear (s_name mx)) (cn c) (ranges_of (mem_of gc c))) acc))
-      by (unfold ext_of; destruct (Nat.eqb (length (mem_of gc c)) 1); reflexivity).
+    intros nst gmap l. induction l as [|c r IH]; intros acc HG; cbn [map fold_left flat_map]; [reflexivity|].
+    rewrite (HG c (or_introl eq_refl)). rewrite fold_left_app.
+    assert (He : fold_left (fun a e => add_extmux e a) (ext_of nst c) acc
+                 = (if negb nst && Nat.eqb (length (mem_of gc c)) 1 then acc else add_extmux (mkdextmux msgid (clear (s_name mx)) (cn c) (ranges_of (mem_of gc c))) acc))
+      by (unfold ext_of; destruct (negb nst && Nat.eqb (length (mem_of gc c)) 1); reflexivity).
     rewrite He. apply IH. intros c' Hc'. apply HG. right. assumption.
   Qed.
 
   (* no second visit: every child sits in exactly one group *)
   Lemma no_revisit : existsb (fun id => existsb (fun c => in_group c id && negb (id =? grp c)) K) (zrange 0 (Z.to_nat gc)) = false ->
-    forall c, In c K -> ext_of c = [].
+    forall c, In c K -> ext_of false c = [].
   Proof.
-    intros H c Hc. rewrite Forall_forall in HK. pose proof (HK c Hc) as Hok. unfold ext_of.
+    intros H c Hc. rewrite Forall_forall in HK. pose proof (HK c Hc) as Hok. unfold ext_of. cbn [negb andb].
     destruct (grp_head mx c Hok) as [r Hr]. fold gc in Hr. rewrite Hr. destruct r as [|g2 r2]; [reflexivity|]. exfalso.
     destruct (mem_of_ascending mx c Hok) as [Ha Hb]. fold gc in Ha, Hb. rewrite Hr in Ha, Hb. cbn in Ha. destruct Ha as [H1 [H2 _]].
     assert (Hin : in_group c g2 = true) by (apply (in_group_mem mx c Hgc g2); [specialize (Hb g2 (or_intror (or_introl eq_refl))); fold gc; lia|fold gc; rewrite Hr; right; left; reflexivity]).
@@ -455,8 +463,8 @@ Definition walk_of (sigs : list signal) (t : signal) : list signal :=
 Definition tx (sigs : list signal) (t : signal) : list signal := t :: (if is_muxb t then walk_of sigs t else []).
 Definition SX (m : message) : list signal := flat_map (tx (m_signals m)) (filter is_topb (m_signals m)).
 (* the SG_MUL_VAL_ entries a top-level signal contributes *)
-Definition texts (msgid : Z) (sigs : list signal) (t : signal) : list dextmux :=
-  if is_muxb t then flat_map (ext_of msgid t) (walk_of sigs t) else [].
+Definition texts (many : bool) (msgid : Z) (sigs : list signal) (t : signal) : list dextmux :=
+  if is_muxb t then flat_map (ext_of msgid t many) (walk_of sigs t) else [].
 
 Lemma zrange_nodup : forall n from, NoDup (zrange from n).
 Proof.
@@ -474,13 +482,13 @@ Definition tdsigs (es : list enum_def) (sigs : list signal) (order : byte_order)
 Definition kids_ok (es : list enum_def) (sigs : list signal) (mx : signal) : Prop :=
   Forall (child_ok es mx) (children sigs mx) /\ NoDup (map (fun c => clear (s_name c)) (children sigs mx)).
 
-Lemma export_top : forall es sigs order msgid recs k s cms vs xs msgs sg L,
+Lemma export_top : forall es sigs order msgid recs many k s cms vs xs msgs sg L,
   NoDup (map s_id sigs) -> In s sigs -> top_ok es s -> (is_muxb s = true -> kids_ok es sigs s) ->
-  export_signal es sigs order msgid recs false (S k) s (cacx cms vs xs msgs sg L)
-  = cacx (cms ++ flat_map (sig_cms msgid) (tx sigs s)) (vs ++ flat_map (venc_e es msgid) (tx sigs s)) (xs ++ texts msgid sigs s) msgs
+  export_signal es sigs order msgid recs many (S k) s (cacx cms vs xs msgs sg L)
+  = cacx (cms ++ flat_map (sig_cms msgid) (tx sigs s)) (vs ++ flat_map (venc_e es msgid) (tx sigs s)) (xs ++ texts many msgid sigs s) msgs
          (sg ++ tdsigs es sigs order recs s) (fold_left enums_step (tx sigs s) L).
 Proof.
-  intros es sigs order msgid recs k s cms vs xs msgs sg L Hids Hin Htop Hkids.
+  intros es sigs order msgid recs many k s cms vs xs msgs sg L Hids Hin Htop Hkids.
   destruct (s_kind s) eqn:Ek.
   - unfold tdsigs, tx, texts, is_muxb. rewrite Ek. cbn [flat_map fold_left]. rewrite !app_nil_r.
     change (cacx cms vs xs msgs sg L) with (with_ext xs (cacc cms vs msgs sg L)). rewrite export_signal_ext by (rewrite Ek; discriminate).
@@ -504,35 +512,38 @@ Proof.
     rewrite Hcm.
     change (add_sig ?d (cacx ?c ?v ?x ?m ?g ?l)) with (cacx c v x m (g ++ [d]) l).
     set (cms1 := cms ++ (if String.eqb (s_desc s) EmptyString then [] else [mkdcomment OSignal (s_desc s) EmptyString msgid (clear (s_name s))])).
-    destruct (walk_outer es sigs order msgid recs false s Hg1 HKg HKn k (Z.to_nat (s_gcount s)) 0
-                (cacx cms1 vs xs msgs (sg ++ [mux_dsig order recs s]) L) [] [] false ltac:(lia) ltac:(lia)) as [gmap' [E EG]].
+    destruct (walk_outer es sigs order msgid recs many s Hg1 HKg HKn k (Z.to_nat (s_gcount s)) 0
+                (cacx cms1 vs xs msgs (sg ++ [mux_dsig order recs s]) L) [] [] many false ltac:(lia) ltac:(lia)) as [gmap' [E EG]].
     { intros c _. cbn. reflexivity. }
     match goal with |- context[fold_left ?f (zrange 0 ?n) ?init] =>
       replace (fold_left f (zrange 0 n) init) with
-        (fold_left (xstep es sigs order msgid recs false k) (wpairs sigs s (zrange 0 (Z.to_nat (s_gcount s)))) (cacx cms1 vs xs msgs (sg ++ [mux_dsig order recs s]) L),
-         [] ++ map (fun c => clear (s_name c)) (wall sigs s (zrange 0 (Z.to_nat (s_gcount s)))), gmap', false,
+        (fold_left (xstep es sigs order msgid recs many k) (wpairs sigs s (zrange 0 (Z.to_nat (s_gcount s)))) (cacx cms1 vs xs msgs (sg ++ [mux_dsig order recs s]) L),
+         [] ++ map (fun c => clear (s_name c)) (wall sigs s (zrange 0 (Z.to_nat (s_gcount s)))), gmap', many,
          false || existsb (fun id => existsb (fun c => in_group c id && negb (id =? grp c)) (children sigs s)) (zrange 0 (Z.to_nat (s_gcount s))))
         by (symmetry; exact E) end.
     cbn [orb app].
-    rewrite (xsteps_cacx es sigs order msgid recs false s Hids Hin Hp HK).
+    rewrite (xsteps_cacx es sigs order msgid recs many s Hids Hin Hp HK).
     set (W := wall sigs s (zrange 0 (Z.to_nat (s_gcount s)))).
     assert (HW : forall c, In c W -> In c (children sigs s)).
     { intros c Hc. unfold W, wall in Hc. apply in_flat_map in Hc. destruct Hc as [id [_ Hc]]. apply filter_In in Hc. tauto. }
+    assert (HGm : forall c, In c W -> lookup String.eqb (clear (s_name c)) gmap' = Some (mem_of (s_gcount s) c)).
+    { intros c Hc. rewrite (EG c (HW c Hc)). rewrite Forall_forall in HKg. rewrite (vis_all s c (HKg c (HW c Hc)) Hg1).
+      pose proof (mem_of_nonempty s c (HKg c (HW c Hc))) as Hne. destruct (mem_of (s_gcount s) c); [contradiction|reflexivity]. }
     assert (Hfin : forall acc,
-      (if negb (existsb (fun id => existsb (fun c => in_group c id && negb (id =? grp c)) (children sigs s)) (zrange 0 (Z.to_nat (s_gcount s)))) && negb false
+      (if negb (existsb (fun id => existsb (fun c => in_group c id && negb (id =? grp c)) (children sigs s)) (zrange 0 (Z.to_nat (s_gcount s)))) && negb many
        then acc
        else fold_left (fun acc cn0 =>
               let g := match lookup String.eqb cn0 gmap' with Some g => g | None => [] end in
-              if negb false && Nat.eqb (length g) 1 then acc
+              if negb many && Nat.eqb (length g) 1 then acc
               else add_extmux (mkdextmux msgid (clear (s_name s)) cn0 (ranges_of g)) acc) (map (fun c => clear (s_name c)) W) acc)
-      = fold_left (fun a e => add_extmux e a) (flat_map (ext_of msgid s) W) acc).
-    { intros acc. destruct (existsb _ (zrange 0 (Z.to_nat (s_gcount s)))) eqn:Ee; cbn [negb andb].
-      - apply (ext_fold msgid s gmap' W acc). intros c Hc. rewrite (EG c (HW c Hc)).
-        rewrite Forall_forall in HKg. rewrite (vis_all s c (HKg c (HW c Hc)) Hg1).
-        pose proof (mem_of_nonempty s c (HKg c (HW c Hc))) as Hne. destruct (mem_of (s_gcount s) c); [contradiction|reflexivity].
-      - replace (flat_map (ext_of msgid s) W) with (@nil dextmux); [reflexivity|].
-        symmetry. induction W as [|c r IHW]; [reflexivity|]. cbn [flat_map].
-        rewrite (no_revisit sigs msgid s Hg1 HKg Ee c (HW c (or_introl eq_refl))). apply IHW. intros x Hx. apply HW. right. assumption. }
+      = fold_left (fun a e => add_extmux e a) (flat_map (ext_of msgid s many) W) acc).
+    { intros acc. destruct many.
+      - rewrite andb_false_r. apply (ext_fold msgid s true gmap' W acc HGm).
+      - destruct (existsb _ (zrange 0 (Z.to_nat (s_gcount s)))) eqn:Ee; cbn [negb andb].
+        + apply (ext_fold msgid s false gmap' W acc HGm).
+        + replace (flat_map (ext_of msgid s false) W) with (@nil dextmux); [reflexivity|].
+          symmetry. clear HGm. induction W as [|c r IHW]; [reflexivity|]. cbn [flat_map].
+          rewrite (no_revisit sigs msgid s Hg1 HKg Ee c (HW c (or_introl eq_refl))). apply IHW. intros x Hx. apply HW. right. assumption. }
     rewrite Hfin.
     change (cacx ?c ?v xs ?m ?g ?l) with (with_ext xs (cacx c v [] m g l)). rewrite fold_add_extmux.
     unfold with_ext, cacx, cms1, W. cbn [ea_comments ea_attrs ea_attrdefs ea_attrvals ea_valencs ea_messages ea_sigs ea_names ea_enums].
@@ -549,11 +560,13 @@ Qed.
 
 Lemma kids_ok_of : forall es sigs mx, msigs_ok es sigs -> In mx sigs -> is_muxb mx = true -> kids_ok es sigs mx.
 Proof.
-  intros es sigs mx [Hids [Hnm [_ [Huniq [Hch _]]]]] Hmx Hm. unfold kids_ok, children. split.
+  intros es sigs mx [Hids [Hnm [_ [_ [Hch _]]]]] Hmx Hm. unfold kids_ok, children. split.
   - apply Forall_forall. intros c Hc. apply Proofs.In_sort_by in Hc. apply filter_In in Hc. destruct Hc as [Hc Hp].
-    destruct (s_parent c) as [q|] eqn:Ep; [|discriminate]. 
+    destruct (s_parent c) as [q|] eqn:Ep; [|discriminate]. apply Z.eqb_eq in Hp.
     destruct (Hch c Hc ltac:(unfold is_topb; rewrite Ep; reflexivity)) as [mx' [Hmx' [_ [Hm' Hok]]]].
-    rewrite (Huniq mx mx' Hmx Hmx' Hm Hm'). exact Hok.
+    assert (mx' = mx).
+    { apply (NoDup_map_inj s_id sigs); try assumption. destruct Hok as [_ [Hpar _]]. rewrite Ep in Hpar. inversion Hpar. congruence. }
+    subst mx'. exact Hok.
   - eapply Permutation_NoDup; [apply Permutation_map; apply sort_by_perm|]. apply NoDup_map_filter. assumption.
 Qed.
 
@@ -570,14 +583,14 @@ Proof.
   pose proof (top_size_pos es s Hps). lia.
 Qed.
 
-Lemma export_tops : forall es sigs order msgid recs k l cms vs xs msgs sg L,
+Lemma export_tops : forall es sigs order msgid recs many k l cms vs xs msgs sg L,
   NoDup (map s_id sigs) -> (forall s, In s l -> In s sigs /\ top_ok es s /\ (is_muxb s = true -> kids_ok es sigs s)) ->
-  fold_left (fun a s => export_signal es sigs order msgid recs false (S k) s a) l (cacx cms vs xs msgs sg L)
+  fold_left (fun a s => export_signal es sigs order msgid recs many (S k) s a) l (cacx cms vs xs msgs sg L)
   = cacx (cms ++ flat_map (sig_cms msgid) (flat_map (tx sigs) l)) (vs ++ flat_map (venc_e es msgid) (flat_map (tx sigs) l))
-         (xs ++ flat_map (texts msgid sigs) l) msgs
+         (xs ++ flat_map (texts many msgid sigs) l) msgs
          (sg ++ flat_map (tdsigs es sigs order recs) l) (fold_left enums_step (flat_map (tx sigs) l) L).
 Proof.
-  intros es sigs order msgid recs k l. induction l as [|s r IH]; intros cms vs xs msgs sg L Hids H; cbn [fold_left flat_map].
+  intros es sigs order msgid recs many k l. induction l as [|s r IH]; intros cms vs xs msgs sg L Hids H; cbn [fold_left flat_map].
   - rewrite !app_nil_r. reflexivity.
   - destruct (H s (or_introl eq_refl)) as [H1 [H2 H3]]. rewrite export_top by assumption.
     rewrite IH by (try assumption; intros x Hx; apply H; right; assumption).
@@ -587,7 +600,8 @@ Qed.
 Definition dmsg_m (es : list enum_def) (m : message) : dmessage :=
   mkdmessage (u32 (m_canid m)) (clear (m_name m)) (u32 (m_size m)) (clear (m_sender m))
              (flat_map (tdsigs es (m_signals m) (m_order m) (recs_out m)) (filter is_topb (m_signals m))).
-Definition msg_exts (m : message) : list dextmux := flat_map (texts (u32 (m_canid m)) (m_signals m)) (filter is_topb (m_signals m)).
+Definition msg_exts (m : message) : list dextmux :=
+  flat_map (texts (many_of (m_signals m)) (u32 (m_canid m)) (m_signals m)) (filter is_topb (m_signals m)).
 Definition bus_exts (b : bus) : list dextmux := flat_map msg_exts (b_messages b).
 
 (* the message / the bus with its signals listed in export order (comments and value descriptions follow it) *)
@@ -601,10 +615,9 @@ Proof.
   destruct (String.eqb (m_sender m) p); cbn [map]; rewrite IH; reflexivity.
 Qed.
 
-Lemma mux_count : forall es sigs, msigs_ok es sigs ->
-  Nat.ltb 1 (length (filter (fun s => match s_kind s with KMux => true | _ => false end) (filter is_topb sigs))) = false.
+Lemma one_mux_count : forall es sigs, msigs_ok es sigs -> one_mux sigs -> many_of sigs = false.
 Proof.
-  intros es sigs [Hids [_ [_ [Huniq _]]]].
+  intros es sigs [Hids _] Huniq. unfold many_of.
   set (l := filter (fun s => match s_kind s with KMux => true | _ => false end) (filter is_topb sigs)).
   assert (Hin : forall x, In x l -> In x sigs /\ is_muxb x = true).
   { intros x Hx. apply filter_In in Hx. destruct Hx as [Hx Hm]. apply filter_In in Hx. split; [tauto|exact Hm]. }
@@ -613,6 +626,16 @@ Proof.
   destruct l as [|a [|b r]]; try reflexivity. exfalso.
   destruct (Hin a (or_introl eq_refl)) as [A1 A2]. destruct (Hin b (or_intror (or_introl eq_refl))) as [B1 B2].
   assert (a = b) by (apply Huniq; assumption). subst b. inversion Hnd as [|? ? Hni _]; subst. apply Hni. left. reflexivity.
+Qed.
+Lemma count_one_mux : forall es sigs, msigs_ok es sigs -> many_of sigs = false -> one_mux sigs.
+Proof.
+  intros es sigs [Hids [_ [_ [Htopm _]]]] Hm a b Ha Hb Hma Hmb. unfold many_of in Hm.
+  set (l := filter (fun s => match s_kind s with KMux => true | _ => false end) (filter is_topb sigs)) in *.
+  assert (Hl : forall x, In x sigs -> is_muxb x = true -> In x l).
+  { intros x Hx Hxm. apply filter_In. split; [apply filter_In; split; [assumption|apply Htopm; assumption]|exact Hxm]. }
+  pose proof (Hl a Ha Hma) as Hia. pose proof (Hl b Hb Hmb) as Hib.
+  destruct l as [|x [|y r]]; [destruct Hia| |cbn in Hm; discriminate].
+  destruct Hia as [<-|[]]. destruct Hib as [<-|[]]. reflexivity.
 Qed.
 
 Lemma export_message_m : forall names es m cms vs xs msgs sigs0 L,
@@ -625,7 +648,7 @@ Proof.
   unfold export_message. rewrite Ha, Hc, Hdl, Hsd, Hst. cbn [Z.eqb app sort_attrs sort_by fold_right fold_left].
   change (filter (fun s => match s_parent s with None => true | Some _ => false end) (m_signals m)) with (filter is_topb (m_signals m)).
   rewrite (sort_by_ascending s_rel) by (eapply layout_top_ascending; eauto).
-  rewrite (mux_count es _ Hms).
+  fold (many_of (m_signals m)).
   assert (Hacc : set_sigs [] (if String.eqb (m_desc m) EmptyString then cacx cms vs xs msgs sigs0 L
                     else add_comment (mkdcomment OMessage (m_desc m) EmptyString (u32 (m_canid m)) EmptyString) (cacx cms vs xs msgs sigs0 L))
                  = cacx (cms ++ opt_cm (m_desc m) (mkdcomment OMessage (m_desc m) EmptyString (u32 (m_canid m)) EmptyString)) vs xs msgs [] L).
@@ -969,9 +992,11 @@ Section MuxImport.
   Let mstart := s_rel mx.
   Hypothesis Henv : forall s, In s sigs -> is_muxb s = false -> env_sig es env st0 msgid s /\ enum_wf (e_of es s).
   Hypothesis Henvx : desc_of key_eqb (msgid, clear (s_name mx)) (ie_sig_desc env) = s_desc mx.
+  Variable nst : bool.
   Hypothesis Hext : forall c, In c sigs -> is_topb c = false ->
-    lookup key_eqb (msgid, clear (s_name c)) (ie_ext_muxes env) = match ext_of msgid mx c with [] => None | e :: _ => Some e end.
+    lookup key_eqb (msgid, clear (s_name c)) (ie_ext_muxes env) = match ext_of msgid mx nst c with [] => None | e :: _ => Some e end.
   Hypothesis Hrv0 : ProofsEnum.refs_valid st0.
+  Hypothesis Huniq : one_mux sigs.
 
   Definition img (s : signal) : dsignal :=
     if is_muxb s then mux_dsig o recs s
@@ -993,7 +1018,7 @@ Section MuxImport.
     is_muxb s = false /\ s_kind s <> KMux /\
     ((is_topb s = true /\ top_ok es s) \/ (is_topb s = false /\ child_ok es mx s)).
   Proof.
-    intros s Hs Hne. destruct Hms as [_ [_ [Htops [Huniq [Hch _]]]]].
+    intros s Hs Hne. destruct Hms as [_ [_ [Htops [_ [Hch _]]]]].
     assert (Hnm : is_muxb s = false).
     { destruct (is_muxb s) eqn:E; [|reflexivity]. exfalso. apply Hne. apply Huniq; assumption. }
     split; [assumption|]. split; [intros Hk; unfold is_muxb in Hnm; rewrite Hk in Hnm; discriminate|].
@@ -1340,9 +1365,9 @@ Section MuxImport.
       destruct (mem_of_ascending mx (snd p) (child_gok es mx (snd p) Hok)) as [Ma Mb]. pose proof (mem_of_nonempty mx (snd p) (child_gok es mx (snd p) Hok)) as Mn.
       destruct (grp_head mx (snd p) (child_gok es mx (snd p) Hok)) as [mr Hmr]. pose proof (grp_range mx (snd p) (child_gok es mx (snd p) Hok)) as Hgr.
       unfold child_groups. rewrite rim_name, (Hext (snd p) Hs Ht). unfold ext_of.
-      destruct (Nat.eqb (length (mem_of (s_gcount mx) (snd p))) 1) eqn:El.
-      - (* a single group: the switch value of the SG_ line *)
-        rewrite F3, Ht. cbn [negb]. apply Nat.eqb_eq in El. rewrite Hmr in El. destruct mr; [|discriminate El].
+      destruct (negb nst && Nat.eqb (length (mem_of (s_gcount mx) (snd p))) 1) eqn:El.
+      - (* a single group and no SG_MUL_VAL_ entry: the switch value of the SG_ line *)
+        rewrite F3, Ht. cbn [negb]. apply andb_true_iff in El. destruct El as [_ El]. apply Nat.eqb_eq in El. rewrite Hmr in El. destruct mr; [|discriminate El].
         assert (Hsw' : ds_switch (img (snd p)) = grp (snd p)).
         { unfold img. rewrite Hnm, Ht. unfold child_dsig. destruct (s_kind (snd p)); cbn [ds_switch]; apply u32_id; lia. }
         rewrite Hsw'. f_equal. unfold igrp. unfold mem_of in Hmr. destruct (s_groups (snd p)) as [|g0 gr] eqn:Eg; [|congruence].
@@ -1387,8 +1412,10 @@ Section MuxImport.
         assert (Hpq : snd p <> snd q).
         { intros Heq. rewrite map_app in Hnd. cbn [map] in Hnd. apply NoDup_remove_2 in Hnd. apply Hnd. apply in_or_app. left. rewrite Heq. apply in_map. assumption. }
         destruct Hms as [_ [_ [_ [_ [_ Hdis]]]]].
+        destruct (other_sig _ Hqs Hqne) as [_ [_ [[Hqtt _]|[_ Hqok]]]]; [congruence|].
+        assert (Hpar : s_parent (snd p) = s_parent (snd q)) by (destruct Hok as [_ [P1 _]]; destruct Hqok as [_ [P2 _]]; congruence).
         unfold kimg. rewrite ProofsLayout.sig_size_place, (rim_size q Hqs Hqne). cbn [s_rel place]. unfold overlaps.
-        destruct (Hdis (snd p) (snd q) Hs Hqs Ht Hqt Hpq (ex_intro _ g (conj Hg0 (conj Hpg Hqg)))) as [Hd|Hd]; lia. }
+        destruct (Hdis (snd p) (snd q) Hs Hqs Ht Hqt Hpq Hpar (ex_intro _ g (conj Hg0 (conj Hpg Hqg)))) as [Hd|Hd]; lia. }
       assert (Hkq : forall q g, In q done -> 0 <= g < s_gcount mx -> in_group (kimg q) g = in_group (snd q) g).
       { intros q g Hq Hg. destruct (HP q ltac:(apply in_or_app; left; assumption)) as [Hqs [Hqt _]].
         destruct (igrp_spec (snd q) Hqs Hqt) as [_ [Hq2 _]]. rewrite <- (Hq2 g Hg). reflexivity. }
@@ -1445,6 +1472,69 @@ Section MuxImport.
       - intros q Hq. apply HP. apply in_app_or in Hq. apply in_or_app. destruct Hq as [Hq|[<-|[]]]; [left; assumption|right; left; reflexivity].
       - replace (done ++ p :: r) with ((done ++ [p]) ++ r) in Hnd by (rewrite <- app_assoc; reflexivity).
         rewrite map_app in Hnd. eapply NoDup_prefix. exact Hnd.
+    Qed.
+
+    (* ---- the construction of the multiplexer from the children pending for it (any state with these enums) ---- *)
+    Definition gsz (KX : list (Z * signal)) : Z := if ebit 0 KX >? 0 then ebit 0 KX - mstart - selw else 1.
+    Lemma mux_build : forall stx KX,
+      is_enums stx = es1 -> NoDup (map snd KX) -> (forall p, In p KX -> In (snd p) sigs /\ is_topb (snd p) = false) ->
+        import_mux_signal env stx mpos msgid (m_size m) mid (img mx) (map (ent EI) KX)
+        = Ok ((place (mx_img (gsz KX)) 0 None [], map kimg KX), set_sigmap stx (((msgid, clear (s_name mx)), (mpos, mid)) :: is_sigmap stx)) /\
+        1 <= gsz KX <= s_gsize mx.
+    Proof.
+      intros stx KX Hes HndK HCH.
+      destruct mx_top as [Hmtop Hmt].
+      assert (Himx : ds_size (img mx) = selw /\ ds_name (img mx) = clear (s_name mx) /\ get_start_bit (img mx) = mstart).
+      { destruct selw_facts as [Hs _]. split; [|split]; try (unfold img; rewrite Hmxm; reflexivity).
+        - unfold img. rewrite Hmxm. cbn [ds_size mux_dsig]. apply u32_id. fold selw. lia.
+        - apply start_top; assumption. }
+      destruct Himx as [M2 [M3 M4]].
+      pose proof msize_bounds as Hmb.
+      unfold import_mux_signal. rewrite M2, M3, M4, Hes.
+      fold (ebit 0 KX).
+      destruct (ebit_spec KX 0 HCH) as [B1 [B2 B3]].
+      assert (Hbeyond : existsb (fun p : subtree * dsignal => sig_size es1 (fst (fst p)) + get_start_bit (snd p) >? m_size m * 8)
+                          (map (ent EI) KX) = false).
+      { destruct (existsb _ _) eqn:E; [|reflexivity]. exfalso. apply existsb_exists in E. destruct E as [e [He Hgt]].
+        apply in_map_iff in He. destruct He as [p [<- Hp]]. destruct (HCH p Hp) as [Hs Ht].
+        rewrite (proj1 (child_entry p Hs Ht)) in Hgt. destruct (child_geo _ Hs Ht) as [_ [_ [_ [G4 _]]]]. unfold cend in Hgt. lia. }
+      rewrite Hbeyond.
+      destruct selw_facts as [Hsw [Hgc [Hg1 [Hgs1 Hg32]]]].
+      replace (selw =? 0) with false by lia.
+      assert (Hcv : calc_value_from_size selw = 2 ^ selw).
+      { unfold calc_value_from_size. replace (selw <=? 0) with false by lia. replace (selw <? 63) with true by lia. reflexivity. }
+      rewrite Hcv. assert (H2p : 0 < 2 ^ selw) by (apply Z.pow_pos_nonneg; lia). replace (2 ^ selw <=? 0) with false by lia.
+      set (eb := ebit 0 KX) in *.
+      assert (Hgsz : 1 <= (if eb >? 0 then eb - mstart - selw else 1) <= s_gsize mx).
+      { destruct (eb >? 0) eqn:Eeb; [|lia]. destruct (proj1 tops_geo mx Hmx Hmt) as [T1 _].
+        assert (Hub : eb <= mstart + selw + s_gsize mx).
+        { apply B3; [unfold mstart; lia|]. intros p Hp. destruct (HCH p Hp) as [Hs Ht]. destruct (child_geo _ Hs Ht) as [_ [_ [G3 _]]]. unfold cend. lia. }
+        split; [|lia].
+        destruct KX as [|p0 r0] eqn:Ec; [unfold eb, ebit in Eeb; cbn in Eeb; lia|].
+        destruct (HCH p0 (or_introl eq_refl)) as [Hs Ht]. destruct (child_geo _ Hs Ht) as [G1 [G2 _]].
+        pose proof (B2 p0 (or_introl eq_refl)) as Hb. unfold cend in Hb. lia. }
+      set (gs := if eb >? 0 then eb - mstart - selw else 1) in *.
+      replace (gs <=? 0) with false by lia.
+      change (gsz KX) with gs. split; [|exact Hgsz].
+      pose proof (mux_kids (mksignal mid (clear (s_name mx)) KMux 0 None [] 0 false fl_one fl_zero fl_zero fl_zero EmptyString 0 (2 ^ selw) gs EmptyString fl_zero 0 [])
+                    KX [] eq_refl eq_refl) as EK. cbn [app map] in EK.
+      unfold mux_children.
+      change (fold_left _ (map (ent EI) KX) (Ok ([], []))) with
+        (fold_left (kstep es1 (mksignal mid (clear (s_name mx)) KMux 0 None [] 0 false fl_one fl_zero fl_zero fl_zero EmptyString 0 (2 ^ selw) gs EmptyString fl_zero 0 []))
+                   (map (ent EI) KX) (Ok ([], []))).
+      rewrite EK.
+      2:{ intros p Hp. destruct (HCH p Hp) as [Hs Ht]. split; [assumption|]. split; [assumption|]. cbn [s_gsize].
+          pose proof (B2 p Hp) as Hb. unfold cend in Hb. unfold gs. destruct (eb >? 0) eqn:Eeb; [lia|].
+          destruct (child_geo _ Hs Ht) as [G1 [G2 _]]. destruct (proj1 tops_geo mx Hmx Hmt) as [T1 _]. unfold mstart in *. lia. }
+      2:{ assumption. }
+      cbn [bind fst snd app].
+      pose proof Henvx as Henvx'. unfold desc_of in Henvx'.
+      assert (Hmx1 : (match lookup key_eqb (msgid, clear (s_name mx)) (ie_sig_desc env) with
+                      | Some d => set_desc (mksignal mid (clear (s_name mx)) KMux 0 None [] 0 false fl_one fl_zero fl_zero fl_zero EmptyString 0 (2 ^ selw) gs EmptyString fl_zero 0 []) d
+                      | None => mksignal mid (clear (s_name mx)) KMux 0 None [] 0 false fl_one fl_zero fl_zero fl_zero EmptyString 0 (2 ^ selw) gs EmptyString fl_zero 0 [] end)
+                     = place (mx_img gs) 0 None []).
+      { unfold mx_img. destruct (lookup key_eqb (msgid, clear (s_name mx)) (ie_sig_desc env)); cbn; rewrite <- Henvx'; reflexivity. }
+      rewrite Hmx1. rewrite app_nil_r. reflexivity.
     Qed.
 
     (* ---- the message after the first loop ---- *)
@@ -1621,12 +1711,12 @@ Section MuxImport.
         rewrite map_app in Hn2. cbn [map snd] in Hn2.
         assert (HA : filter (fun p : Z * signal => is_muxb (snd p)) A = []).
         { apply Proofs.filter_nil. intros q Hq. destruct (is_muxb (snd q)) eqn:E; [|reflexivity]. exfalso.
-          destruct Hms as [_ [_ [_ [Hu _]]]].
+          pose proof Huniq as Hu.
           assert (snd q = mx) by (apply Hu; try assumption; apply (proj1 (HX q ltac:(apply in_or_app; left; assumption)))).
           apply NoDup_remove_2 in Hn2. apply Hn2. apply in_or_app. left. rewrite <- H. apply in_map. assumption. }
         assert (HB : filter (fun p : Z * signal => is_muxb (snd p)) B = []).
         { apply Proofs.filter_nil. intros q Hq. destruct (is_muxb (snd q)) eqn:E; [|reflexivity]. exfalso.
-          destruct Hms as [_ [_ [_ [Hu _]]]].
+          pose proof Huniq as Hu.
           assert (snd q = mx) by (apply Hu; try assumption; apply (proj1 (HX q ltac:(apply in_or_app; right; right; assumption)))).
           apply NoDup_remove_2 in Hn2. apply Hn2. apply in_or_app. right. rewrite <- H. apply in_map. assumption. }
         rewrite HA, HB. reflexivity. }
@@ -1682,7 +1772,7 @@ Section MuxImport.
     { induction l as [|t r IH]; intros Hl; [reflexivity|]. cbn [flat_map]. rewrite map_app, IH by (intros x Hx; apply Hl; right; assumption).
       f_equal. destruct (Hl t (or_introl eq_refl)) as [Ht Htt]. cbn [map]. unfold tdsigs.
       destruct (is_muxb t) eqn:Em.
-      - assert (t = mx) by (destruct Hms as [_ [_ [_ [Hu _]]]]; apply Hu; assumption). subst t.
+      - assert (t = mx) by (apply Huniq; assumption). subst t.
         unfold is_muxb in Em. destruct (s_kind mx) eqn:Ek; try discriminate.
         f_equal; [unfold img; rewrite Hmxm; reflexivity|].
         unfold wsigs, walk_kids, walk_of. rewrite map_flat_map. apply flat_map_ext_in_simple. intros id _.
@@ -1696,9 +1786,9 @@ Section MuxImport.
   Qed.
 
   Lemma S0_perm : Permutation sigs S0.
-  Proof using Hmm Hmx Hmxm.
+  Proof using Hmm Hmx Hmxm Huniq.
     clear Henv Henvx Hext Hrv0.
-    pose proof Hms as [Hids [_ [_ [Hu [Hch _]]]]].
+    pose proof Hms as [Hids [_ [_ [_ [Hch _]]]]]. pose proof Huniq as Hu.
     assert (Hnd : NoDup sigs) by (eapply NoDup_map_inv; exact Hids).
     destruct mx_top as [_ Hmt].
     (* S0 ~ tops ++ walk_kids *)
@@ -1746,7 +1836,9 @@ Lemma import_message_mux : forall es env st0 names nodes st done m mx,
   (forall s, In s (m_signals m) -> is_muxb s = false -> env_sig es env st0 (u32 (m_canid m)) s /\ enum_wf (e_of es s)) ->
   desc_of key_eqb (u32 (m_canid m), clear (s_name mx)) (ie_sig_desc env) = s_desc mx ->
   (forall c, In c (m_signals m) -> is_topb c = false ->
-     lookup key_eqb (u32 (m_canid m), clear (s_name c)) (ie_ext_muxes env) = match ext_of (u32 (m_canid m)) mx c with [] => None | e :: _ => Some e end) ->
+     lookup key_eqb (u32 (m_canid m), clear (s_name c)) (ie_ext_muxes env)
+     = match ext_of (u32 (m_canid m)) mx (many_of (m_signals m)) c with [] => None | e :: _ => Some e end) ->
+  one_mux (m_signals m) ->
   ProofsEnum.refs_valid st0 -> Inv st -> ProofsEnum.st_le st0 st ->
   desc_of Z.eqb (u32 (m_canid m)) (ie_msg_desc env) = m_desc m ->
   (forall r, In r names -> In (clear r) (map n_name nodes)) ->
@@ -1763,11 +1855,11 @@ Lemma import_message_mux : forall es env st0 names nodes st done m mx,
     (forall p, In p (index_from 0 S') -> lookup key_eqb (u32 (m_canid m), clear (s_name (snd p))) (is_sigmap st') = Some (length done, fst p)) /\
     (forall k, (forall s, In s (m_signals m) -> k <> (u32 (m_canid m), clear (s_name s))) -> lookup key_eqb k (is_sigmap st') = lookup key_eqb k (is_sigmap st)).
 Proof.
-  intros es env st0 names nodes st done m mx Hmm Hmx Hmxm Henv Henvx Hext Hrv0 HI Hle Hmd Hnodes Hnd Hcan Hpair.
+  intros es env st0 names nodes st done m mx Hmm Hmx Hmxm Henv Henvx Hext Huniq Hrv0 HI Hle Hmd Hnodes Hnd Hcan Hpair.
   pose proof Hmm as [Ha [Hc [Hdl [Hsd [Hst [Hid [Hsz [Hms [Hlay [Hsn [Hrc [Hrn Hre]]]]]]]]]]]].
   (* the sorted signal list is the image of a permutation *)
-  pose proof (D_img es m mx names Hmm Hmx Hmxm) as HD.
-  pose proof (S0_perm es m mx names Hmm Hmx Hmxm) as HP0.
+  pose proof (D_img es m mx names Hmm Hmx Hmxm Huniq) as HD.
+  pose proof (S0_perm es m mx names Hmm Hmx Hmxm Huniq) as HP0.
   set (D := flat_map (tdsigs es (m_signals m) (m_order m) (recs_out m)) (filter is_topb (m_signals m))) in *.
   assert (Hsorted : exists S', sort_by (fun a b => get_start_bit a <? get_start_bit b) D = map (img es m mx) S' /\ Permutation (m_signals m) S').
   { assert (Hp : Permutation (sort_by (fun a b => get_start_bit a <? get_start_bit b) D) (map (img es m mx) (S0 m mx)))
@@ -1777,7 +1869,7 @@ Proof.
   destruct Hsorted as [S' [Hsort HpS]].
   assert (HmxS : In mx S') by (eapply Permutation_in; eauto).
   destruct (in_index_from S' 0 mx HmxS) as [mid Hmid].
-  destruct (ims_mux es env (length done) m mx names st0 Hmm Hmx Hmxm Henv Henvx Hext Hrv0 mid st S' (clear (m_name m)) (clear (m_sender m)) D HpS Hmid Hsort HI Hle)
+  destruct (ims_mux es env (length done) m mx names st0 Hmm Hmx Hmxm Henv Henvx (many_of (m_signals m)) Hext Hrv0 Huniq mid st S' (clear (m_name m)) (clear (m_sender m)) D HpS Hmid Hsort HI Hle)
     as [st' [EI [gs [Hsig [HI' [Hle' [Hgs [HEI [Hsm1 Hsm2]]]]]]]]].
   exists st', S', mid, gs, EI.
   split; [|exact (conj HpS (conj Hmid (conj Hgs (conj HI' (conj Hle' (conj HEI (conj Hsm1 Hsm2)))))))].
@@ -1834,6 +1926,7 @@ Section MuxProj.
   Hypothesis Hmm : mmessage es names m.
   Hypothesis Hmx : In mx (m_signals m).
   Hypothesis Hmxm : is_muxb mx = true.
+  Hypothesis Huniq : one_mux (m_signals m).
   Hypothesis Hwf : forall s, In s (m_signals m) -> enum_wf (e_of es s).
   Hypothesis HEI : forall s, In s (m_signals m) -> s <> mx -> EIok es st s (EI s).
   Hypothesis HpS : Permutation (m_signals m) S'.
@@ -1863,7 +1956,7 @@ Section MuxProj.
     pose proof (index_from_snd_nodup S' 0 HndS) as Hn2. fold X in Hn2.
     pose proof Hmid as Hm2. fold X in Hm2. apply in_split in Hm2. destruct Hm2 as [A [B HAB]].
     assert (HXi := X_in). rewrite HAB in *. rewrite filter_app. cbn [filter snd]. rewrite Hmxm.
-    rewrite map_app in Hn2. cbn [map snd] in Hn2. destruct Hms as [_ [_ [_ [Hu _]]]].
+    rewrite map_app in Hn2. cbn [map snd] in Hn2. pose proof Huniq as Hu.
     assert (HA : filter (fun p : Z * signal => is_muxb (snd p)) A = []).
     { apply Proofs.filter_nil. intros q Hq. destruct (is_muxb (snd q)) eqn:E; [|reflexivity]. exfalso.
       assert (snd q = mx) by (apply Hu; try assumption; apply HXi; apply in_or_app; left; assumption).
@@ -1892,7 +1985,7 @@ Section MuxProj.
     - erewrite filter_ext_in; [apply Permutation_refl|]. intros p Hp. unfold plainp, childp. cbn beta.
       destruct (is_muxb (snd p)) eqn:Em, (is_topb (snd p)) eqn:Et; reflexivity.
     - intros p Hp. unfold childp. destruct (is_muxb (snd p)) eqn:Em, (is_topb (snd p)) eqn:Et; try reflexivity.
-      exfalso. destruct Hms as [_ [_ [_ [Hu _]]]]. assert (snd p = mx) by (apply Hu; try assumption; apply X_in; assumption).
+      exfalso. pose proof Huniq as Hu. assert (snd p = mx) by (apply Hu; try assumption; apply X_in; assumption).
       rewrite H in Et. rewrite mx_is_top in Et. discriminate.
   Qed.
 
@@ -1904,7 +1997,7 @@ Section MuxProj.
     - unfold Fimg. cbn [fst snd]. rewrite Hmxm. reflexivity.
     - apply map_ext_in. intros p Hp. apply filter_In in Hp. destruct Hp as [Hpx Hp]. unfold childp in Hp. apply negb_true_iff in Hp.
       unfold Fimg. rewrite Hp. destruct (is_muxb (snd p)) eqn:Em; [|reflexivity].
-      exfalso. destruct Hms as [_ [_ [_ [Hu _]]]]. assert (snd p = mx) by (apply Hu; try assumption; apply X_in; assumption).
+      exfalso. pose proof Huniq as Hu. assert (snd p = mx) by (apply Hu; try assumption; apply X_in; assumption).
       rewrite H in Hp. rewrite mx_is_top in Hp. discriminate.
   Qed.
 
@@ -1917,7 +2010,7 @@ Section MuxProj.
   Lemma Fimg_facts : forall p, In p X ->
     s_name (Fimg p) = clear (s_name (snd p)) /\ s_attrs (Fimg p) = [] /\ s_startval (Fimg p) = fl_zero /\ s_sendtype (Fimg p) = 0.
   Proof.
-    intros p Hp. pose proof (X_in p Hp) as Hs. destruct Hms as [_ [_ [_ [Hu _]]]].
+    intros p Hp. pose proof (X_in p Hp) as Hs. pose proof Huniq as Hu.
     unfold Fimg. destruct (is_muxb (snd p)) eqn:Em.
     - rewrite (Hu (snd p) mx Hs Hmx Em Hmxm). cbn. auto.
     - destruct (rimg_fields (fst p) (snd p) (EI (snd p))) as [_ [F2 [_ [F4 [F5 F6]]]]].
@@ -1970,7 +2063,7 @@ Section MuxProj.
     intros p Hp. pose proof (X_in p Hp) as Hs. destruct Hms as [Hids _].
     destruct (is_muxb (snd p)) eqn:Em.
     - (* the multiplexer *)
-      assert (Hpm : snd p = mx) by (destruct Hms as [_ [_ [_ [Hu _]]]]; apply Hu; assumption).
+      assert (Hpm : snd p = mx) by (apply Huniq; assumption).
       assert (Hpi : fst p = mid).
       { pose proof (index_from_snd_nodup S' 0 HndS) as Hn2. fold X in Hn2.
         assert (p = (mid, mx)) by (apply (NoDup_map_inj snd X); [assumption|assumption|exact Hmid|rewrite Hpm; reflexivity]). subst p. reflexivity. }
@@ -1980,7 +2073,7 @@ Section MuxProj.
       pose proof Hmxm as Hmk. unfold is_muxb in Hmk. destruct (s_kind mx) eqn:Ek; try discriminate.
       cbn [s_kind s_name s_rel s_parent s_groups s_desc s_startval s_sendtype s_attrs mx_img]. rewrite selw_img, ?Ek, Hp0, Hv0, Ht0, Ha0, clear_spaces_idem. reflexivity.
     - assert (Hne : snd p <> mx) by (intros Heq; rewrite Heq in Em; congruence).
-      destruct (other_sig es m mx names Hmm Hmx Hmxm (snd p) Hs Hne) as [_ [Hk Hc]].
+      destruct (other_sig es m mx names Hmm Hmx Hmxm Huniq (snd p) Hs Hne) as [_ [Hk Hc]].
       destruct (rimg_proj (fst p) (snd p) Hs Hne Hk) as [Q1 [Q2 [Q3 Q4]]]. cbv zeta in Q1, Q2, Q3, Q4.
       destruct (rimg_fields (fst p) (snd p) (EI (snd p))) as [F1 [F2 [F3 [F4 [F5 F6]]]]].
       unfold Fimg. rewrite Em.
@@ -2033,6 +2126,1173 @@ Section MuxProj.
     rewrite map_map. destruct Hms as [_ [Hn _]]. exact Hn.
   Qed.
 End MuxProj.
+
+(* ---------------- several multiplexers in one message: the message restricted to one of them ---------------- *)
+Definition keepb (t s : signal) : bool :=
+  (is_topb s && negb (is_muxb s)) || (s_id s =? s_id t) || (match s_parent s with Some q => q =? s_id t | None => false end).
+Definition restrict (m : message) (t : signal) : message := set_m_signals m (filter (keepb t) (m_signals m)).
+
+Lemma layout_e_from_le : forall es l from from' lim, from' <= from -> layout_e es from lim l -> layout_e es from' lim l.
+Proof. intros es l from from' lim H Hl. destruct l as [|a r]; [exact I|]. cbn in *. destruct Hl as [H1 [H2 H3]]. split; [lia|split; assumption]. Qed.
+Lemma layout_e_filter : forall es (f : signal -> bool) l from lim, Forall (top_ok es) l -> layout_e es from lim l -> layout_e es from lim (filter f l).
+Proof.
+  intros es f l. induction l as [|a r IH]; intros from lim Hf H; cbn [filter]; [exact I|].
+  cbn [layout_e] in H. destruct H as [H1 [H2 H3]]. inversion Hf as [|? ? Ha Hr]; subst.
+  destruct (f a).
+  - cbn [layout_e]. split; [assumption|]. split; [assumption|]. apply IH; assumption.
+  - apply (layout_e_from_le es _ (s_rel a + sig_size es a)); [pose proof (top_size_pos es a Ha); lia|]. apply IH; assumption.
+Qed.
+Lemma filter_filter_comm : forall {A} (f g : A -> bool) l, filter f (filter g l) = filter g (filter f l).
+Proof. intros A f g l. induction l as [|x r IH]; [reflexivity|]. cbn [filter]. destruct (f x) eqn:Ef, (g x) eqn:Eg; cbn [filter]; rewrite ?Ef, ?Eg, IH; reflexivity. Qed.
+
+Lemma restrict_ok : forall es names m t, mmessage es names m -> In t (m_signals m) -> is_muxb t = true ->
+  mmessage es names (restrict m t) /\ one_mux (m_signals (restrict m t)) /\ In t (m_signals (restrict m t)) /\
+  (forall s, In s (m_signals (restrict m t)) -> In s (m_signals m)) /\
+  (forall s, In s (m_signals m) -> is_topb s = true -> is_muxb s = false -> In s (m_signals (restrict m t))) /\
+  (forall c, In c (m_signals m) -> s_parent c = Some (s_id t) -> In c (m_signals (restrict m t))) /\
+  (forall c, In c (m_signals (restrict m t)) -> is_topb c = false -> s_parent c = Some (s_id t)).
+Proof.
+  intros es names m t [Ha [Hc [Hdl [Hsd [Hst [Hid [Hsz [Hms [Hlay [Hsn [Hrc [Hrn Hre]]]]]]]]]]]] Ht Htm.
+  pose proof Hms as [Hids [Hnames [Htops [Htopm [Hch Hdis]]]]].
+  set (sg := filter (keepb t) (m_signals m)).
+  assert (Hsub : forall s, In s sg -> In s (m_signals m)) by (intros s Hs; apply filter_In in Hs; tauto).
+  assert (Hkeep : forall s, In s sg -> keepb t s = true) by (intros s Hs; apply filter_In in Hs; tauto).
+  assert (Htt : is_topb t = true) by (apply Htopm; assumption).
+  assert (Htin : In t sg) by (apply filter_In; split; [assumption|unfold keepb; rewrite Z.eqb_refl, orb_true_r; reflexivity]).
+  assert (Hmuxt : forall s, In s sg -> is_muxb s = true -> s = t).
+  { intros s Hs Hm. pose proof (Hkeep s Hs) as Hk. unfold keepb in Hk. rewrite Hm in Hk. cbn [negb] in Hk. rewrite andb_false_r in Hk. cbn [orb] in Hk.
+    pose proof (Htopm s (Hsub s Hs) Hm) as Hx. unfold is_topb in Hx.
+    destruct (s_parent s) eqn:Ep; [discriminate|].
+    rewrite orb_false_r in Hk. apply Z.eqb_eq in Hk. apply (NoDup_map_inj s_id (m_signals m)); auto. }
+  assert (Hchild : forall c, In c sg -> is_topb c = false -> s_parent c = Some (s_id t)).
+  { intros c Hc0 Hct. pose proof (Hkeep c Hc0) as Hk. unfold keepb in Hk. rewrite Hct in Hk. cbn [andb orb] in Hk.
+    apply orb_true_iff in Hk. destruct Hk as [Hk|Hk].
+    - apply Z.eqb_eq in Hk. assert (c = t) by (apply (NoDup_map_inj s_id (m_signals m)); auto). subst c. congruence.
+    - destruct (s_parent c) as [q|]; [apply Z.eqb_eq in Hk; subst; reflexivity|discriminate]. }
+  unfold restrict. cbn [m_signals set_m_signals]. fold sg.
+  split; [|split; [|split; [exact Htin|split; [exact Hsub|split; [|split; [|exact Hchild]]]]]].
+  - unfold mmessage. cbn [m_attrs m_cycle m_delay m_startdelay m_sendtype m_canid m_size m_signals m_sender m_receivers set_m_signals]. fold sg.
+    refine (conj Ha (conj Hc (conj Hdl (conj Hsd (conj Hst (conj Hid (conj Hsz (conj _ (conj _ (conj Hsn (conj Hrc (conj Hrn _)))))))))))).
+    + split; [apply NoDup_map_filter; assumption|]. split; [apply NoDup_map_filter; assumption|]. split.
+      { unfold sg. rewrite filter_filter_comm. apply Forall_filter. assumption. }
+      split; [intros a Ha0 Hma; apply Htopm; [apply Hsub; assumption|assumption]|]. split.
+      * intros c Hc0 Hct. destruct (Hch c (Hsub c Hc0) Hct) as [mx [Hmx [Hmt [Hmm Hok]]]].
+        assert (mx = t).
+        { apply (NoDup_map_inj s_id (m_signals m)); auto. destruct Hok as [_ [Hp _]]. rewrite (Hchild c Hc0 Hct) in Hp. inversion Hp. reflexivity. }
+        subst mx. exists t. auto.
+      * intros c c' Hc0 Hc1. apply Hdis; apply Hsub; assumption.
+    + unfold sg. rewrite filter_filter_comm. apply layout_e_filter; assumption.
+    + intros E. rewrite E in Htin. destruct Htin.
+  - intros a b Ha0 Hb0 Hma Hmb. rewrite (Hmuxt a Ha0 Hma), (Hmuxt b Hb0 Hmb). reflexivity.
+  - intros s Hs Hst0 Hsm. apply filter_In. split; [assumption|]. unfold keepb. rewrite Hst0, Hsm. reflexivity.
+  - intros c Hc0 Hp. apply filter_In. split; [assumption|]. unfold keepb. rewrite Hp, Z.eqb_refl. rewrite !orb_true_r. reflexivity.
+Qed.
+
+Lemma in_skipn : forall {A} (l : list A) n x, In x (skipn n l) -> In x l.
+Proof.
+  intros A l. induction l as [|a r IH]; intros n x H; destruct n; cbn in *; auto. right. eapply IH. exact H.
+Qed.
+
+Lemma nth_error_not_in_skipn : forall {A} (l : list A) j x, NoDup l -> nth_error l j = Some x -> ~ In x (skipn (S j) l).
+Proof.
+  intros A l. induction l as [|a r IH]; intros j x Hnd Hj; [destruct j; discriminate|]. inversion Hnd as [|? ? Hni Hr]; subst.
+  destruct j as [|j]; cbn [nth_error skipn] in *.
+  - inversion Hj; subst. intros Hin. apply Hni. exact Hin.
+  - apply IH; assumption.
+Qed.
+Lemma in_firstn : forall {A} (l : list A) n x, In x (firstn n l) -> In x l.
+Proof.
+  intros A l. induction l as [|a r IH]; intros n x H; destruct n; cbn in *; try contradiction. destruct H as [H|H]; [left; assumption|right; eapply IH; eassumption].
+Qed.
+Lemma skipn_nth_error : forall {A} (l : list A) j x, nth_error l j = Some x -> skipn j l = x :: skipn (S j) l.
+Proof.
+  intros A l. induction l as [|a r IH]; intros j x Hj; [destruct j; discriminate|]. destruct j as [|j]; cbn [nth_error skipn] in *.
+  - inversion Hj. reflexivity.
+  - apply IH. assumption.
+Qed.
+Lemma firstn_snoc_nth : forall {A} (l : list A) j x, nth_error l j = Some x -> firstn (S j) l = firstn j l ++ [x].
+Proof.
+  intros A l. induction l as [|a r IH]; intros j x Hj; [destruct j; discriminate|]. destruct j as [|j]; cbn [nth_error firstn app] in *.
+  - inversion Hj. reflexivity.
+  - f_equal. apply IH. assumption.
+Qed.
+
+(* appending to the n-th list of a list of lists that is a map *)
+Lemma app_nth_map_snoc : forall {A B} (F : A -> list B) (sel : A -> bool) (x : B) (l : list A) n,
+  (n < length l)%nat -> (forall j a, nth_error l j = Some a -> (sel a = true <-> j = n)) ->
+  app_nth n x (map F l) = map (fun a => F a ++ (if sel a then [x] else [])) l.
+Proof.
+  intros A B F sel x l. induction l as [|a r IH]; intros n Hn Hsel; [cbn in Hn; lia|].
+  unfold app_nth in *. destruct n as [|n].
+  - cbn [map nth replace_nth]. rewrite (proj2 (Hsel 0%nat a eq_refl) eq_refl). f_equal.
+    apply map_ext_in. intros b Hb. apply In_nth_error in Hb. destruct Hb as [j Hj].
+    destruct (sel b) eqn:E; [|rewrite app_nil_r; reflexivity]. exfalso.
+    pose proof (proj1 (Hsel (S j) b Hj) E). discriminate.
+  - cbn [map nth replace_nth]. destruct (sel a) eqn:E; [pose proof (proj1 (Hsel 0%nat a eq_refl) E); discriminate|]. rewrite app_nil_r. f_equal.
+    apply IH; [cbn in Hn; lia|]. intros j b Hj. specialize (Hsel (S j) b Hj). split; intros H; [apply Hsel in H; lia|apply Hsel; lia].
+Qed.
+
+(* the position table of the switches: names distinct, so every name finds its position *)
+Lemma mux_names_lookup : forall muxes j p, NoDup (map (fun q : Z * dsignal => ds_name (snd q)) muxes) ->
+  nth_error muxes j = Some p ->
+  lookup String.eqb (ds_name (snd p))
+    (fold_left (fun acc (p : nat * (Z * dsignal)) => let '(i, (_, ds)) := p in (ds_name ds, i) :: acc) (combine (seq 0 (length muxes)) muxes) []) = Some j.
+Proof.
+  intros muxes j p Hnd Hj.
+  assert (G : forall l (k : nat) acc, NoDup (map (fun q : Z * dsignal => ds_name (snd q)) l) ->
+            (forall i q, nth_error l i = Some q ->
+               lookup String.eqb (ds_name (snd q))
+                 (fold_left (fun acc (p : nat * (Z * dsignal)) => let '(i, (_, ds)) := p in (ds_name ds, i) :: acc) (combine (seq k (length l)) l) acc) = Some (k + i)%nat)).
+  { induction l as [|[z ds] r IH]; intros k acc Hn i q Hi; [destruct i; discriminate|].
+    cbn [length seq combine fold_left]. cbn [map snd] in Hn. inversion Hn as [|? ? Hni Hr]; subst.
+    destruct i as [|i].
+    - cbn in Hi. inversion Hi; subst q. cbn [snd].
+      assert (Hkeep : forall l2 k2 acc2, ~ In (ds_name ds) (map (fun q : Z * dsignal => ds_name (snd q)) l2) ->
+                lookup String.eqb (ds_name ds) (fold_left (fun acc (p : nat * (Z * dsignal)) => let '(i, (_, ds)) := p in (ds_name ds, i) :: acc) (combine (seq k2 (length l2)) l2) acc2)
+                = lookup String.eqb (ds_name ds) acc2).
+      { induction l2 as [|[z2 d2] r2 IH2]; intros k2 acc2 Hn2; [reflexivity|]. cbn [length seq combine fold_left].
+        rewrite IH2 by (intros Hc; apply Hn2; right; assumption). cbn [lookup].
+        destruct (String.eqb (ds_name ds) (ds_name d2)) eqn:E; [|reflexivity]. apply String.eqb_eq in E. exfalso. apply Hn2. left. symmetry. exact E. }
+      rewrite Hkeep by assumption. cbn [lookup]. rewrite String.eqb_refl. f_equal. lia.
+    - cbn in Hi. rewrite (IH (S k) _ Hr i q Hi). f_equal. lia. }
+  rewrite (G muxes 0%nat [] Hnd j p Hj). reflexivity.
+Qed.
+
+Section MultiImport.
+  Variables (es : list enum_def) (env : ienv) (mpos : nat) (m : message) (names : list string) (st0 : istate).
+  Hypothesis Hmm : mmessage es names m.
+  Let sigs := m_signals m.
+  Let msgid := u32 (m_canid m).
+  Let o := m_order m.
+  Let recs := recs_out m.
+  Hypothesis Henv : forall s, In s sigs -> is_muxb s = false -> env_sig es env st0 msgid s /\ enum_wf (e_of es s).
+  Hypothesis Henvx : forall t, In t sigs -> is_muxb t = true -> desc_of key_eqb (msgid, clear (s_name t)) (ie_sig_desc env) = s_desc t.
+  Hypothesis Hext : forall t c, In t sigs -> is_muxb t = true -> In c sigs -> s_parent c = Some (s_id t) ->
+    lookup key_eqb (msgid, clear (s_name c)) (ie_ext_muxes env)
+    = Some (mkdextmux msgid (clear (s_name t)) (clear (s_name c)) (ranges_of (mem_of (s_gcount t) c))).
+  Hypothesis Hextm : forall t, In t sigs -> is_topb t = true -> lookup key_eqb (msgid, clear (s_name t)) (ie_ext_muxes env) = None.
+  Hypothesis Hrv0 : ProofsEnum.refs_valid st0.
+  Let Hms : msigs_ok es sigs. Proof. destruct Hmm as [_ [_ [_ [_ [_ [_ [_ [H _]]]]]]]]. exact H. Qed.
+
+  (* the multiplexer of a multiplexed signal *)
+  Definition par (c : signal) : signal :=
+    match s_parent c with Some q => match find_sig sigs q with Some t => t | None => c end | None => c end.
+
+  Lemma par_spec : forall c, In c sigs -> is_topb c = false ->
+    In (par c) sigs /\ is_muxb (par c) = true /\ is_topb (par c) = true /\ child_ok es (par c) c /\ s_parent c = Some (s_id (par c)).
+  Proof.
+    intros c Hc Hct. destruct Hms as [Hids [_ [_ [_ [Hch _]]]]]. destruct (Hch c Hc Hct) as [mx [Hmx [Hmt [Hmm' Hok]]]].
+    pose proof Hok as [_ [Hp _]]. unfold par. rewrite Hp, (ProofsIds.find_sig_unique sigs mx Hids Hmx). auto.
+  Qed.
+
+  Lemma par_of : forall t c, In t sigs -> In c sigs -> s_parent c = Some (s_id t) -> par c = t.
+  Proof.
+    intros t c Ht Hc Hp. destruct Hms as [Hids _]. unfold par. rewrite Hp, (ProofsIds.find_sig_unique sigs t Hids Ht). reflexivity.
+  Qed.
+
+  Definition imgM (s : signal) : dsignal :=
+    if is_muxb s then mux_dsig o recs s
+    else if is_topb s then dsig_e es o recs s
+    else child_dsig es o recs (par s) (u32 (grp s)) s.
+
+  (* the restriction to one multiplexer sees the same lines *)
+  Lemma imgM_restrict : forall t s, In t sigs -> is_muxb t = true -> In s (m_signals (restrict m t)) ->
+    img es (restrict m t) t s = imgM s.
+  Proof.
+    intros t s Ht Htm Hs. destruct (restrict_ok es names m t Hmm Ht Htm) as [_ [_ [_ [Hsub [_ [_ Hchild]]]]]].
+    unfold img, imgM. cbn [m_order m_receivers restrict set_m_signals]. change (recs_out (set_m_signals m (filter (keepb t) (m_signals m)))) with recs.
+    destruct (is_muxb s); [reflexivity|]. destruct (is_topb s) eqn:Et; [reflexivity|].
+    rewrite (par_of t s Ht (Hsub s Hs) (Hchild s Hs Et)). reflexivity.
+  Qed.
+  (* ---- restriction-based facts about the exported lines ---- *)
+  Hypothesis Hsome : exists t0, In t0 sigs /\ is_muxb t0 = true.
+
+  Lemma restrict_env : forall t, In t sigs -> is_muxb t = true ->
+    (forall s, In s (m_signals (restrict m t)) -> is_muxb s = false -> env_sig es env st0 (u32 (m_canid (restrict m t))) s /\ enum_wf (e_of es s)) /\
+    (forall c, In c (m_signals (restrict m t)) -> is_topb c = false ->
+       lookup key_eqb (u32 (m_canid (restrict m t)), clear (s_name c)) (ie_ext_muxes env)
+       = match ext_of (u32 (m_canid (restrict m t))) t true c with [] => None | e :: _ => Some e end).
+  Proof.
+    intros t Ht Htm. destruct (restrict_ok es names m t Hmm Ht Htm) as [_ [_ [_ [Hsub [_ [_ Hchild]]]]]]. split.
+    - intros s Hs Hnm. apply Henv; [apply Hsub; assumption|assumption].
+    - intros c Hc Hct. change (u32 (m_canid (restrict m t))) with msgid. unfold ext_of. cbn [negb andb].
+      apply (Hext t c Ht Htm (Hsub c Hc) (Hchild c Hc Hct)).
+  Qed.
+
+  Lemma imgM_fields : forall s, In s sigs -> is_muxb s = false ->
+    ds_name (imgM s) = clear (s_name s) /\ ds_size (imgM s) = sig_size es s /\ ds_muxed (imgM s) = negb (is_topb s) /\ ds_muxor (imgM s) = false /\
+    s_kind s <> KMux /\ (s_kind s = KStandard -> 0 < s_size s < 2 ^ 32) /\ 0 < sig_size es s /\
+    match s_kind s with
+    | KStandard => ds_size (imgM s) = s_size s /\ ds_signed (imgM s) = s_signed s /\ ds_factor (imgM s) = s_scale s /\ ds_offset (imgM s) = s_offset s /\
+                   ds_min (imgM s) = s_min s /\ ds_max (imgM s) = s_max s /\ ds_unit (imgM s) = s_unit s
+    | _ => ds_size (imgM s) = enum_size (e_of es s)
+    end.
+  Proof.
+    intros s Hs Hnm.
+    assert (Ht : exists t, In t sigs /\ is_muxb t = true /\ In s (m_signals (restrict m t))).
+    { destruct (is_topb s) eqn:Et.
+      - destruct Hsome as [t0 [H1 H2]]. exists t0. split; [assumption|]. split; [assumption|].
+        destruct (restrict_ok es names m t0 Hmm H1 H2) as [_ [_ [_ [_ [Hpl _]]]]]. apply Hpl; assumption.
+      - destruct (par_spec s Hs Et) as [P1 [P2 [_ [_ P5]]]]. exists (par s). split; [assumption|]. split; [assumption|].
+        destruct (restrict_ok es names m (par s) Hmm P1 P2) as [_ [_ [_ [_ [_ [Hck _]]]]]]. apply Hck; assumption. }
+    destruct Ht as [t [Ht [Htm Hst]]].
+    destruct (restrict_ok es names m t Hmm Ht Htm) as [Hmt [Hu [Htin _]]].
+    destruct (restrict_env t Ht Htm) as [He1 He2].
+    assert (Hne : s <> t) by (intros ->; congruence).
+    destruct (img_fields es env (restrict m t) t names st0 Hmt Htin Htm He1 true He2 Hu s Hst Hne) as [F1 [F2 [F3 F4]]].
+    pose proof (img_data es env (restrict m t) t names st0 Hmt Htin Htm He1 true He2 Hu s Hst Hne) as F5.
+    destruct (other_sig es (restrict m t) t names Hmt Htin Htm Hu s Hst Hne) as [_ [Hk _]].
+    destruct (other_size es env (restrict m t) t names st0 Hmt Htin Htm He1 true He2 Hu s Hst Hne) as [Hstd Hsz].
+    rewrite (imgM_restrict t s Ht Htm Hst) in F1, F2, F3, F4, F5.
+    refine (conj F1 (conj F2 (conj F3 (conj F4 (conj Hk (conj Hstd (conj _ F5))))))). lia.
+  Qed.
+
+  Lemma imgM_start_top : forall t, In t sigs -> is_topb t = true -> get_start_bit (imgM t) = s_rel t.
+  Proof.
+    intros t Ht Htt. destruct (proj1 (tops_geo es m names Hmm) t Ht Htt) as [G1 G2]. pose proof (msize_bounds es m names Hmm).
+    assert (Hpos : 0 < sig_size es t).
+    { destruct Hms as [_ [_ [Htops _]]]. rewrite Forall_forall in Htops. apply (top_size_pos es t). apply Htops. apply filter_In. auto. }
+    apply (gsb _ o); try lia; unfold imgM; rewrite Htt; destruct (is_muxb t); try reflexivity;
+      unfold dsig_e; destruct (s_kind t); reflexivity.
+  Qed.
+
+  (* ---- the first loop: plain signals inserted at top level, multiplexed ones appended to the group of their multiplexer ---- *)
+  Definition chof (t : signal) (p : Z * signal) : bool := match s_parent (snd p) with Some q => q =? s_id t | None => false end.
+  Definition entM (EI : signal -> Z) (p : Z * signal) : subtree * dsignal := ((rim EI p, []), imgM (snd p)).
+  Definition GR (EI : signal -> Z) (MU Xd : list (Z * signal)) : list (list (subtree * dsignal)) :=
+    map (fun q => map (entM EI) (filter (chof (snd q)) Xd)) MU.
+
+  Variable MU : list (Z * signal).
+  Hypothesis HMU : forall q, In q MU -> In (snd q) sigs /\ is_muxb (snd q) = true.
+  Hypothesis HMUall : forall t, In t sigs -> is_muxb t = true -> exists i, In (i, t) MU.
+  Hypothesis HMUnd : NoDup (map snd MU).
+  Let mux_idx (nm : string) : option nat :=
+    lookup String.eqb nm (fold_left (fun acc (p : nat * (Z * dsignal)) => let '(i, (_, ds)) := p in (ds_name ds, i) :: acc)
+                                    (combine (seq 0 (length (map (fun q => (fst q, imgM (snd q))) MU))) (map (fun q => (fst q, imgM (snd q))) MU)) []).
+
+  Lemma mux_idx_spec : forall j q, nth_error MU j = Some q -> mux_idx (clear (s_name (snd q))) = Some j.
+  Proof.
+    intros j q Hj. unfold mux_idx.
+    assert (Hn : nth_error (map (fun q => (fst q, imgM (snd q))) MU) j = Some (fst q, imgM (snd q))) by (rewrite nth_error_map, Hj; reflexivity).
+    pose proof (mux_names_lookup (map (fun q => (fst q, imgM (snd q))) MU) j (fst q, imgM (snd q))) as HL. cbn [snd] in HL.
+    assert (Hnm : forall q0, In q0 MU -> ds_name (imgM (snd q0)) = clear (s_name (snd q0))).
+    { intros q0 Hq0. destruct (HMU q0 Hq0) as [_ Hm]. unfold imgM. rewrite Hm. reflexivity. }
+    rewrite (Hnm q (nth_error_In _ _ Hj)) in HL. apply HL; [|exact Hn].
+    rewrite map_map. cbn [snd]. rewrite (map_ext_in _ (fun q0 => clear (s_name (snd q0)))) by (intros q0 Hq0; apply Hnm; assumption).
+    rewrite <- (map_map snd (fun s => clear (s_name s))). destruct Hms as [_ [Hnames _]].
+    eapply NoDup_map_filter2; [|exact HMUnd]. intros a b Ha Hb Hab. apply (NoDup_map_inj (fun s => clear (s_name s)) sigs); try assumption.
+    - apply in_map_iff in Ha. destruct Ha as [qa [<- Hqa]]. apply (HMU qa Hqa).
+    - apply in_map_iff in Hb. destruct Hb as [qb [<- Hqb]]. apply (HMU qb Hqb).
+  Qed.
+
+  Definition f1M (acc : result (mstate * list (list (subtree * dsignal)))) (p : Z * dsignal) :=
+    let '(id, ds) := p in
+    do (ms, groups) <- acc;
+    if ds_muxor ds then Ok (ms, groups) else
+    do (s, st1) <- import_signal env (fst ms) mpos msgid id ds;
+    if ds_muxed ds then
+      match lookup key_eqb (msgid, ds_name ds) (ie_ext_muxes env) with
+      | None => Err "extended multiplexing is required"%string
+      | Some em =>
+          match mux_idx (em_muxor em) with
+          | None => Err "multiplexor not found"%string
+          | Some mi => Ok ((st1, snd ms), app_nth mi ((s, []), ds) groups)
+          end
+      end
+    else do ms' <- (let '(st0, sigs0) := (st1, snd ms) in do sigs' <- msg_insert (is_enums st0) (m_size m) sigs0 (s, []) (get_start_bit ds); Ok (st0, sigs')); Ok (ms', groups).
+
+  Lemma chof_top : forall t p, is_topb (snd p) = true -> chof t p = false.
+  Proof. intros t p H. unfold chof. unfold is_topb in H. destruct (s_parent (snd p)); [discriminate|reflexivity]. Qed.
+
+  Lemma GR_skip : forall EI Xd p, is_topb (snd p) = true -> GR EI MU (Xd ++ [p]) = GR EI MU Xd.
+  Proof.
+    intros EI Xd p H. unfold GR. apply map_ext. intros q. rewrite filter_app. cbn [filter]. rewrite (chof_top (snd q) p H). rewrite app_nil_r. reflexivity.
+  Qed.
+
+  Lemma GR_child : forall EI Xd p mi i, In (snd p) sigs -> is_topb (snd p) = false -> nth_error MU mi = Some (i, par (snd p)) ->
+    app_nth mi (entM EI p) (GR EI MU Xd) = GR EI MU (Xd ++ [p]).
+  Proof.
+    intros EI Xd p mi i Hs Ht Hmi. destruct (par_spec (snd p) Hs Ht) as [P1 [_ [_ [_ P5]]]]. destruct Hms as [Hids _].
+    unfold GR. rewrite (app_nth_map_snoc _ (fun q => chof (snd q) p) (entM EI p) MU mi).
+    - apply map_ext. intros q. rewrite filter_app, map_app. cbn [filter]. destruct (chof (snd q) p); reflexivity.
+    - apply nth_error_Some. rewrite Hmi. discriminate.
+    - intros j a Hj. unfold chof. rewrite P5. split.
+      + intros E. apply Z.eqb_eq in E. destruct (HMU a (nth_error_In _ _ Hj)) as [Ha _].
+        assert (Hsa : snd a = par (snd p)) by (apply (NoDup_map_inj s_id sigs); auto).
+        assert (Hnth : nth_error (map snd MU) j = Some (par (snd p))) by (rewrite nth_error_map, Hj, <- Hsa; reflexivity).
+        assert (Hnth2 : nth_error (map snd MU) mi = Some (par (snd p))) by (rewrite nth_error_map, Hmi; reflexivity).
+        apply (proj1 (NoDup_nth_error (map snd MU)) HMUnd j mi); [apply nth_error_Some; rewrite Hnth; discriminate|congruence].
+      + intros ->. rewrite Hmi in Hj. inversion Hj; subst a. cbn [snd]. apply Z.eqb_refl.
+  Qed.
+
+  Lemma loop1M : forall Xl Xd EIa st,
+    (forall p, In p (Xd ++ Xl) -> In (snd p) sigs) -> NoDup (map snd (Xd ++ Xl)) ->
+    Inv st -> ProofsEnum.st_le st0 st ->
+    (forall q, In q Xd -> is_muxb (snd q) = false -> EIok es st (snd q) (EIa (snd q))) ->
+    exists st' EI,
+      fold_left f1M (map (fun p => (fst p, imgM (snd p))) Xl) (Ok ((st, map (timg EIa) (filter plainp Xd)), GR EIa MU Xd))
+      = Ok ((st', map (timg EI) (filter plainp (Xd ++ Xl))), GR EI MU (Xd ++ Xl)) /\
+      Inv st' /\ ProofsEnum.st_le st st' /\
+      (forall q, In q (Xd ++ Xl) -> is_muxb (snd q) = false -> EIok es st' (snd q) (EI (snd q))) /\
+      (forall q, In q Xd -> EI (snd q) = EIa (snd q)) /\
+      (forall p, In p Xl -> is_muxb (snd p) = false -> lookup key_eqb (msgid, clear (s_name (snd p))) (is_sigmap st') = Some (mpos, fst p)) /\
+      (forall k, (forall p, In p Xl -> k <> (msgid, clear (s_name (snd p)))) -> lookup key_eqb k (is_sigmap st') = lookup key_eqb k (is_sigmap st)).
+  Proof.
+    induction Xl as [|[id s] r IH]; intros Xd EIa st HX Hnd HI Hle HEa; cbn [map fold_left].
+    - exists st, EIa. rewrite !app_nil_r. split; [reflexivity|]. split; [assumption|]. split; [apply ProofsEnum.st_le_refl|].
+      split; [rewrite app_nil_r in *; exact HEa|]. split; [reflexivity|]. split; [intros p []|auto].
+    - assert (Happ : forall {T} (a : list T) x b, (a ++ [x]) ++ b = a ++ x :: b) by (intros; rewrite <- app_assoc; reflexivity).
+      pose proof (HX (id, s) ltac:(apply in_or_app; right; left; reflexivity)) as Hs. cbn [snd] in Hs.
+      assert (HXn : forall p, In p ((Xd ++ [(id, s)]) ++ r) -> In (snd p) sigs) by (rewrite Happ; exact HX).
+      assert (Hndn : NoDup (map snd ((Xd ++ [(id, s)]) ++ r))) by (rewrite Happ; exact Hnd).
+      pose proof Hms as [Hids [Hnames [_ [Htopm _]]]].
+      assert (Hfresh : forall q, In q (Xd ++ r) -> clear (s_name (snd q)) <> clear (s_name s)).
+      { intros q Hq Heq. assert (snd q = s).
+        { apply (NoDup_map_inj (fun x => clear (s_name x)) sigs); try assumption. apply HX. apply in_app_or in Hq. apply in_or_app. destruct Hq; [left|right; right]; assumption. }
+        rewrite map_app in Hnd. cbn [map snd] in Hnd. apply NoDup_remove_2 in Hnd. apply Hnd. rewrite <- map_app. rewrite <- H. apply in_map. assumption. }
+      unfold f1M at 2. cbn [bind fst snd].
+      destruct (is_muxb s) eqn:Em.
+      + (* a switch: built in the second loop *)
+        assert (Hmo : ds_muxor (imgM s) = true) by (unfold imgM; rewrite Em; reflexivity). rewrite Hmo.
+        assert (Htt : is_topb s = true) by (apply Htopm; assumption).
+        assert (Hpl : filter plainp (Xd ++ [(id, s)]) = filter plainp Xd).
+        { assert (Hpp : plainp (id, s) = false) by (unfold plainp; cbn [snd]; rewrite Em, Htt; reflexivity).
+          rewrite filter_app. cbn [filter]. rewrite Hpp. apply app_nil_r. }
+        destruct (IH (Xd ++ [(id, s)]) EIa st HXn Hndn HI Hle) as [st' [EI [E1 [E2 [E3 [E6 [E7 [E4 E5]]]]]]]].
+        { intros q Hq Hqm. apply in_app_or in Hq. destruct Hq as [Hq|[<-|[]]]; [apply HEa; assumption|cbn [snd] in Hqm; congruence]. }
+        rewrite Hpl, (GR_skip EIa Xd (id, s) Htt) in E1. rewrite Happ in E1, E6.
+        exists st', EI. split; [exact E1|]. split; [exact E2|]. split; [exact E3|]. split; [exact E6|]. split.
+        { intros q Hq. apply E7. apply in_or_app. left. assumption. }
+        split.
+        * intros p [<-|Hp] Hpm; [cbn [snd] in Hpm; congruence|apply E4; assumption].
+        * intros k Hk. apply E5. intros p Hp. apply Hk. right. assumption.
+      + destruct (imgM_fields s Hs Em) as [F1 [F2 [F3 [F4 [Hk [Hstd [Hpos F5]]]]]]].
+        destruct (Henv s Hs Em) as [He1 He2].
+        assert (Hmo : ds_muxor (imgM s) = false) by exact F4. rewrite Hmo.
+        destruct (import_signal_g es env st0 st mpos msgid id (imgM s) s Hk Hstd He2 He1 HI Hle F1 F5) as [ei [st2 [Ei [I2 [L2 [K2 Hst2]]]]]].
+        rewrite Ei. cbn [bind fst snd]. rewrite F3.
+        assert (Hle2 : ProofsEnum.st_le st0 st2) by (eapply ProofsEnum.st_le_trans; [exact Hrv0|exact Hle|exact L2]).
+        assert (Hrv : ProofsEnum.refs_valid st) by (destruct HI as [I1 _]; exact I1).
+        set (EIb := fun (x : signal) => if String.eqb (clear (s_name x)) (clear (s_name s)) then ei else EIa x).
+        assert (HEb0 : EIb s = ei) by (unfold EIb; rewrite String.eqb_refl; reflexivity).
+        assert (HEbd : forall q, In q Xd -> EIb (snd q) = EIa (snd q)).
+        { intros q Hq. unfold EIb. destruct (String.eqb (clear (s_name (snd q))) (clear (s_name s))) eqn:E; [|reflexivity].
+          apply String.eqb_eq in E. exfalso. apply (Hfresh q); [apply in_or_app; left; assumption|exact E]. }
+        assert (Htd : map (timg EIb) (filter plainp Xd) = map (timg EIa) (filter plainp Xd)).
+        { apply map_ext_in. intros q Hq. apply filter_In in Hq. destruct Hq as [Hq _]. unfold timg, rim. rewrite (HEbd q Hq). reflexivity. }
+        assert (Hgd : GR EIb MU Xd = GR EIa MU Xd).
+        { unfold GR. apply map_ext. intros q0. apply map_ext_in. intros q Hq. apply filter_In in Hq. destruct Hq as [Hq _]. unfold entM, rim. rewrite (HEbd q Hq). reflexivity. }
+        assert (HEab : forall q, In q (Xd ++ [(id, s)]) -> is_muxb (snd q) = false -> EIok es st2 (snd q) (EIb (snd q))).
+        { intros q Hq Hqm. apply in_app_or in Hq. destruct Hq as [Hq|[<-|[]]].
+          - rewrite (HEbd q Hq). eapply EIok_mono; [exact L2|]. apply HEa; assumption.
+          - cbn [snd]. rewrite HEb0. exact K2. }
+        assert (Hfin : forall st' EI,
+          ProofsEnum.st_le st2 st' ->
+          (forall q, In q (Xd ++ [(id, s)]) -> EI (snd q) = EIb (snd q)) ->
+          (forall p, In p r -> is_muxb (snd p) = false -> lookup key_eqb (msgid, clear (s_name (snd p))) (is_sigmap st') = Some (mpos, fst p)) ->
+          (forall k, (forall p, In p r -> k <> (msgid, clear (s_name (snd p)))) -> lookup key_eqb k (is_sigmap st') = lookup key_eqb k (is_sigmap st2)) ->
+          ProofsEnum.st_le st st' /\ (forall q, In q Xd -> EI (snd q) = EIa (snd q)) /\
+          (forall p, In p ((id, s) :: r) -> is_muxb (snd p) = false -> lookup key_eqb (msgid, clear (s_name (snd p))) (is_sigmap st') = Some (mpos, fst p)) /\
+          (forall k, (forall p, In p ((id, s) :: r) -> k <> (msgid, clear (s_name (snd p)))) -> lookup key_eqb k (is_sigmap st') = lookup key_eqb k (is_sigmap st))).
+        { intros st' EI E3 E7 E4 E5. split; [eapply ProofsEnum.st_le_trans; eauto|]. split.
+          - intros q Hq. rewrite (E7 q (in_or_app _ _ _ (or_introl Hq))). apply HEbd. assumption.
+          - split.
+            + intros p [<-|Hp] Hpm; cbn [fst snd]; [|apply E4; assumption].
+              rewrite E5, Hst2; [apply lookup_key_head|]. intros p Hp Heq. inversion Heq as [Hq]. apply (Hfresh p); [apply in_or_app; right; assumption|]. symmetry. exact Hq.
+            + intros k Hk'. rewrite E5 by (intros p Hp; apply Hk'; right; assumption). rewrite Hst2. apply lookup_key_skip. apply (Hk' (id, s)). left. reflexivity. }
+        destruct (is_topb s) eqn:Et; cbn [negb].
+        * (* a plain top-level signal: inserted now *)
+          rewrite (imgM_start_top s Hs Et).
+          destruct (proj1 (tops_geo es m names Hmm) s Hs Et) as [G1 G2].
+          assert (Hsz2 : sig_size (is_enums st2) (rimg id s ei) = sig_size es s) by (apply rimg_size; assumption).
+          rewrite msg_insert_ok_g.
+          -- cbn [bind app].
+             assert (Hsg : map (timg EIa) (filter plainp Xd) ++ [place (rimg id s ei) (s_rel s) None []] = map (timg EIb) (filter plainp (Xd ++ [(id, s)]))).
+             { assert (Hpp : plainp (id, s) = true) by (unfold plainp; cbn [snd]; rewrite Em, Et; reflexivity).
+               rewrite filter_app, map_app, Htd. cbn [filter]. rewrite Hpp. cbn [map].
+               change (timg EIb (id, s)) with (place (rimg id s (EIb s)) (s_rel s) None []). rewrite HEb0. reflexivity. }
+             rewrite Hsg. rewrite <- Hgd, <- (GR_skip EIb Xd (id, s) Et).
+             destruct (IH (Xd ++ [(id, s)]) EIb st2 HXn Hndn I2 Hle2 HEab) as [st' [EI [E1 [E2 [E3 [E6 [E7 [E4 E5]]]]]]]].
+             rewrite Happ in E1, E6. exists st', EI. split; [exact E1|]. split; [exact E2|].
+             destruct (Hfin st' EI E3 E7 E4 E5) as [A1 [A2 [A3 A4]]]. split; [exact A1|]. split; [exact E6|]. split; [exact A2|]. split; [exact A3|exact A4].
+          -- destruct (rimg_fields id s ei) as [_ [Hn _]]. rewrite Hn. rewrite map_map. intros Hin. apply in_map_iff in Hin. destruct Hin as [q [Hq Hqin]].
+             cbn [s_name timg place] in Hq. unfold rim in Hq. destruct (rimg_fields (fst q) (snd q) (EIa (snd q))) as [_ [Hn2 _]]. rewrite Hn2 in Hq.
+             apply filter_In in Hqin. destruct Hqin as [Hqin _]. apply (Hfresh q); [apply in_or_app; left; assumption|exact Hq].
+          -- intros x [].
+          -- constructor; [intros []|constructor].
+          -- assumption.
+          -- rewrite Hsz2. assumption.
+          -- rewrite Hsz2. assumption.
+          -- intros d Hd _. apply in_map_iff in Hd. destruct Hd as [q [<- Hqin]]. apply filter_In in Hqin. destruct Hqin as [Hqin Hqp].
+             unfold plainp in Hqp. apply andb_true_iff in Hqp. destruct Hqp as [Hqt Hqm]. apply negb_true_iff in Hqm.
+             assert (Hqs : In (snd q) sigs) by (apply HX; apply in_or_app; left; assumption).
+             assert (Hsq : s <> snd q).
+             { intros Heq. apply (Hfresh q); [apply in_or_app; left; assumption|rewrite Heq; reflexivity]. }
+             destruct (imgM_fields (snd q) Hqs Hqm) as [_ [_ [_ [_ [Hkq _]]]]].
+             assert (Hszq : sig_size (is_enums st2) (timg EIa q) = sig_size es (snd q)).
+             { unfold timg. rewrite ProofsLayout.sig_size_place. unfold rim. apply rimg_size; [assumption|]. eapply EIok_mono; [exact L2|]. apply HEa; assumption. }
+             rewrite Hsz2, Hszq. unfold overlaps. cbn [s_rel timg place].
+             destruct (proj2 (tops_geo es m names Hmm) s (snd q) Hs Hqs Et Hqt Hsq) as [Hd|Hd]; lia.
+        * (* a multiplexed signal: appended to the items of its multiplexer *)
+          destruct (par_spec s Hs Et) as [P1 [P2 [P3 [P4 P5]]]].
+          rewrite F1, (Hext (par s) s P1 P2 Hs P5). cbn [em_muxor].
+          destruct (HMUall (par s) P1 P2) as [ti Hti]. destruct (In_nth_error _ _ Hti) as [mi Hmi].
+          pose proof (mux_idx_spec mi (ti, par s) Hmi) as Hmxi. cbn [snd] in Hmxi. rewrite Hmxi.
+          assert (Hgr : app_nth mi (rimg id s ei, @nil signal, imgM s) (GR EIa MU Xd) = GR EIb MU (Xd ++ [(id, s)])).
+          { rewrite <- Hgd. rewrite <- (GR_child EIb Xd (id, s) mi ti Hs Et Hmi). unfold entM, rim. cbn [fst snd]. rewrite HEb0. reflexivity. }
+          rewrite Hgr.
+          assert (Hpl : map (timg EIa) (filter plainp Xd) = map (timg EIb) (filter plainp (Xd ++ [(id, s)]))).
+          { assert (Hpp : plainp (id, s) = false) by (unfold plainp; cbn [snd]; rewrite Et; reflexivity).
+            rewrite filter_app. cbn [filter]. rewrite Hpp, app_nil_r. symmetry. exact Htd. }
+          rewrite Hpl.
+          destruct (IH (Xd ++ [(id, s)]) EIb st2 HXn Hndn I2 Hle2 HEab) as [st' [EI [E1 [E2 [E3 [E6 [E7 [E4 E5]]]]]]]].
+          rewrite Happ in E1, E6. exists st', EI. split; [exact E1|]. split; [exact E2|].
+          destruct (Hfin st' EI E3 E7 E4 E5) as [A1 [A2 [A3 A4]]]. split; [exact A1|]. split; [exact E6|]. split; [exact A2|]. split; [exact A3|exact A4].
+  Qed.
+
+  (* ---- the second loop: the multiplexers are built last to first and inserted at top level ---- *)
+  Variable X : list (Z * signal).
+  Hypothesis HX : forall p, In p X -> In (snd p) sigs.
+  Hypothesis HXnd : NoDup (map snd X).
+  Hypothesis HMUX : MU = filter (fun p => is_muxb (snd p)) X.
+  Variable EI : signal -> Z.
+  Variable st1 : istate.
+  Hypothesis HEI : forall s, In s sigs -> is_muxb s = false -> EIok es st1 s (EI s).
+  Let es1 := is_enums st1.
+
+  Definition gsf (t : signal) : Z := gsz es (restrict m t) t EI st1 (filter (chof t) X).
+  Definition midM (t : signal) : Z := match find (fun q => s_id (snd q) =? s_id t) MU with Some q => fst q | None => 0 end.
+  Definition FM (p : Z * signal) : signal :=
+    if is_muxb (snd p) then mx_img (snd p) (fst p) (gsf (snd p))
+    else if is_topb (snd p) then timg EI p else kimg (par (snd p)) (midM (par (snd p))) EI p.
+  Definition blockY (q : Z * signal) : list (Z * signal) := q :: filter (chof (snd q)) X.
+  Definition YM (j : nat) : list (Z * signal) := filter plainp X ++ flat_map blockY (rev (skipn j MU)).
+
+  Lemma MU_in_X : forall q, In q MU -> In q X /\ is_muxb (snd q) = true.
+  Proof. intros q Hq. rewrite HMUX in Hq. apply filter_In in Hq. exact Hq. Qed.
+
+  Lemma midM_spec : forall q, In q MU -> midM (snd q) = fst q.
+  Proof.
+    intros q Hq. unfold midM. destruct Hms as [Hids _].
+    destruct (find (fun q0 => s_id (snd q0) =? s_id (snd q)) MU) as [q1|] eqn:Ef.
+    - apply find_some in Ef. destruct Ef as [Hq1 E]. apply Z.eqb_eq in E.
+      assert (Hs : snd q1 = snd q) by (apply (NoDup_map_inj s_id sigs); try assumption; [apply (HMU q1 Hq1)|apply (HMU q Hq)]).
+      assert (q1 = q) by (apply (NoDup_map_inj snd MU); assumption). subst q1. reflexivity.
+    - exfalso. pose proof (find_none _ _ Ef q Hq) as Hn. cbn beta in Hn. rewrite Z.eqb_refl in Hn. discriminate.
+  Qed.
+
+  (* the facts of one multiplexer, through the restricted message *)
+  Lemma mux_facts : forall q, In q MU ->
+    let t := snd q in let KX := filter (chof t) X in
+    (forall stx, is_enums stx = es1 ->
+       import_mux_signal env stx mpos msgid (m_size m) (fst q) (imgM t) (map (entM EI) KX)
+       = Ok ((place (mx_img t (fst q) (gsf t)) 0 None [], map (kimg t (fst q) EI) KX), set_sigmap stx (((msgid, clear (s_name t)), (mpos, fst q)) :: is_sigmap stx))) /\
+    1 <= gsf t <= s_gsize t /\
+    NoDup (map snd KX) /\ (forall p, In p KX -> In (snd p) sigs /\ is_topb (snd p) = false /\ s_parent (snd p) = Some (s_id t)).
+  Proof.
+    intros q Hq t KX. destruct (HMU q Hq) as [Ht Htm]. fold t in Ht, Htm.
+    destruct (restrict_ok es names m t Hmm Ht Htm) as [Hmt [Hu [Htin [Hsub [Hpl [Hck Hchild]]]]]].
+    destruct (restrict_env t Ht Htm) as [He1 He2].
+    assert (HK : forall p, In p KX -> In (snd p) sigs /\ is_topb (snd p) = false /\ s_parent (snd p) = Some (s_id t)).
+    { intros p Hp. unfold KX in Hp. apply filter_In in Hp. destruct Hp as [Hp Hc]. unfold chof in Hc.
+      destruct (s_parent (snd p)) as [pid|] eqn:Ep; [|discriminate]. apply Z.eqb_eq in Hc. subst pid.
+      split; [apply HX; assumption|]. split; [unfold is_topb; rewrite Ep; reflexivity|reflexivity]. }
+    assert (HndK : NoDup (map snd KX)) by (apply NoDup_map_filter; assumption).
+    assert (HEIt : forall s, In s (m_signals (restrict m t)) -> s <> t -> EIok es st1 s (EI s)).
+    { intros s Hs Hne. apply HEI; [apply Hsub; assumption|]. destruct (is_muxb s) eqn:E; [|reflexivity]. exfalso. apply Hne. apply Hu; assumption. }
+    assert (HCH : forall p, In p KX -> In (snd p) (m_signals (restrict m t)) /\ is_topb (snd p) = false).
+    { intros p Hp. destruct (HK p Hp) as [K1 [K2 K3]]. split; [apply Hck; assumption|assumption]. }
+    assert (Hent : map (entM EI) KX = map (ent es (restrict m t) t EI) KX).
+    { apply map_ext_in. intros p Hp. unfold entM, ent. rewrite (imgM_restrict t (snd p) Ht Htm (proj1 (HCH p Hp))). reflexivity. }
+    split; [|split; [|split; [exact HndK|exact HK]]].
+    - intros stx Hes. rewrite Hent, <- (imgM_restrict t t Ht Htm Htin).
+      exact (proj1 (mux_build es env mpos (restrict m t) t names st0 Hmt Htin Htm He1 (Henvx t Ht Htm) true He2 Hu (fst q) EI st1 HEIt stx KX Hes HndK HCH)).
+    - exact (proj2 (mux_build es env mpos (restrict m t) t names st0 Hmt Htin Htm He1 (Henvx t Ht Htm) true He2 Hu (fst q) EI st1 HEIt st1 KX eq_refl HndK HCH)).
+  Qed.
+
+  Lemma FM_facts : forall p, In p X ->
+    s_name (FM p) = clear (s_name (snd p)) /\ is_topb (FM p) = is_topb (snd p) /\
+    (is_topb (snd p) = true -> s_rel (FM p) = s_rel (snd p) /\ 0 < sig_size es1 (FM p) <= sig_size es (snd p)).
+  Proof.
+    intros p Hp. pose proof (HX p Hp) as Hs. unfold FM. destruct (is_muxb (snd p)) eqn:Em.
+    - assert (Hq : In p MU) by (rewrite HMUX; apply filter_In; auto).
+      pose proof (mux_facts p Hq) as Hmf; cbv zeta in Hmf; destruct Hmf as [_ [Hgs _]]. cbn zeta in Hgs.
+      destruct (selw_facts es m (snd p) names Hmm Hs Em) as [Hsw _].
+      pose proof Hms as [_ [_ [_ [Htopm _]]]]. pose proof (Htopm _ Hs Em) as Htt.
+      split; [reflexivity|]. split; [unfold is_topb in *; cbn [s_parent mx_img]; destruct (s_parent (snd p)); [discriminate|reflexivity]|].
+      intros _. split; [reflexivity|]. unfold sig_size. cbn [s_kind mx_img s_gsize].
+      assert (Hsw2 : sel_width (mx_img (snd p) (fst p) (gsf (snd p))) = sel_width (snd p)).
+      { unfold sel_width at 1. cbn [s_gcount mx_img]. apply ProofsIds.calc_size_sel. lia. }
+      rewrite Hsw2. unfold is_muxb in Em. destruct (s_kind (snd p)); try discriminate. lia.
+    - destruct (imgM_fields (snd p) Hs Em) as [_ [_ [_ [_ [Hk [_ [Hpos _]]]]]]].
+      assert (Hsz : sig_size es1 (rim EI p) = sig_size es (snd p)) by (unfold rim; apply rimg_size; [assumption|apply HEI; assumption]).
+      destruct (rimg_fields (fst p) (snd p) (EI (snd p))) as [_ [Hn _]].
+      destruct (is_topb (snd p)) eqn:Et.
+      + split; [exact Hn|]. split; [reflexivity|]. intros _. split; [reflexivity|]. unfold timg. rewrite ProofsLayout.sig_size_place, Hsz. lia.
+      + split; [exact Hn|]. split; [reflexivity|]. intros Hc; discriminate Hc.
+  Qed.
+
+  Lemma blockY_FM : forall q, In q MU ->
+    map FM (blockY q) = mx_img (snd q) (fst q) (gsf (snd q)) :: map (kimg (snd q) (fst q) EI) (filter (chof (snd q)) X).
+  Proof.
+    intros q Hq. destruct (HMU q Hq) as [Ht Htm]. unfold blockY. cbn [map]. f_equal.
+    - unfold FM. rewrite Htm. reflexivity.
+    - apply map_ext_in. intros p Hp. pose proof (mux_facts q Hq) as Hmf; cbv zeta in Hmf; destruct Hmf as [_ [_ [_ HK]]]. destruct (HK p Hp) as [K1 [K2 K3]].
+      unfold FM. destruct (par_spec (snd p) K1 K2) as [_ [_ [_ [[Hk _] _]]]].
+      assert (Hnm : is_muxb (snd p) = false) by (unfold is_muxb; destruct (s_kind (snd p)); try reflexivity; exfalso; apply Hk; reflexivity).
+      rewrite Hnm, K2, (par_of (snd q) (snd p) Ht K1 K3), (midM_spec q Hq). reflexivity.
+  Qed.
+
+  Definition stepM (acc : result (mstate * list (list (subtree * dsignal)))) (j : nat) :=
+    do (ms, groups) <- acc;
+    (let '(mid, dmx) := nth j (map (fun q => (fst q, imgM (snd q))) MU)
+                            (0, mkdsignal EmptyString false false 0 0 0 LittleEndian false fl_one fl_zero fl_zero fl_zero EmptyString []) in
+     do (mt, st2) <- import_mux_signal env (fst ms) mpos msgid (m_size m) mid dmx (nth j groups []);
+     match lookup key_eqb (msgid, ds_name dmx) (ie_ext_muxes env) with
+     | None => if ds_muxed dmx then Err "extended multiplexing is required"%string else
+               do ms' <- (let '(st3, sigs0) := (st2, snd ms) in do sigs' <- msg_insert (is_enums st3) (m_size m) sigs0 mt (get_start_bit dmx); Ok (st3, sigs'));
+               Ok (ms', groups)
+     | Some em =>
+         match mux_idx (em_muxor em) with
+         | None => Err "multiplexor not found"%string
+         | Some mi => if Nat.leb j mi then Err "multiplexor not placed before its multiplexer"%string
+                      else Ok ((st2, snd ms), app_nth mi (mt, dmx) groups)
+         end
+     end).
+
+  Lemma YM_in : forall j p, In p (YM j) -> In p X /\ (is_muxb (snd p) = true -> In p (skipn j MU)) /\
+    (is_topb (snd p) = false -> exists q, In q (skipn j MU) /\ s_parent (snd p) = Some (s_id (snd q))).
+  Proof.
+    intros j p Hp. unfold YM in Hp. apply in_app_or in Hp. destruct Hp as [Hp|Hp].
+    - apply filter_In in Hp. destruct Hp as [Hp Hpp]. unfold plainp in Hpp. apply andb_true_iff in Hpp. destruct Hpp as [P1 P2]. apply negb_true_iff in P2.
+      split; [assumption|]. split; intros H; congruence.
+    - apply in_flat_map in Hp. destruct Hp as [q [Hq Hp]]. apply in_rev in Hq.
+      assert (HqM : In q MU) by (eapply in_skipn; exact Hq).
+      destruct (MU_in_X q HqM) as [HqX Hqm]. destruct Hp as [<-|Hp].
+      + split; [assumption|]. split; [intros _; assumption|]. intros Ht. pose proof Hms as [_ [_ [_ [Htopm _]]]].
+        destruct (HMU q HqM) as [Hqs _]. rewrite (Htopm _ Hqs Hqm) in Ht. discriminate.
+      + pose proof (mux_facts q HqM) as Hmf; cbv zeta in Hmf; destruct Hmf as [_ [_ [_ HK]]]. destruct (HK p Hp) as [K1 [K2 K3]]. apply filter_In in Hp. destruct Hp as [Hp _].
+        split; [assumption|]. split.
+        * intros Hm. exfalso. destruct (par_spec (snd p) K1 K2) as [_ [_ [_ [[Hk _] _]]]]. unfold is_muxb in Hm. destruct (s_kind (snd p)); try discriminate. apply Hk. reflexivity.
+        * intros _. exists q. auto.
+  Qed.
+
+  Lemma loop2M : forall j st, (j <= length MU)%nat -> is_enums st = es1 ->
+    exists st',
+      fold_left stepM (rev (seq 0 j)) (Ok ((st, map FM (YM j)), GR EI MU X)) = Ok ((st', map FM (YM 0)), GR EI MU X) /\
+      is_enums st' = es1 /\ is_enum_refs st' = is_enum_refs st /\
+      (forall q, In q (firstn j MU) -> lookup key_eqb (msgid, clear (s_name (snd q))) (is_sigmap st') = Some (mpos, fst q)) /\
+      (forall k, (forall q, In q (firstn j MU) -> k <> (msgid, clear (s_name (snd q)))) -> lookup key_eqb k (is_sigmap st') = lookup key_eqb k (is_sigmap st)).
+  Proof.
+    induction j as [|j IH]; intros st Hj Hes.
+    - cbn [seq rev fold_left firstn]. exists st. split; [reflexivity|]. split; [assumption|]. split; [reflexivity|]. split; [intros q []|auto].
+    - rewrite seq_S, rev_unit. cbn [plus fold_left].
+      destruct (nth_error MU j) as [q|] eqn:Eq; [|apply nth_error_None in Eq; lia].
+      pose proof (nth_error_In _ _ Eq) as HqM. destruct (HMU q HqM) as [Ht Htm]. set (t := snd q) in *.
+      pose proof Hms as [Hids [Hnames [_ [Htopm _]]]]. pose proof (Htopm t Ht Htm) as Htt.
+      pose proof (mux_facts q HqM) as Hmf. cbv zeta in Hmf. fold t in Hmf. destruct Hmf as [Hbuild [Hgs [HndK HK]]].
+      set (KX := filter (chof t) X) in *.
+      unfold stepM at 2. cbn [bind fst snd].
+      assert (Hn1 : nth j (map (fun q0 => (fst q0, imgM (snd q0))) MU)
+                        (0, mkdsignal EmptyString false false 0 0 0 LittleEndian false fl_one fl_zero fl_zero fl_zero EmptyString []) = (fst q, imgM t)).
+      { apply nth_error_nth. rewrite nth_error_map, Eq. reflexivity. }
+      rewrite Hn1.
+      assert (Hn2 : nth j (GR EI MU X) [] = map (entM EI) KX).
+      { apply nth_error_nth. unfold GR. rewrite nth_error_map, Eq. reflexivity. }
+      rewrite Hn2, (Hbuild st Hes). cbn [bind].
+      assert (Hnm : ds_name (imgM t) = clear (s_name t) /\ ds_muxed (imgM t) = false) by (unfold imgM; rewrite Htm; split; reflexivity).
+      destruct Hnm as [Hnm1 Hnm2]. rewrite Hnm1, (Hextm t Ht Htt), Hnm2, (imgM_start_top t Ht Htt).
+      set (st2 := set_sigmap st (((msgid, clear (s_name t)), (mpos, fst q)) :: is_sigmap st)).
+      assert (Hes2 : is_enums st2 = es1) by exact Hes.
+      destruct (proj1 (tops_geo es m names Hmm) t Ht Htt) as [G1 G2].
+      destruct (selw_facts es m t names Hmm Ht Htm) as [Hsw _].
+      assert (Hsz : sig_size es t = s_gsize t + sel_width t) by (unfold sig_size; unfold is_muxb in Htm; destruct (s_kind t); try discriminate; reflexivity).
+      assert (Hszr : sig_size (is_enums st2) (place (mx_img t (fst q) (gsf t)) 0 None []) = gsf t + sel_width t).
+      { unfold sig_size. cbn [s_kind place mx_img s_gsize]. rewrite sel_width_place. f_equal. unfold sel_width at 1. cbn [s_gcount mx_img]. apply ProofsIds.calc_size_sel. lia. }
+      assert (Hnotin : ~ In q (skipn (S j) MU)).
+      { apply nth_error_not_in_skipn; [eapply NoDup_map_inv; exact HMUnd|exact Eq]. }
+      assert (Hsame : forall q', In q' MU -> snd q' = t -> q' = q) by (intros q' Hq' E; apply (NoDup_map_inj snd MU); assumption).
+      rewrite msg_insert_ok_g.
+      + cbn [bind].
+        assert (Hnew : map FM (YM (S j)) ++ [place (place (mx_img t (fst q) (gsf t)) 0 None []) (s_rel t) None []] ++ map (kimg t (fst q) EI) KX = map FM (YM j)).
+        { unfold YM. rewrite (skipn_nth_error MU j q Eq). cbn [rev]. rewrite flat_map_app. cbn [flat_map]. rewrite app_nil_r.
+          rewrite (app_assoc (filter plainp X)). rewrite (map_app FM (filter plainp X ++ flat_map blockY (rev (skipn (S j) MU)))).
+          rewrite (blockY_FM q HqM). reflexivity. }
+        rewrite Hnew.
+        destruct (IH st2 ltac:(lia) Hes2) as [st' [E1 [E2 [E3 [E4 E5]]]]].
+        exists st'. split; [exact E1|]. split; [exact E2|]. split; [exact E3|]. split.
+        * intros q' Hq'. rewrite (firstn_snoc_nth MU j q Eq) in Hq'. apply in_app_or in Hq'. destruct Hq' as [Hq'|[<-|[]]]; [apply E4; assumption|].
+          rewrite E5; [unfold st2; cbn [is_sigmap set_sigmap]; apply lookup_key_head|].
+          intros q' Hq' Heq. inversion Heq as [Hn]. assert (HqM' : In q' MU) by (eapply in_firstn; exact Hq').
+          assert (snd q' = t) by (apply (NoDup_map_inj (fun x => clear (s_name x)) sigs); try assumption; [apply (HMU q' HqM')|symmetry; exact Hn]).
+          pose proof (Hsame q' HqM' H) as ->.
+          assert (Hnd2 : NoDup MU) by (eapply NoDup_map_inv; exact HMUnd).
+          clear - Hq' Eq Hnd2. revert j Hq' Eq. induction MU as [|a r IHl]; intros j Hq' Eq; [destruct j; discriminate|].
+          inversion Hnd2 as [|? ? Hni Hr]; subst. destruct j as [|j]; cbn [firstn nth_error] in *; [destruct Hq'|].
+          destruct Hq' as [<-|Hq']; [apply Hni; eapply nth_error_In; exact Eq|apply (IHl Hr j Hq' Eq)].
+        * intros k Hk. rewrite E5 by (intros q' Hq'; apply Hk; rewrite (firstn_snoc_nth MU j q Eq); apply in_or_app; left; assumption).
+          unfold st2. cbn [is_sigmap set_sigmap]. apply lookup_key_skip. apply (Hk q). rewrite (firstn_snoc_nth MU j q Eq). apply in_or_app. right. left. reflexivity.
+      + (* the name of the multiplexer is new *)
+        cbn [s_name place mx_img]. rewrite map_map. intros Hin. apply in_map_iff in Hin. destruct Hin as [p [Hpn Hp]].
+        destruct (YM_in (S j) p Hp) as [HpX [Hpm _]]. destruct (FM_facts p HpX) as [F1 _]. rewrite F1 in Hpn.
+        assert (Hpt : snd p = t) by (apply (NoDup_map_inj (fun x => clear (s_name x)) sigs); try assumption; apply HX; assumption).
+        assert (Hpm' : is_muxb (snd p) = true) by (rewrite Hpt; exact Htm).
+        pose proof (Hpm Hpm') as Hps. apply Hnotin. rewrite <- (Hsame p (in_skipn _ _ _ Hps) Hpt). exact Hps.
+      + (* the names of its children are new *)
+        intros x Hx Hin. apply in_map_iff in Hx. destruct Hx as [c [<- Hc]]. destruct (HK c Hc) as [K1 [K2 K3]].
+        rewrite map_map in Hin. apply in_map_iff in Hin. destruct Hin as [p [Hpn Hp]].
+        destruct (YM_in (S j) p Hp) as [HpX [_ Hpc]]. destruct (FM_facts p HpX) as [F1 _]. rewrite F1 in Hpn.
+        cbn [s_name kimg place] in Hpn. unfold rim in Hpn. destruct (rimg_fields (fst c) (snd c) (EI (snd c))) as [_ [Hnc _]]. rewrite Hnc in Hpn.
+        assert (Hpc' : snd p = snd c) by (apply (NoDup_map_inj (fun x => clear (s_name x)) sigs); try assumption; apply HX; assumption).
+        destruct (Hpc ltac:(rewrite Hpc'; exact K2)) as [q' [Hq' Hpar]]. rewrite Hpc', K3 in Hpar. inversion Hpar as [Hid].
+        assert (HqM' : In q' MU) by (eapply in_skipn; exact Hq').
+        assert (snd q' = t) by (apply (NoDup_map_inj s_id sigs); try assumption; [apply (HMU q' HqM')|symmetry; exact Hid]).
+        apply Hnotin. rewrite <- (Hsame q' HqM' H). exact Hq'.
+      + (* the multiplexer and its children carry distinct names *)
+        cbn [map s_name place mx_img]. rewrite map_map.
+        assert (Hext2 : map (fun x => s_name (kimg t (fst q) EI x)) KX = map (fun p => clear (s_name (snd p))) KX).
+        { apply map_ext_in. intros c Hc. cbn [s_name kimg place]. unfold rim. apply (rimg_fields (fst c) (snd c) (EI (snd c))). }
+        rewrite Hext2. rewrite <- (map_map snd (fun x => clear (s_name x))).
+        change (clear (s_name t) :: map (fun x => clear (s_name x)) (map snd KX)) with (map (fun x => clear (s_name x)) (t :: map snd KX)).
+        eapply NoDup_map_filter2.
+        * intros a b Ha Hb Hab. apply (NoDup_map_inj (fun x => clear (s_name x)) sigs); try assumption.
+          -- destruct Ha as [<-|Ha]; [assumption|]. apply in_map_iff in Ha. destruct Ha as [pa [<- Hpa]]. apply (HK pa Hpa).
+          -- destruct Hb as [<-|Hb]; [assumption|]. apply in_map_iff in Hb. destruct Hb as [pb [<- Hpb]]. apply (HK pb Hpb).
+        * constructor; [|exact HndK]. intros Hin. apply in_map_iff in Hin. destruct Hin as [c [Hct Hc]]. destruct (HK c Hc) as [_ [K2 _]]. rewrite Hct in K2. congruence.
+      + assumption.
+      + rewrite Hszr. lia.
+      + rewrite Hszr. rewrite Hsz in G2. lia.
+      + intros d Hd Hdt. apply in_map_iff in Hd. destruct Hd as [p [<- Hp]].
+        destruct (YM_in (S j) p Hp) as [HpX [Hpm _]]. destruct (FM_facts p HpX) as [_ [F2 F3]]. rewrite F2 in Hdt. destruct (F3 Hdt) as [R1 R2].
+        assert (Hne : t <> snd p).
+        { intros Heq. assert (Hpm' : is_muxb (snd p) = true) by (rewrite <- Heq; exact Htm).
+          pose proof (Hpm Hpm') as Hps. apply Hnotin. rewrite <- (Hsame p (in_skipn _ _ _ Hps) (eq_sym Heq)). exact Hps. }
+        rewrite Hszr, R1. fold es1 in R2. rewrite Hes2. unfold overlaps.
+        destruct (proj2 (tops_geo es m names Hmm) t (snd p) Ht (HX p HpX) Htt Hdt Hne) as [Hd|Hd]; rewrite ?Hsz in Hd; lia.
+  Qed.
+
+End MultiImport.
+
+Lemma Permutation_filter_len : forall {A} (f : A -> bool) l l', Permutation l l' -> length (filter f l) = length (filter f l').
+Proof.
+  intros A f l l' H. induction H; cbn [filter]; try reflexivity.
+  - destruct (f x); cbn [length]; rewrite IHPermutation; reflexivity.
+  - destruct (f x), (f y); reflexivity.
+  - congruence.
+Qed.
+Lemma filter_filter_sub : forall {A} (f g : A -> bool) l, (forall x, In x l -> f x = true -> g x = true) -> filter f (filter g l) = filter f l.
+Proof.
+  intros A f g l. induction l as [|x r IH]; intros H; [reflexivity|]. cbn [filter].
+  destruct (g x) eqn:Eg; cbn [filter]; destruct (f x) eqn:Ef; try (rewrite IH by (intros y Hy; apply H; right; assumption); reflexivity).
+  rewrite (H x (or_introl eq_refl) Ef) in Eg. discriminate.
+Qed.
+Lemma map_const_repeat : forall {A B} (b : B) (l : list A), map (fun _ => b) l = repeat b (length l).
+Proof. intros A B b l. induction l as [|x r IH]; [reflexivity|]. cbn. rewrite IH. reflexivity. Qed.
+
+Section MultiWhole.
+  Variables (es : list enum_def) (env : ienv) (mpos : nat) (m : message) (names : list string) (st0 : istate).
+  Hypothesis Hmm : mmessage es names m.
+  Let sigs := m_signals m.
+  Let msgid := u32 (m_canid m).
+  Hypothesis Henv : forall s, In s sigs -> is_muxb s = false -> env_sig es env st0 msgid s /\ enum_wf (e_of es s).
+  Hypothesis Henvx : forall t, In t sigs -> is_muxb t = true -> desc_of key_eqb (msgid, clear (s_name t)) (ie_sig_desc env) = s_desc t.
+  Hypothesis Hext : forall t c, In t sigs -> is_muxb t = true -> In c sigs -> s_parent c = Some (s_id t) ->
+    lookup key_eqb (msgid, clear (s_name c)) (ie_ext_muxes env)
+    = Some (mkdextmux msgid (clear (s_name t)) (clear (s_name c)) (ranges_of (mem_of (s_gcount t) c))).
+  Hypothesis Hextm : forall t, In t sigs -> is_topb t = true -> lookup key_eqb (msgid, clear (s_name t)) (ie_ext_muxes env) = None.
+  Hypothesis Hrv0 : ProofsEnum.refs_valid st0.
+  Hypothesis Hmany : many_of sigs = true.
+
+  Lemma ims_multi : forall st S' dname dtx D,
+    Permutation sigs S' ->
+    sort_by (fun a b => get_start_bit a <? get_start_bit b) D = map (imgM es m) S' ->
+    Inv st -> ProofsEnum.st_le st0 st ->
+    let X := index_from 0 S' in
+    let MU := filter (fun p : Z * signal => is_muxb (snd p)) X in
+    exists st' EI st1,
+      import_message_signals env st mpos (mkdmessage msgid dname (u32 (m_size m)) dtx D)
+      = Ok (st', map (FM es m MU X EI st1) (YM MU X 0)) /\
+      Inv st' /\ ProofsEnum.st_le st st' /\ is_enums st' = is_enums st1 /\ is_enum_refs st' = is_enum_refs st1 /\
+      (forall s, In s sigs -> is_muxb s = false -> EIok es st1 s (EI s)) /\
+      (forall p, In p X -> lookup key_eqb (msgid, clear (s_name (snd p))) (is_sigmap st') = Some (mpos, fst p)) /\
+      (forall k, (forall s, In s sigs -> k <> (msgid, clear (s_name s))) -> lookup key_eqb k (is_sigmap st') = lookup key_eqb k (is_sigmap st)).
+  Proof.
+    intros st S' dname dtx D Hperm Hsort HI Hle X MU.
+    pose proof Hmm as [_ [_ [_ [_ [_ [Hid [Hsz [Hms _]]]]]]]]. pose proof Hms as [Hids [Hnames [_ [Htopm _]]]].
+    assert (HndS : NoDup S') by (eapply Permutation_NoDup; [exact Hperm|]; eapply NoDup_map_inv; exact Hids).
+    assert (HinS : forall s, In s S' <-> In s sigs) by (intros s; split; intros H; [eapply Permutation_in; [apply Permutation_sym; exact Hperm|exact H]|eapply Permutation_in; eauto]).
+    assert (HX : forall p, In p X -> In (snd p) sigs).
+    { intros [i x] Hp. cbn [snd]. pose proof (index_from_range _ _ _ _ Hp) as [_ Hx]. apply HinS. assumption. }
+    assert (HXnd : NoDup (map snd X)) by (apply index_from_snd_nodup; assumption).
+    assert (HMUin : forall q, In q MU -> In (snd q) sigs /\ is_muxb (snd q) = true).
+    { intros q Hq. apply filter_In in Hq. destruct Hq as [Hq Hqm]. split; [apply HX; assumption|assumption]. }
+    assert (HMUall : forall t, In t sigs -> is_muxb t = true -> exists i, In (i, t) MU).
+    { intros t Ht Htm. destruct (in_index_from S' 0 t (proj2 (HinS t) Ht)) as [i Hi]. exists i. apply filter_In. split; assumption. }
+    assert (HMUnd : NoDup (map snd MU)) by (apply NoDup_map_filter; assumption).
+    assert (Hlen : (2 <= length MU)%nat).
+    { assert (E1 : map snd MU = filter is_muxb S').
+      { unfold MU, X. rewrite <- (Proofs.index_from_snd S' 0) at 2. generalize (index_from 0 S'). intros l.
+        induction l as [|p r IH]; [reflexivity|]. cbn [filter map]. destruct (is_muxb (snd p)); cbn [map]; rewrite IH; reflexivity. }
+      rewrite <- (map_length snd MU), E1, <- (Permutation_filter_len is_muxb sigs S' Hperm).
+      unfold many_of in Hmany. apply Nat.ltb_lt in Hmany.
+      change (fun s : signal => match s_kind s with KMux => true | _ => false end) with is_muxb in Hmany.
+      rewrite filter_filter_sub in Hmany by (intros x Hx Hxm; apply Htopm; assumption). lia. }
+    assert (Hsome : exists t0, In t0 sigs /\ is_muxb t0 = true).
+    { destruct MU as [|q0 r0] eqn:EM; [cbn in Hlen; lia|]. exists (snd q0). apply HMUin. left. reflexivity. }
+    unfold import_message_signals. cbv zeta. cbn [dm_signals dm_id dm_size]. rewrite Hsort, index_from_map_img. fold X.
+    rewrite (u32_id (m_size m)) by lia.
+    assert (Hfil : filter (fun p : Z * dsignal => ds_muxor (snd p)) (map (fun p => (fst p, imgM es m (snd p))) X)
+                   = map (fun q => (fst q, imgM es m (snd q))) MU).
+    { unfold MU. generalize X. intros l. induction l as [|p r IH]; [reflexivity|]. cbn [map filter fst snd].
+      assert (Hm : ds_muxor (imgM es m (snd p)) = is_muxb (snd p)).
+      { unfold imgM. destruct (is_muxb (snd p)); [reflexivity|]. destruct (is_topb (snd p)); [unfold dsig_e; destruct (s_kind (snd p)); reflexivity|].
+        unfold child_dsig. destruct (s_kind (snd p)); reflexivity. }
+      rewrite Hm. destruct (is_muxb (snd p)); cbn [map]; rewrite IH; reflexivity. }
+    rewrite Hfil.
+    destruct MU as [|q1 [|q2 qr]] eqn:EMU; [cbn in Hlen; lia|cbn in Hlen; lia|]. rewrite <- EMU in *. clear Hlen.
+    assert (Hshape : exists a b c, map (fun q => (fst q, imgM es m (snd q))) MU = a :: b :: c) by (rewrite EMU; cbn [map]; eauto).
+    destruct Hshape as [ma [mb [mc Hshape]]]. rewrite Hshape. rewrite <- Hshape. destruct ma as [ma1 ma2].
+    (* the first loop *)
+    destruct (loop1M es env mpos m names st0 Hmm Henv Henvx Hext Hextm Hrv0 Hsome MU HMUin HMUall HMUnd X [] (fun _ => 0) st) as [st1 [EI [E1 [I1 [L1 [K1 [_ [S1 S2]]]]]]]];
+      try assumption; [intros q []|].
+    cbn [app filter map] in E1.
+    assert (HG0 : GR es m (fun _ => 0) MU [] = repeat [] (length (map (fun q => (fst q, imgM es m (snd q))) MU))).
+    { unfold GR. cbn [filter map]. rewrite map_length. apply map_const_repeat. }
+    rewrite HG0 in E1.
+    change (fold_left _ (map (fun p => (fst p, imgM es m (snd p))) X) (Ok (st, [], repeat [] _)))
+      with (fold_left (f1M es env mpos m MU) (map (fun p => (fst p, imgM es m (snd p))) X) (Ok (st, [], repeat [] (length (map (fun q => (fst q, imgM es m (snd q))) MU))))).
+    rewrite E1. cbn [bind].
+    assert (HEI : forall s, In s sigs -> is_muxb s = false -> EIok es st1 s (EI s)).
+    { intros s Hs Hnm. destruct (in_index_from S' 0 s (proj2 (HinS s) Hs)) as [i Hi]. apply (K1 (i, s) Hi Hnm). }
+    (* the second loop *)
+    destruct (loop2M es env mpos m names st0 Hmm Henv Henvx Hext Hextm Hsome MU HMUin HMUall HMUnd X HX HXnd eq_refl EI st1 HEI (length MU) st1 (Nat.le_refl _) eq_refl)
+      as [st' [E2 [Ees [Erf [S3 S4]]]]].
+    assert (HY : YM MU X (length MU) = filter plainp X) by (unfold YM; rewrite skipn_all; cbn [rev flat_map]; apply app_nil_r).
+    rewrite HY in E2.
+    assert (Hmap : map (timg EI) (filter plainp X) = map (FM es m MU X EI st1) (filter plainp X)).
+    { apply map_ext_in. intros p Hp. apply filter_In in Hp. destruct Hp as [_ Hp]. unfold plainp in Hp. apply andb_true_iff in Hp. destruct Hp as [P1 P2].
+      apply negb_true_iff in P2. unfold FM. rewrite P2, P1. reflexivity. }
+    rewrite Hmap.
+    change (fold_left _ (rev (seq 0 (length (map (fun q => (fst q, imgM es m (snd q))) MU)))) (Ok (st1, map (FM es m MU X EI st1) (filter plainp X), GR es m EI MU X)))
+      with (fold_left (stepM es env mpos m MU) (rev (seq 0 (length (map (fun q => (fst q, imgM es m (snd q))) MU)))) (Ok (st1, map (FM es m MU X EI st1) (filter plainp X), GR es m EI MU X))).
+    rewrite map_length.
+    rewrite E2. cbn [bind fst].
+    exists st', EI, st1. split; [reflexivity|].
+    assert (Hinv' : Inv st').
+    { destruct I1 as [A1 [A2 A3]]. unfold Inv, ProofsEnum.refs_valid. rewrite Ees, Erf. auto. }
+    split; [exact Hinv'|]. split.
+    { eapply ProofsEnum.st_le_trans; [destruct HI as [R _]; exact R|exact L1|]. apply ProofsLayout.st_le_same; assumption. }
+    split; [exact Ees|]. split; [exact Erf|]. split; [exact HEI|]. split.
+    - intros p Hp. destruct (is_muxb (snd p)) eqn:Em.
+      + apply S3. rewrite firstn_all. apply filter_In. split; assumption.
+      + rewrite S4; [apply (S1 p Hp Em)|]. intros q Hq Heq. inversion Heq as [Hn]. rewrite firstn_all in Hq. destruct (HMUin q Hq) as [Hqs Hqm].
+        assert (snd p = snd q) by (apply (NoDup_map_inj (fun x => clear (s_name x)) sigs); try assumption; apply HX; assumption). congruence.
+    - intros k Hk. rewrite S4; [apply S2; intros p Hp; apply Hk; apply HX; assumption|].
+      intros q Hq. rewrite firstn_all in Hq. apply Hk. apply (HMUin q Hq).
+  Qed.
+End MultiWhole.
+
+(* ---------------- the export order of a message with any number of top-level multiplexers ---------------- *)
+Lemma filter_keys_perm : forall {A K} (f : K -> A -> bool) (ks : list K) (l : list A),
+  (forall k k' x, In k ks -> In k' ks -> In x l -> f k x = true -> f k' x = true -> k = k') -> NoDup ks ->
+  Permutation (filter (fun x => existsb (fun k => f k x) ks) l) (flat_map (fun k => filter (f k) l) ks).
+Proof.
+  intros A K f ks. induction ks as [|k r IH]; intros l Hu Hnd; cbn [existsb flat_map].
+  - rewrite Proofs.filter_nil by reflexivity. apply Permutation_refl.
+  - inversion Hnd as [|? ? Hni Hnr]; subst.
+    eapply Permutation_trans; [apply Permutation_sym, filter_partition_perm|apply Permutation_app_head, IH].
+    + intros x Hx. destruct (f k x) eqn:E1; [|reflexivity]. cbn [andb].
+      destruct (existsb (fun k0 => f k0 x) r) eqn:E2; [|reflexivity]. exfalso.
+      apply existsb_exists in E2. destruct E2 as [k' [Hk' E3]].
+      assert (k = k') by (apply (Hu k k' x); [left; reflexivity|right; assumption|assumption|assumption|assumption]). subst. contradiction.
+    + intros a b x Ha Hb. apply Hu; right; assumption.
+    + assumption.
+Qed.
+Lemma flat_map_perm_ext : forall {A B} (f g : A -> list B) l, (forall x, In x l -> Permutation (f x) (g x)) -> Permutation (flat_map f l) (flat_map g l).
+Proof.
+  intros A B f g l. induction l as [|x r IH]; intros H; [apply Permutation_refl|]. cbn [flat_map].
+  apply Permutation_app; [apply H; left; reflexivity|apply IH; intros y Hy; apply H; right; assumption].
+Qed.
+
+Section MultiOrder.
+  Variables (es : list enum_def) (names : list string) (m : message).
+  Hypothesis Hmm : mmessage es names m.
+  Let sigs := m_signals m.
+  Let Hms : msigs_ok es sigs. Proof. destruct Hmm as [_ [_ [_ [_ [_ [_ [_ [H _]]]]]]]]. exact H. Qed.
+
+  Definition kf (t x : signal) : bool := is_muxb t && match s_parent x with Some q => q =? s_id t | None => false end.
+
+  Lemma SXg_perm : Permutation sigs (SX m).
+  Proof.
+    pose proof Hms as [Hids [_ [_ [Htopm [Hch _]]]]].
+    assert (Hnd : NoDup sigs) by (eapply NoDup_map_inv; exact Hids).
+    set (tops := filter is_topb sigs).
+    assert (P1 : Permutation (SX m) (tops ++ flat_map (fun t => if is_muxb t then walk_of sigs t else []) tops)).
+    { unfold SX. fold sigs. fold tops. apply (flat_map_cons_perm (fun t => if is_muxb t then walk_of sigs t else []) tops). }
+    assert (P2 : Permutation (filter (fun x => negb (is_topb x)) sigs) (flat_map (fun t => filter (kf t) sigs) tops)).
+    { rewrite (filter_ext_in (fun x => negb (is_topb x)) (fun x => existsb (fun t => kf t x) tops)).
+      - apply filter_keys_perm; [|apply NoDup_filter; assumption].
+        intros k k' x Hk Hk' Hx E1 E2. unfold tops in Hk, Hk'. apply filter_In in Hk. apply filter_In in Hk'.
+        unfold kf in E1, E2. apply andb_true_iff in E1. apply andb_true_iff in E2. destruct E1 as [_ E1]. destruct E2 as [_ E2].
+        destruct (s_parent x) as [q|]; [|discriminate]. apply Z.eqb_eq in E1. apply Z.eqb_eq in E2.
+        apply (NoDup_map_inj s_id sigs); try tauto. congruence.
+      - intros x Hx. destruct (is_topb x) eqn:Et; cbn [negb].
+        + destruct (existsb (fun t => kf t x) tops) eqn:E; [|reflexivity]. apply existsb_exists in E. destruct E as [t [_ E]].
+          unfold kf in E. unfold is_topb in Et. destruct (s_parent x); [discriminate|]. rewrite andb_false_r in E. discriminate.
+        + symmetry. apply existsb_exists. destruct (Hch x Hx Et) as [mx [Hmx [Hmt [Hmxm [_ [Hp _]]]]]]. exists mx. split; [apply filter_In; auto|].
+          unfold kf. rewrite Hmxm, Hp, Z.eqb_refl. reflexivity. }
+    assert (P3 : Permutation (flat_map (fun t => filter (kf t) sigs) tops) (flat_map (fun t => if is_muxb t then walk_of sigs t else []) tops)).
+    { apply flat_map_perm_ext. intros t Ht. unfold tops in Ht. apply filter_In in Ht. destruct Ht as [Ht Htt]. unfold kf.
+      destruct (is_muxb t) eqn:Em; cbn [andb]; [|rewrite Proofs.filter_nil by reflexivity; apply Permutation_refl].
+      apply Permutation_sym. unfold walk_of. eapply Permutation_trans; [apply walk_perm|].
+      rewrite filter_all.
+      - unfold children. apply Permutation_sym, sort_by_perm.
+      - intros c Hc. destruct (kids_ok_of es sigs t Hms Ht Em) as [HK _]. rewrite Forall_forall in HK.
+        pose proof (grp_range t c (child_gok es t c (HK c Hc))) as Hg.
+        destruct (selw_facts es m t names Hmm Ht Em) as [_ [_ [Hg1 _]]]. rewrite Z2Nat.id by lia. lia. }
+    eapply Permutation_trans; [|apply Permutation_sym; exact P1].
+    eapply Permutation_trans; [|apply Permutation_app_head; exact P3].
+    eapply Permutation_trans; [|apply Permutation_app_head; exact P2].
+    eapply Permutation_trans; [|apply Permutation_sym; apply filter_partition_perm; intros x _; destruct (is_topb x); reflexivity].
+    rewrite filter_all; [apply Permutation_refl|]. intros x _. destruct (is_topb x); reflexivity.
+  Qed.
+
+  Lemma child_in_sigs_g : forall t c, In t sigs -> is_muxb t = true -> In c (children sigs t) ->
+    In c sigs /\ is_topb c = false /\ child_ok es t c /\ is_muxb c = false /\ par m c = t.
+  Proof.
+    intros t c Ht Htm Hc. destruct (kids_ok_of es sigs t Hms Ht Htm) as [HK _]. rewrite Forall_forall in HK. pose proof (HK c Hc) as Hok.
+    unfold children in Hc. apply Proofs.In_sort_by in Hc. apply filter_In in Hc. destruct Hc as [Hc Hp].
+    assert (Hpp : s_parent c = Some (s_id t)) by (destruct Hok as [_ [H _]]; exact H).
+    split; [assumption|]. split; [unfold is_topb; rewrite Hpp; reflexivity|]. split; [assumption|]. split.
+    - destruct Hok as [Hk _]. unfold is_muxb. destruct (s_kind c); try reflexivity. exfalso. apply Hk. reflexivity.
+    - apply (par_of es m names Hmm t c Ht Hc Hpp).
+  Qed.
+
+  Lemma D_imgM : flat_map (tdsigs es sigs (m_order m) (recs_out m)) (filter is_topb sigs) = map (imgM es m) (SX m).
+  Proof.
+    unfold SX. fold sigs.
+    assert (G : forall l, (forall t, In t l -> In t sigs /\ is_topb t = true) ->
+              flat_map (tdsigs es sigs (m_order m) (recs_out m)) l = map (imgM es m) (flat_map (tx sigs) l)).
+    { induction l as [|t r IH]; intros Hl; [reflexivity|]. cbn [flat_map]. rewrite map_app, IH by (intros x Hx; apply Hl; right; assumption).
+      f_equal. destruct (Hl t (or_introl eq_refl)) as [Ht Htt]. unfold tx. cbn [map]. unfold tdsigs.
+      destruct (is_muxb t) eqn:Em.
+      - pose proof Em as Ek. unfold is_muxb in Ek. destruct (s_kind t) eqn:Ekk; try discriminate.
+        f_equal; [unfold imgM; rewrite Em; reflexivity|].
+        unfold wsigs, walk_of. rewrite map_flat_map. apply flat_map_ext_in_simple. intros id _.
+        apply map_ext_in. intros c Hc. apply filter_In in Hc. destruct Hc as [Hc Hg].
+        destruct (child_in_sigs_g t c Ht Em Hc) as [Hcs [Hct [Hok [Hnm Hpar]]]].
+        unfold imgM. rewrite Hnm, Hct, Hpar. apply Z.eqb_eq in Hg. rewrite Hg. reflexivity.
+      - unfold imgM. rewrite Em, Htt. unfold is_muxb in Em. destruct (s_kind t); try discriminate; reflexivity. }
+    apply G. intros t Ht. apply filter_In in Ht. exact Ht.
+  Qed.
+End MultiOrder.
+
+(* ---------------- projection of a message with several multiplexers ---------------- *)
+Section MultiProj.
+  Variables (es : list enum_def) (st : istate) (names : list string) (m : message) (EI : signal -> Z) (S' : list signal) (st1 : istate).
+  Hypothesis Hmm : mmessage es names m.
+  Let sigs := m_signals m.
+  Hypothesis Hwf : forall s, In s sigs -> enum_wf (e_of es s).
+  Hypothesis HEI : forall s, In s sigs -> is_muxb s = false -> EIok es st s (EI s).
+  Hypothesis HpS : Permutation sigs S'.
+  Let X := index_from 0 S'.
+  Let MU := filter (fun p : Z * signal => is_muxb (snd p)) X.
+  Let F := FM es m MU X EI st1.
+  Let R := map F (YM MU X 0).
+  Let es' := is_enums st.
+  Let Hms : msigs_ok es sigs. Proof. destruct Hmm as [_ [_ [_ [_ [_ [_ [_ [H _]]]]]]]]. exact H. Qed.
+
+  Lemma HndSM : NoDup S'.
+  Proof. destruct Hms as [Hids _]. eapply Permutation_NoDup; [exact HpS|]. eapply NoDup_map_inv. exact Hids. Qed.
+  Lemma XM_in : forall p, In p X -> In (snd p) sigs.
+  Proof.
+    intros [i x] Hp. cbn [snd]. apply index_from_range in Hp. destruct Hp as [_ Hx].
+    eapply Permutation_in; [apply Permutation_sym; exact HpS|exact Hx].
+  Qed.
+  Lemma XM_nd : NoDup (map snd X).
+  Proof. apply index_from_snd_nodup. exact HndSM. Qed.
+  Lemma MU_in : forall q, In q MU -> In q X /\ In (snd q) sigs /\ is_muxb (snd q) = true /\ is_topb (snd q) = true.
+  Proof.
+    intros q Hq. apply filter_In in Hq. destruct Hq as [Hq Hm]. pose proof (XM_in q Hq) as Hs.
+    destruct Hms as [_ [_ [_ [Htopm _]]]]. auto.
+  Qed.
+  Lemma MU_nd : NoDup (map snd MU).
+  Proof. apply NoDup_map_filter. exact XM_nd. Qed.
+  Lemma MU_all : forall t, In t sigs -> is_muxb t = true -> exists i, In (i, t) MU.
+  Proof.
+    intros t Ht Htm. assert (HtS : In t S') by (eapply Permutation_in; eauto).
+    destruct (in_index_from S' 0 t HtS) as [i Hi]. exists i. apply filter_In. split; assumption.
+  Qed.
+
+  Lemma XYM_perm : Permutation X (YM MU X 0).
+  Proof.
+    pose proof Hms as [Hids _].
+    unfold YM. cbn [skipn].
+    assert (E1 : Permutation X (filter plainp X ++ filter (fun p => negb (plainp p)) X)).
+    { eapply Permutation_trans; [|apply Permutation_sym; apply filter_partition_perm; intros x _; destruct (plainp x); reflexivity].
+      rewrite filter_all; [apply Permutation_refl|]. intros x _. destruct (plainp x); reflexivity. }
+    eapply Permutation_trans; [exact E1|]. apply Permutation_app_head.
+    assert (E2 : Permutation (filter (fun p => negb (plainp p)) X) (MU ++ filter childp X)).
+    { eapply Permutation_trans; [|apply Permutation_sym; apply filter_partition_perm].
+      - erewrite filter_ext_in; [apply Permutation_refl|]. intros p Hp. unfold plainp, childp. cbn beta.
+        destruct (is_muxb (snd p)) eqn:Em, (is_topb (snd p)) eqn:Et; reflexivity.
+      - intros p Hp. unfold childp. destruct (is_muxb (snd p)) eqn:Em, (is_topb (snd p)) eqn:Et; try reflexivity.
+        exfalso. destruct Hms as [_ [_ [_ [Htopm _]]]]. rewrite (Htopm _ (XM_in p Hp) Em) in Et. discriminate. }
+    eapply Permutation_trans; [exact E2|].
+    assert (E3 : Permutation (filter childp X) (flat_map (fun q => filter (chof (snd q)) X) MU)).
+    { rewrite (filter_ext_in childp (fun p => existsb (fun q => chof (snd q) p) MU)).
+      - apply filter_keys_perm.
+        + intros k k' x Hk Hk' Hx C1 C2. unfold chof in C1, C2. destruct (s_parent (snd x)); [|discriminate].
+          apply Z.eqb_eq in C1. apply Z.eqb_eq in C2.
+          destruct (MU_in k Hk) as [_ [Hks _]]. destruct (MU_in k' Hk') as [_ [Hks' _]].
+          assert (snd k = snd k') by (apply (NoDup_map_inj s_id sigs); try assumption; congruence).
+          apply (NoDup_map_inj snd MU); try assumption. exact MU_nd.
+        + eapply NoDup_map_inv. exact MU_nd.
+      - intros p Hp. unfold childp. destruct (is_topb (snd p)) eqn:Et; cbn [negb].
+        + destruct (existsb (fun q => chof (snd q) p) MU) eqn:E; [|reflexivity]. apply existsb_exists in E. destruct E as [q [_ E]].
+          unfold chof in E. unfold is_topb in Et. destruct (s_parent (snd p)); discriminate.
+        + symmetry. apply existsb_exists. destruct (par_spec es m names Hmm (snd p) (XM_in p Hp) Et) as [P1 [P2 [_ [_ P5]]]].
+          destruct (MU_all _ P1 P2) as [i Hi]. exists (i, par m (snd p)). split; [assumption|]. unfold chof. cbn [snd]. rewrite P5. apply Z.eqb_refl. }
+    eapply Permutation_trans; [apply Permutation_app_head; exact E3|].
+    eapply Permutation_trans; [apply Permutation_sym; apply (flat_map_cons_perm (fun q => filter (chof (snd q)) X) MU)|].
+    change (fun t : Z * signal => t :: filter (chof (snd t)) X) with (blockY X).
+    apply Permutation_flat_map. apply Permutation_rev.
+  Qed.
+
+  Lemma FM_id : forall p, s_id (F p) = fst p.
+  Proof.
+    intros p. unfold F, FM. destruct (is_muxb (snd p)); [reflexivity|].
+    destruct (is_topb (snd p)); cbn [s_id timg kimg place]; apply (rimg_fields (fst p) (snd p) (EI (snd p))).
+  Qed.
+  Lemma FM_name : forall p, s_name (F p) = clear (s_name (snd p)).
+  Proof.
+    intros p. unfold F, FM. destruct (is_muxb (snd p)); [reflexivity|].
+    destruct (is_topb (snd p)); cbn [s_name timg kimg place]; apply (rimg_fields (fst p) (snd p) (EI (snd p))).
+  Qed.
+  Lemma RM_in : forall p, In p X -> In (F p) R.
+  Proof. intros p Hp. unfold R. apply in_map. eapply Permutation_in; [exact XYM_perm|exact Hp]. Qed.
+  Lemma RM_ids : NoDup (map s_id R).
+  Proof.
+    unfold R. rewrite map_map. rewrite (map_ext _ fst) by apply FM_id.
+    eapply Permutation_NoDup; [apply Permutation_map; exact XYM_perm|]. apply ProofsIds.index_from_fst_nodup.
+  Qed.
+  Lemma RM_len : Datatypes.length R = Datatypes.length sigs.
+  Proof.
+    unfold R. rewrite map_length. rewrite <- (Permutation_length XYM_perm). unfold X. rewrite <- (map_length snd (index_from 0 S')), Proofs.index_from_snd.
+    symmetry. apply Permutation_length. exact HpS.
+  Qed.
+  Lemma find_mxM : forall q, In q MU -> find_sig R (fst q) = Some (mx_img (snd q) (fst q) (gsf es m X EI st1 (snd q))).
+  Proof.
+    intros q Hq. destruct (MU_in q Hq) as [HqX [_ [Hm _]]].
+    apply (ProofsIds.find_sig_unique R (mx_img (snd q) (fst q) (gsf es m X EI st1 (snd q))) RM_ids).
+    pose proof (RM_in q HqX) as Hin. unfold F, FM in Hin. rewrite Hm in Hin. exact Hin.
+  Qed.
+  Lemma selw_imgM : forall t mid gs, In t sigs -> is_muxb t = true -> sel_width (mx_img t mid gs) = sel_width t.
+  Proof.
+    intros t mid gs Ht Htm. destruct (selw_facts es m t names Hmm Ht Htm) as [Hs _].
+    unfold sel_width at 1. cbn [s_gcount mx_img]. apply ProofsIds.calc_size_sel. lia.
+  Qed.
+
+  Lemma proj_ptM : forall p, In p X -> proj_signal es' R (F p) = proj_signal es sigs (snd p).
+  Proof.
+    intros p Hp. pose proof (XM_in p Hp) as Hs. pose proof Hms as [Hids [_ [Htops _]]].
+    destruct (is_muxb (snd p)) eqn:Em.
+    - (* a multiplexer *)
+      unfold F, FM. rewrite Em.
+      destruct (mx_top es m (snd p) names Hmm Hs Em) as [[Hp0 [Hg0 [Hv0 [Ht0 [Ha0 _]]]]] _].
+      unfold proj_signal, membership. rewrite !ProofsIds.abs_start_top by (try assumption; reflexivity).
+      pose proof Em as Hmk. unfold is_muxb in Hmk. destruct (s_kind (snd p)) eqn:Ek; try discriminate.
+      cbn [s_kind s_name s_rel s_parent s_groups s_desc s_startval s_sendtype s_attrs mx_img].
+      rewrite (selw_imgM (snd p) _ _ Hs Em), ?Ek, Hp0, Hv0, Ht0, Ha0, clear_spaces_idem. reflexivity.
+    - assert (Hk : s_kind (snd p) <> KMux) by (intros E; unfold is_muxb in Em; rewrite E in Em; discriminate).
+      pose proof (HEI (snd p) Hs Em) as HE. pose proof (Hwf (snd p) Hs) as Hw.
+      assert (Q1 : s_kind (rim EI p) = s_kind (snd p)) by (unfold rim, rimg; destruct (s_kind (snd p)); try reflexivity; exfalso; apply Hk; reflexivity).
+      assert (Q2 : sig_size es' (rim EI p) = sig_size es (snd p)) by (apply rimg_size; assumption).
+      assert (Q3 : s_kind (snd p) = KStandard -> s_signed (rim EI p) = s_signed (snd p) /\ s_scale (rim EI p) = s_scale (snd p) /\ s_offset (rim EI p) = s_offset (snd p) /\
+                     s_min (rim EI p) = s_min (snd p) /\ s_max (rim EI p) = s_max (snd p) /\ s_unit (rim EI p) = s_unit (snd p))
+        by (intros E; unfold rim, rimg; rewrite E; cbn; auto 10).
+      assert (Q4 : s_kind (snd p) = KEnum -> sorted_enum_values (nth_enum es' (s_enum (rim EI p))) = sorted_enum_values (nth_enum es (s_enum (snd p)))).
+      { intros E. destruct (HE E) as [_ [Hv _]]. unfold rim, rimg. rewrite E. cbn [s_enum]. unfold es'. rewrite Hv. rewrite (evals_id _ Hw). reflexivity. }
+      destruct (rimg_fields (fst p) (snd p) (EI (snd p))) as [F1 [F2 [F3 [F4 [F5 F6]]]]].
+      unfold F, FM. rewrite Em.
+      destruct (is_topb (snd p)) eqn:Et.
+      + (* a top-level signal beside the multiplexers *)
+        rewrite Forall_forall in Htops. destruct (Htops (snd p) ltac:(apply filter_In; auto)) as [Hp0 [Hg0 [Hv0 [Ht0 [Ha0 _]]]]].
+        unfold proj_signal, membership. rewrite !ProofsIds.abs_start_top by (try assumption; reflexivity).
+        unfold timg. rewrite ProofsLayout.sig_size_place.
+        cbn [s_kind s_name s_rel s_parent s_groups s_signed s_scale s_offset s_min s_max s_unit s_enum s_desc s_startval s_sendtype s_attrs place].
+        unfold rim in *. rewrite Q1, Q2, F2, F3, F4, F5, F6, Hp0, Hv0, Ht0, Ha0, clear_spaces_idem.
+        destruct (s_kind (snd p)) eqn:Ek; try (exfalso; apply Hk; reflexivity).
+        * destruct (Q3 eq_refl) as [A1 [A2 [A3 [A4 [A5 A6]]]]]. rewrite A1, A2, A3, A4, A5, A6. reflexivity.
+        * rewrite (Q4 eq_refl). reflexivity.
+      + (* a multiplexed signal *)
+        destruct (par_spec es m names Hmm (snd p) Hs Et) as [P1 [P2 [P3 [Hok P5]]]].
+        set (t := par m (snd p)) in *.
+        destruct (MU_all t P1 P2) as [i Hi].
+        assert (Hmid : midM MU t = i) by (apply (midM_spec es m names Hmm MU (fun q Hq => conj (proj1 (proj2 (MU_in q Hq))) (proj1 (proj2 (proj2 (MU_in q Hq))))) MU_nd (i, t) Hi)).
+        pose proof (find_mxM (i, t) Hi) as Hfind. cbn [fst snd] in Hfind.
+        destruct Hok as [_ [Hpar [Hgok [Hv0 [Ht0 [Ha0 _]]]]]].
+        rewrite Hmid.
+        assert (Hmem : membership R (kimg t i EI p) = membership sigs (snd p)).
+        { unfold membership, kimg. cbn [s_parent s_groups place]. rewrite Hpar, Hfind, (ProofsIds.find_sig_unique sigs t Hids P1).
+          unfold igrp. destruct (s_groups (snd p)) as [|g0 gr] eqn:Eg; [|reflexivity].
+          destruct (s_gcount t =? 2 ^ sel_width t) eqn:E2.
+          - cbn [s_gcount mx_img]. apply Z.eqb_eq in E2. rewrite E2. reflexivity.
+          - destruct Hgok as [[_ H2]|[Hx _]]; [|exfalso; apply Hx; reflexivity].
+            destruct (Z.to_nat (s_gcount t)) eqn:En; [lia|]. cbn [zrange]. reflexivity. }
+        assert (HSl : exists k2, Datatypes.length sigs = S k2) by (destruct sigs as [|x r]; [destruct Hs|exists (Datatypes.length r); reflexivity]).
+        destruct HSl as [k2 HSl].
+        unfold proj_signal. rewrite Hmem, RM_len, HSl. cbn [abs_start].
+        unfold kimg. rewrite ProofsLayout.sig_size_place.
+        cbn [s_kind s_name s_rel s_parent s_groups s_signed s_scale s_offset s_min s_max s_unit s_enum s_desc s_startval s_sendtype s_attrs place].
+        rewrite Hfind. rewrite Hpar.
+        rewrite (ProofsIds.find_sig_unique sigs t Hids P1).
+        rewrite !ProofsIds.abs_start_top by (try reflexivity; apply (proj1 (mx_top es m t names Hmm P1 P2))).
+        unfold rim in *. rewrite Q1, Q2, F2, F3, F4, F5, F6, Hv0, Ht0, Ha0, (selw_imgM t _ _ P1 P2), clear_spaces_idem.
+        cbn [s_name s_rel mx_img]. rewrite clear_spaces_idem.
+        destruct (s_kind (snd p)) eqn:Ek; try (exfalso; apply Hk; reflexivity).
+        * destruct (Q3 eq_refl) as [A1 [A2 [A3 [A4 [A5 A6]]]]]. rewrite A1, A2, A3, A4, A5, A6. reflexivity.
+        * rewrite (Q4 eq_refl). reflexivity.
+  Qed.
+
+  Lemma proj_sigs_multi :
+    sort_by (fun a b => str_ltb (ps_name a) (ps_name b)) (map (proj_signal es' R) R)
+    = sort_by (fun a b => str_ltb (ps_name a) (ps_name b)) (map (proj_signal es sigs) sigs).
+  Proof.
+    assert (HR1 : map (proj_signal es' R) R = map (fun p => proj_signal es' R (F p)) (YM MU X 0)) by (unfold R at 2; apply map_map).
+    assert (HR2 : Permutation (map (proj_signal es' R) R) (map (proj_signal es sigs) sigs)).
+    { rewrite HR1.
+      eapply Permutation_trans; [apply Permutation_map; apply Permutation_sym; exact XYM_perm|].
+      rewrite (map_ext_in _ (fun p => proj_signal es sigs (snd p))) by (intros p Hp; apply proj_ptM; assumption).
+      rewrite <- (map_map snd (proj_signal es sigs)). unfold X. rewrite Proofs.index_from_snd.
+      apply Permutation_map. apply Permutation_sym. exact HpS. }
+    apply (RoundTripAttr.keyed_sort_perm_eq ps_name); [exact HR2|].
+    eapply Permutation_NoDup; [apply Permutation_map; apply Permutation_sym; exact HR2|].
+    rewrite map_map. destruct Hms as [_ [Hn _]]. exact Hn.
+  Qed.
+End MultiProj.
+
+(* ---------------- a message with several multiplexers, as a whole ---------------- *)
+Lemma imgM_common : forall es m s, ds_order (imgM es m s) = m_order m /\ ds_receivers (imgM es m s) = recs_out m.
+Proof.
+  intros es m s. unfold imgM. destruct (is_muxb s); [split; reflexivity|].
+  destruct (is_topb s); [|unfold child_dsig; destruct (s_kind s); split; reflexivity].
+  destruct (dsig_e_fields es (m_order m) (recs_out m) s) as [H1 [H2 _]]. split; assumption.
+Qed.
+
+Lemma import_message_hdr : forall es env names nodes st done m (im : signal -> dsignal) S' st' Rs,
+  mmessage es names m ->
+  (forall s, ds_order (im s) = m_order m /\ ds_receivers (im s) = recs_out m) ->
+  sort_by (fun a b => get_start_bit a <? get_start_bit b)
+    (flat_map (tdsigs es (m_signals m) (m_order m) (recs_out m)) (filter is_topb (m_signals m))) = map im S' ->
+  S' <> [] -> m_signals m <> [] ->
+  import_message_signals env st (length done)
+    (mkdmessage (u32 (m_canid m)) (clear (m_name m)) (u32 (m_size m)) (clear (m_sender m))
+       (flat_map (tdsigs es (m_signals m) (m_order m) (recs_out m)) (filter is_topb (m_signals m)))) = Ok (st', Rs) ->
+  desc_of Z.eqb (u32 (m_canid m)) (ie_msg_desc env) = m_desc m ->
+  (forall r, In r names -> In (clear r) (map n_name nodes)) ->
+  (forall r, In r names -> clear r <> dummy_node) ->
+  ~ In (m_canid m) (map m_canid done) ->
+  ~ In (clear (m_sender m), clear (m_name m)) (map (fun x => (m_sender x, m_name x)) done) ->
+  import_message env (st, done) nodes (dmsg_m es m)
+  = Ok (st', done ++ [mkmessage (m_canid m) (clear (m_name m)) (m_size m) (m_order m) 0 0 0 0
+                                (clear (m_sender m)) (recs_in m) (m_desc m) [] Rs]).
+Proof.
+  intros es env names nodes st done m im S' st' Rs Hmm Hcommon Hsort HS Hne Hsig Hmd Hnodes Hnd Hcan Hpair.
+  pose proof Hmm as [Ha [Hc [Hdl [Hsd [Hst [Hid [Hsz [Hms [Hlay [Hsn [Hrc [Hrn Hre]]]]]]]]]]]].
+  set (D := flat_map (tdsigs es (m_signals m) (m_order m) (recs_out m)) (filter is_topb (m_signals m))) in *.
+  unfold import_message. cbv zeta. unfold dmsg_m. cbn [dm_signals dm_id dm_size dm_tx dm_name]. fold D.
+  unfold desc_of in Hmd. rewrite Hmd. rewrite Hsort.
+  destruct S' as [|s0 sr] eqn:ES; [contradiction|]. rewrite <- ES in *.
+  assert (Hord : match map im S' with [] => LittleEndian | s :: _ => ds_order s end = m_order m).
+  { rewrite ES. cbn [map]. apply (Hcommon s0). }
+  rewrite Hord.
+  assert (Hfo : forallb (fun s => bo_eqb (ds_order s) (m_order m)) (map im S') = true).
+  { apply forallb_forall. intros ds Hin. apply in_map_iff in Hin. destruct Hin as [s [<- _]].
+    rewrite (proj1 (Hcommon s)). destruct (m_order m); reflexivity. }
+  rewrite Hfo. cbn [negb].
+  assert (Hrin0 : recs_in m = map clear (sort_by str_ltb (m_receivers m))).
+  { unfold recs_in. destruct (m_signals m); [contradiction|reflexivity]. }
+  assert (Hrecs : filter (fun r => negb (String.eqb r dummy_node)) (dedup_str [] (flat_map ds_receivers (map im S'))) = recs_in m).
+  { rewrite ES. cbn [map]. rewrite (dedup_copies (recs_out m)).
+    - rewrite Hrin0. unfold recs_out. destruct (m_receivers m) as [|r0 rr] eqn:Er; [reflexivity|].
+      apply filter_all. intros x Hx. apply in_map_iff in Hx. destruct Hx as [y [Hy Hin]]. subst x.
+      rewrite In_sort_str in Hin.
+      destruct (String.eqb (clear y) dummy_node) eqn:E; [|reflexivity].
+      apply String.eqb_eq in E. exfalso. apply (Hnd y); [apply Hrc; assumption|assumption].
+    - unfold recs_out. destruct (m_receivers m) as [|r0 rr] eqn:Er; [constructor; [intros []|constructor]|].
+      eapply Permutation_NoDup; [|exact Hrn]. apply Permutation_map. apply sort_by_perm.
+    - intros x Hx. destruct Hx as [Hx|Hx]; [subst; apply (Hcommon s0)|].
+      apply in_map_iff in Hx. destruct Hx as [y [<- _]]. apply (Hcommon y). }
+  rewrite Hrecs.
+  assert (Hrin : forallb (fun r => mem_str r (map n_name nodes)) (recs_in m) = true).
+  { apply forallb_forall. intros x Hx. rewrite Hrin0 in Hx.
+    apply in_map_iff in Hx. destruct Hx as [y [Hy Hin]]. subst x. rewrite In_sort_str in Hin.
+    unfold mem_str. apply existsb_exists. exists (clear y). split; [apply Hnodes, Hrc; assumption|apply String.eqb_refl]. }
+  rewrite Hrin. cbn [negb].
+  assert (Htx : mem_str (clear (m_sender m)) (map n_name nodes) = true).
+  { unfold mem_str. apply existsb_exists. exists (clear (m_sender m)). split; [apply Hnodes; assumption|apply String.eqb_refl]. }
+  rewrite Htx. cbn [negb].
+  assert (Hname : mem_str (clear (m_name m))
+                    (map m_name (filter (fun x => String.eqb (m_sender x) (clear (m_sender m))) done)) = false).
+  { apply not_in_mem_str. intros Hin. apply in_map_iff in Hin. destruct Hin as [x [Hx Hin]].
+    apply filter_In in Hin. destruct Hin as [Hin Hs]. apply String.eqb_eq in Hs.
+    apply Hpair. apply in_map_iff. exists x. split; [rewrite Hs, Hx; reflexivity|assumption]. }
+  rewrite Hname.
+  rewrite (u32_id (m_size m)) by lia. replace (m_size m >? 8) with false by lia.
+  rewrite (u32_id (m_canid m)) by lia. rewrite (not_in_mem_z _ _ Hcan).
+  rewrite (u32_id (m_canid m)) in Hsig by lia. rewrite (u32_id (m_size m)) in Hsig by lia.
+  match goal with |- bind ?x ?k = _ => replace x with (@Ok (istate * list signal) (st', Rs)) end.
+  cbn [bind]. reflexivity.
+Qed.
+
+Lemma import_message_multi : forall es env st0 names nodes st done m,
+  mmessage es names m -> many_of (m_signals m) = true ->
+  (forall s, In s (m_signals m) -> is_muxb s = false -> env_sig es env st0 (u32 (m_canid m)) s /\ enum_wf (e_of es s)) ->
+  (forall t, In t (m_signals m) -> is_muxb t = true -> desc_of key_eqb (u32 (m_canid m), clear (s_name t)) (ie_sig_desc env) = s_desc t) ->
+  (forall t c, In t (m_signals m) -> is_muxb t = true -> In c (m_signals m) -> s_parent c = Some (s_id t) ->
+     lookup key_eqb (u32 (m_canid m), clear (s_name c)) (ie_ext_muxes env)
+     = Some (mkdextmux (u32 (m_canid m)) (clear (s_name t)) (clear (s_name c)) (ranges_of (mem_of (s_gcount t) c)))) ->
+  (forall t, In t (m_signals m) -> is_topb t = true -> lookup key_eqb (u32 (m_canid m), clear (s_name t)) (ie_ext_muxes env) = None) ->
+  ProofsEnum.refs_valid st0 -> Inv st -> ProofsEnum.st_le st0 st ->
+  desc_of Z.eqb (u32 (m_canid m)) (ie_msg_desc env) = m_desc m ->
+  (forall r, In r names -> In (clear r) (map n_name nodes)) ->
+  (forall r, In r names -> clear r <> dummy_node) ->
+  ~ In (m_canid m) (map m_canid done) ->
+  ~ In (clear (m_sender m), clear (m_name m)) (map (fun x => (m_sender x, m_name x)) done) ->
+  exists st' S' EI st1,
+    let X := index_from 0 S' in
+    let MU := filter (fun p : Z * signal => is_muxb (snd p)) X in
+    import_message env (st, done) nodes (dmsg_m es m)
+    = Ok (st', done ++ [mkmessage (m_canid m) (clear (m_name m)) (m_size m) (m_order m) 0 0 0 0
+                                  (clear (m_sender m)) (recs_in m) (m_desc m) [] (map (FM es m MU X EI st1) (YM MU X 0))]) /\
+    Permutation (m_signals m) S' /\
+    Inv st' /\ ProofsEnum.st_le st st' /\
+    (forall s, In s (m_signals m) -> is_muxb s = false -> EIok es st' s (EI s)) /\
+    (forall p, In p X -> lookup key_eqb (u32 (m_canid m), clear (s_name (snd p))) (is_sigmap st') = Some (length done, fst p)) /\
+    (forall k, (forall s, In s (m_signals m) -> k <> (u32 (m_canid m), clear (s_name s))) -> lookup key_eqb k (is_sigmap st') = lookup key_eqb k (is_sigmap st)).
+Proof.
+  intros es env st0 names nodes st done m Hmm Hmany Henv Henvx Hext Hextm Hrv0 HI Hle Hmd Hnodes Hnd Hcan Hpair.
+  pose proof (D_imgM es names m Hmm) as HD.
+  pose proof (SXg_perm es names m Hmm) as HP0.
+  set (D := flat_map (tdsigs es (m_signals m) (m_order m) (recs_out m)) (filter is_topb (m_signals m))) in *.
+  assert (Hsorted : exists S', sort_by (fun a b => get_start_bit a <? get_start_bit b) D = map (imgM es m) S' /\ Permutation (m_signals m) S').
+  { assert (Hp : Permutation (sort_by (fun a b => get_start_bit a <? get_start_bit b) D) (map (imgM es m) (SX m)))
+      by (rewrite <- HD; apply Permutation_sym, sort_by_perm).
+    apply Permutation_map_inv in Hp. destruct Hp as [S' [E1 E2]]. exists S'. split; [exact E1|].
+    eapply Permutation_trans; eauto. }
+  destruct Hsorted as [S' [Hsort HpS]].
+  destruct (ims_multi es env (length done) m names st0 Hmm Henv Henvx Hext Hextm Hrv0 Hmany st S' (clear (m_name m)) (clear (m_sender m)) D HpS Hsort HI Hle)
+    as [st' [EI [st1 [Hsig [HI' [Hle' [Ees [Erf [HEI [Hsm1 Hsm2]]]]]]]]]].
+  exists st', S', EI, st1. cbv zeta.
+  assert (Hne : m_signals m <> []).
+  { intros E. rewrite E in Hmany. cbn in Hmany. discriminate. }
+  assert (HS : S' <> []).
+  { intros E. rewrite E in HpS. apply Permutation_sym, Permutation_nil in HpS. contradiction. }
+  split; [exact (import_message_hdr es env names nodes st done m (imgM es m) S' st' _ Hmm (imgM_common es m) Hsort HS Hne Hsig Hmd Hnodes Hnd Hcan Hpair)|].
+  split; [exact HpS|]. split; [exact HI'|]. split; [exact Hle'|]. split; [|split; [exact Hsm1|exact Hsm2]].
+  intros s Hs Hnm Hk. destruct (HEI s Hs Hnm Hk) as [H1 [H2 H3]]. rewrite Ees, Erf. auto.
+Qed.
 
 (* ---------------- the environment of the import, for an mbus ---------------- *)
 Lemma mbus_keyed : forall b, mbus b -> keyed_bus b.
@@ -2100,25 +3360,36 @@ Proof.
 Qed.
 
 (* ---------------- any message of the fragment ---------------- *)
+Definition multi_result (es : list enum_def) (m : message) (EI : signal -> Z) (st1 : istate) (S' : list signal) : list signal :=
+  let X := index_from 0 S' in
+  let MU := filter (fun p : Z * signal => is_muxb (snd p)) X in
+  map (FM es m MU X EI st1) (YM MU X 0).
+
 Definition Rmsg_m (es : list enum_def) (st : istate) (m m' : message) : Prop :=
   ((forall s, In s (m_signals m) -> is_muxb s = false) /\ Rmsg es st m m') \/
-  (exists mx mid gs S' EI, In mx (m_signals m) /\ is_muxb mx = true /\
+  (exists mx mid gs S' EI, In mx (m_signals m) /\ is_muxb mx = true /\ one_mux (m_signals m) /\
      m' = mkmessage (m_canid m) (clear (m_name m)) (m_size m) (m_order m) 0 0 0 0 (clear (m_sender m)) (recs_in m) (m_desc m) []
                     (mux_result mx mid gs EI S') /\
      Permutation (m_signals m) S' /\ In (mid, mx) (index_from 0 S') /\ 1 <= gs /\
-     (forall s, In s (m_signals m) -> s <> mx -> EIok es st s (EI s))).
+     (forall s, In s (m_signals m) -> s <> mx -> EIok es st s (EI s))) \/
+  (exists S' EI st1, many_of (m_signals m) = true /\
+     m' = mkmessage (m_canid m) (clear (m_name m)) (m_size m) (m_order m) 0 0 0 0 (clear (m_sender m)) (recs_in m) (m_desc m) []
+                    (multi_result es m EI st1 S') /\
+     Permutation (m_signals m) S' /\
+     (forall s, In s (m_signals m) -> is_muxb s = false -> EIok es st s (EI s))).
 
 Lemma Rmsg_m_mono : forall es st st' m m', ProofsEnum.st_le st st' -> Rmsg_m es st m m' -> Rmsg_m es st' m m'.
 Proof.
-  intros es st st' m m' Hle [[H1 H2]|[mx [mid [gs [S' [EI [A1 [A2 [A3 [A4 [A5 [A6 A7]]]]]]]]]]]].
+  intros es st st' m m' Hle [[H1 H2]|[[mx [mid [gs [S' [EI [A1 [A2 [A0 [A3 [A4 [A5 [A6 A7]]]]]]]]]]]]|[S' [EI [st1 [B1 [B2 [B3 B4]]]]]]]].
   - left. split; [assumption|eapply Rmsg_mono; eauto].
-  - right. exists mx, mid, gs, S', EI. refine (conj A1 (conj A2 (conj A3 (conj A4 (conj A5 (conj A6 _)))))). intros x Hx Hne. eapply EIok_mono; eauto.
+  - right. left. exists mx, mid, gs, S', EI. refine (conj A1 (conj A2 (conj A0 (conj A3 (conj A4 (conj A5 (conj A6 _))))))). intros x Hx Hne. eapply EIok_mono; eauto.
+  - right. right. exists S', EI, st1. refine (conj B1 (conj B2 (conj B3 _))). intros x Hx Hnm. eapply EIok_mono; eauto.
 Qed.
 
 Lemma Rmsg_m_head : forall es st m m', Rmsg_m es st m m' ->
   m_canid m' = m_canid m /\ m_sender m' = clear (m_sender m) /\ m_name m' = clear (m_name m).
 Proof.
-  intros es st m m' [[_ [sg [-> _]]]|[mx [mid [gs [S' [EI [_ [_ [-> _]]]]]]]]]; cbn; auto.
+  intros es st m m' [[_ [sg [-> _]]]|[[mx [mid [gs [S' [EI [_ [_ [_ [-> _]]]]]]]]]|[S' [EI [st1 [_ [-> _]]]]]]]; cbn; auto.
 Qed.
 
 (* the signal map after the import of a message: every signal is found, under its sanitised name, at its position *)
@@ -2131,11 +3402,13 @@ Proof.
   intros es st id s s' H. unfold Rsig in H. destruct (s_kind s); [subst; cbn; auto| |]; destruct H as [ei [-> _]]; cbn; auto.
 Qed.
 
-(* the SG_MUL_VAL_ table of the import answers for the children of a message's multiplexer *)
+(* the SG_MUL_VAL_ table of the import answers for the children of a message's multiplexers, and has no entry for a
+   top-level signal *)
 Definition ext_ok (env : ienv) (m : message) : Prop :=
-  forall mx c, In mx (m_signals m) -> is_muxb mx = true -> In c (m_signals m) -> is_topb c = false ->
+  (forall mx c, In mx (m_signals m) -> is_muxb mx = true -> In c (m_signals m) -> s_parent c = Some (s_id mx) ->
     lookup key_eqb (u32 (m_canid m), clear (s_name c)) (ie_ext_muxes env)
-    = match ext_of (u32 (m_canid m)) mx c with [] => None | e :: _ => Some e end.
+    = match ext_of (u32 (m_canid m)) mx (many_of (m_signals m)) c with [] => None | e :: _ => Some e end) /\
+  (forall t, In t (m_signals m) -> is_topb t = true -> lookup key_eqb (u32 (m_canid m), clear (s_name t)) (ie_ext_muxes env) = None).
 
 Lemma import_message_m : forall es env st0 names nodes st done m,
   mmessage es names m -> env_msg es env st0 m -> ext_ok env m ->
@@ -2150,29 +3423,55 @@ Lemma import_message_m : forall es env st0 names nodes st done m,
     sm_rel (is_sigmap st') (length done) m m' /\
     (forall k, (forall s, In s (m_signals m) -> k <> (u32 (m_canid m), clear (s_name s))) -> lookup key_eqb k (is_sigmap st') = lookup key_eqb k (is_sigmap st)).
 Proof.
-  intros es env st0 names nodes st done m Hmm Henv Hext Hrv0 HI Hle Hnodes Hnd Hcan Hpair.
+  intros es env st0 names nodes st done m Hmm Henv [Hext Hextm] Hrv0 HI Hle Hnodes Hnd Hcan Hpair.
+  pose proof Hmm as [_ [_ [_ [_ [_ [_ [_ [Hms _]]]]]]]].
   destruct (existsb is_muxb (m_signals m)) eqn:Ex.
-  - (* a multiplexer *)
+  - (* at least one multiplexer *)
     apply existsb_exists in Ex. destruct Ex as [mx [Hmx Hmxm]].
     destruct Henv as [Hmd Hsig].
     assert (Henv1 : forall s, In s (m_signals m) -> is_muxb s = false -> env_sig es env st0 (u32 (m_canid m)) s /\ enum_wf (e_of es s))
       by (intros s Hs _; apply Hsig; assumption).
-    assert (Henvx : desc_of key_eqb (u32 (m_canid m), clear (s_name mx)) (ie_sig_desc env) = s_desc mx)
-      by (destruct (Hsig mx Hmx) as [[Hd _] _]; exact Hd).
-    destruct (import_message_mux es env st0 names nodes st done m mx Hmm Hmx Hmxm Henv1 Henvx (fun c Hc Hct => Hext mx c Hmx Hmxm Hc Hct) Hrv0 HI Hle Hmd Hnodes Hnd Hcan Hpair)
-      as [st' [S' [mid [gs [EI [E [Hp [Hmid [Hgs [HI' [Hle' [HEI [Hsm1 Hsm2]]]]]]]]]]]]].
-    exists st'. eexists. split; [exact E|].
-    split; [exact HI'|]. split; [exact Hle'|]. split; [|split].
-    + right. exists mx, mid, gs, S', EI. refine (conj Hmx (conj Hmxm (conj eq_refl (conj Hp (conj Hmid (conj _ HEI)))))). lia.
-    + intros s Hs. assert (HsS : In s S') by (eapply Permutation_in; eauto).
-      destruct (in_index_from S' 0 s HsS) as [i Hi]. specialize (Hsm1 (i, s) Hi). cbn [fst snd] in Hsm1.
-      cbn [m_signals].
-      exists (Fimg mx mid gs EI (i, s)). split.
-      * rewrite (R_map es names m mx mid gs EI S' Hmm Hmx Hmxm Hp).
-        apply in_map. eapply Permutation_in; [apply (XY_perm es names m mx mid S' Hmm Hmx Hmxm Hp Hmid)|exact Hi].
-      * rewrite (Fimg_id mx mid gs EI (i, s)). cbn [fst]. split; [|exact Hsm1].
-        apply (Fimg_facts es names m mx mid gs EI S' Hmm Hmx Hmxm Hp (i, s) Hi).
-    + exact Hsm2.
+    assert (Henvx : forall t, In t (m_signals m) -> is_muxb t = true -> desc_of key_eqb (u32 (m_canid m), clear (s_name t)) (ie_sig_desc env) = s_desc t)
+      by (intros t Ht _; destruct (Hsig t Ht) as [[Hd _] _]; exact Hd).
+    destruct (many_of (m_signals m)) eqn:Emany.
+    + (* several *)
+      assert (Hext2 : forall t c, In t (m_signals m) -> is_muxb t = true -> In c (m_signals m) -> s_parent c = Some (s_id t) ->
+                lookup key_eqb (u32 (m_canid m), clear (s_name c)) (ie_ext_muxes env)
+                = Some (mkdextmux (u32 (m_canid m)) (clear (s_name t)) (clear (s_name c)) (ranges_of (mem_of (s_gcount t) c)))).
+      { intros t c Ht Htm Hc Hp. rewrite (Hext t c Ht Htm Hc Hp). reflexivity. }
+      destruct (import_message_multi es env st0 names nodes st done m Hmm Emany Henv1 Henvx Hext2 Hextm Hrv0 HI Hle Hmd Hnodes Hnd Hcan Hpair)
+        as [st' [S' [EI [st1 Hres]]]]. cbv zeta in Hres. destruct Hres as [E [Hp [HI' [Hle' [HEI [Hsm1 Hsm2]]]]]].
+      exists st'. eexists. split; [exact E|].
+      split; [exact HI'|]. split; [exact Hle'|]. split; [|split].
+      * right. right. exists S', EI, st1. refine (conj Emany (conj eq_refl (conj Hp HEI))).
+      * intros s Hs. assert (HsS : In s S') by (eapply Permutation_in; eauto).
+        destruct (in_index_from S' 0 s HsS) as [i Hi]. specialize (Hsm1 (i, s) Hi). cbn [fst snd] in Hsm1.
+        cbn [m_signals].
+        exists (FM es m (filter (fun p : Z * signal => is_muxb (snd p)) (index_from 0 S')) (index_from 0 S') EI st1 (i, s)). split.
+        -- apply (RM_in es names m EI S' st1 Hmm Hp (i, s) Hi).
+        -- rewrite (FM_id es m EI S' st1 (i, s)). cbn [fst]. split; [|exact Hsm1]. apply (FM_name es m EI S' st1 (i, s)).
+      * exact Hsm2.
+    + (* exactly one *)
+      pose proof (count_one_mux es _ Hms Emany) as Huniq.
+      assert (Hext1 : forall c, In c (m_signals m) -> is_topb c = false ->
+                lookup key_eqb (u32 (m_canid m), clear (s_name c)) (ie_ext_muxes env)
+                = match ext_of (u32 (m_canid m)) mx (many_of (m_signals m)) c with [] => None | e :: _ => Some e end).
+      { intros c Hc Hct. destruct Hms as [_ [_ [_ [_ [Hch _]]]]]. destruct (Hch c Hc Hct) as [q [Hq [_ [Hqm [_ [Hp _]]]]]].
+        rewrite (Huniq mx q Hmx Hq Hmxm Hqm), Emany. apply Hext; assumption. }
+      destruct (import_message_mux es env st0 names nodes st done m mx Hmm Hmx Hmxm Henv1 (Henvx mx Hmx Hmxm) Hext1 Huniq Hrv0 HI Hle Hmd Hnodes Hnd Hcan Hpair)
+        as [st' [S' [mid [gs [EI [E [Hp [Hmid [Hgs [HI' [Hle' [HEI [Hsm1 Hsm2]]]]]]]]]]]]].
+      exists st'. eexists. split; [exact E|].
+      split; [exact HI'|]. split; [exact Hle'|]. split; [|split].
+      * right. left. exists mx, mid, gs, S', EI. refine (conj Hmx (conj Hmxm (conj Huniq (conj eq_refl (conj Hp (conj Hmid (conj _ HEI))))))). lia.
+      * intros s Hs. assert (HsS : In s S') by (eapply Permutation_in; eauto).
+        destruct (in_index_from S' 0 s HsS) as [i Hi]. specialize (Hsm1 (i, s) Hi). cbn [fst snd] in Hsm1.
+        cbn [m_signals].
+        exists (Fimg mx mid gs EI (i, s)). split.
+        -- rewrite (R_map es names m mx mid gs EI S' Hmm Hmx Hmxm Huniq Hp).
+           apply in_map. eapply Permutation_in; [apply (XY_perm es names m mx mid S' Hmm Hmx Hmxm Huniq Hp Hmid)|exact Hi].
+        -- rewrite (Fimg_id mx mid gs EI (i, s)). cbn [fst]. split; [|exact Hsm1].
+           apply (Fimg_facts m mx mid gs EI S' Hmx Hmxm Huniq Hp (i, s) Hi).
+      * exact Hsm2.
   - (* none *)
     assert (Hnm : forall s, In s (m_signals m) -> is_muxb s = false).
     { intros s Hs. destruct (is_muxb s) eqn:E; [|reflexivity]. assert (existsb is_muxb (m_signals m) = true) by (apply existsb_exists; eauto). congruence. }
@@ -2241,13 +3540,13 @@ Lemma proj_message_m : forall names es st m m',
   mmessage es names m -> (forall s, In s (m_signals m) -> enum_wf (e_of es s)) ->
   Rmsg_m es st m m' -> proj_message (is_enums st) m' = proj_message es m.
 Proof.
-  intros names es st m m' Hmm Hwf [[Hnm HR]|[mx [mid [gs [S' [EI [Hmx [Hmxm [-> [HpS [Hmid [Hgs HEI]]]]]]]]]]]].
+  intros names es st m m' Hmm Hwf [[Hnm HR]|[[mx [mid [gs [S' [EI [Hmx [Hmxm [Huniq [-> [HpS [Hmid [Hgs HEI]]]]]]]]]]]]|[S' [EI [st1 [Hmany [-> [HpS HEI]]]]]]]].
   - destruct (mmessage_plain es names m Hmm Hnm) as [Hem _]. eapply proj_message_e; eauto.
   - pose proof Hmm as [Ha [Hc [Hdl [Hsd [Hst [Hid [Hsz [Hms [Hlay [Hsn [Hrc [Hrn Hre]]]]]]]]]]]].
     unfold proj_message.
     cbn [m_canid m_name m_size m_order m_cycle m_delay m_startdelay m_sendtype m_sender m_receivers m_desc m_attrs m_signals].
     rewrite Ha, Hc, Hdl, Hsd, Hst, !clear_spaces_idem.
-    rewrite (proj_sigs_mux es st names m mx mid gs EI S' Hmm Hmx Hmxm Hwf HEI HpS Hmid).
+    rewrite (proj_sigs_mux es st names m mx mid gs EI S' Hmm Hmx Hmxm Huniq Hwf HEI HpS Hmid).
     assert (Hne : m_signals m <> []) by (intros E; rewrite E in Hmx; destruct Hmx).
     assert (Hr : mux_result mx mid gs EI S' <> []).
     { unfold mux_result. intros E. apply app_eq_nil in E. destruct E as [_ E]. discriminate E. }
@@ -2258,31 +3557,33 @@ Proof.
       rewrite map_map. rewrite (map_ext (fun x => clear (clear x)) clear) by (intros; apply clear_spaces_idem).
       apply sort_str_perm_eq. apply Permutation_map. apply Permutation_sym. apply sort_by_perm. }
     rewrite Hrecs. reflexivity.
+  - pose proof Hmm as [Ha [Hc [Hdl [Hsd [Hst [Hid [Hsz [Hms [Hlay [Hsn [Hrc [Hrn Hre]]]]]]]]]]]].
+    unfold proj_message.
+    cbn [m_canid m_name m_size m_order m_cycle m_delay m_startdelay m_sendtype m_sender m_receivers m_desc m_attrs m_signals].
+    rewrite Ha, Hc, Hdl, Hsd, Hst, !clear_spaces_idem.
+    unfold multi_result. cbv zeta.
+    rewrite (proj_sigs_multi es st names m EI S' st1 Hmm Hwf HEI HpS).
+    assert (Hne : m_signals m <> []) by (intros E; rewrite E in Hmany; cbn in Hmany; discriminate).
+    pose proof (RM_len es names m EI S' st1 Hmm HpS) as Hlen.
+    destruct (map _ (YM _ _ 0)) eqn:ER; [destruct (m_signals m); [contradiction|discriminate Hlen]|].
+    destruct (m_signals m) eqn:ES; [contradiction|].
+    assert (Hrecs : sort_by str_ltb (map clear (recs_in m)) = sort_by str_ltb (map clear (m_receivers m))).
+    { unfold recs_in. rewrite ES.
+      rewrite map_map. rewrite (map_ext (fun x => clear (clear x)) clear) by (intros; apply clear_spaces_idem).
+      apply sort_str_perm_eq. apply Permutation_map. apply Permutation_sym. apply sort_by_perm. }
+    rewrite Hrecs. reflexivity.
 Qed.
 
 (* ---------------- the bus with its signals in export order ---------------- *)
-Lemma S0_SX : forall es names m mx, mmessage es names m -> In mx (m_signals m) -> is_muxb mx = true -> S0 m mx = SX m.
+Lemma S0_SX : forall es names m mx, mmessage es names m -> In mx (m_signals m) -> is_muxb mx = true -> one_mux (m_signals m) -> S0 m mx = SX m.
 Proof.
-  intros es names m mx Hmm Hmx Hmxm. unfold S0, SX, tx. apply flat_map_ext_in_simple. intros t Ht. apply filter_In in Ht. destruct Ht as [Ht _].
+  intros es names m mx Hmm Hmx Hmxm Hu. unfold S0, SX, tx. apply flat_map_ext_in_simple. intros t Ht. apply filter_In in Ht. destruct Ht as [Ht _].
   destruct (is_muxb t) eqn:E; [|reflexivity].
-  destruct Hmm as [_ [_ [_ [_ [_ [_ [_ [[_ [_ [_ [Hu _]]]] _]]]]]]]]. rewrite (Hu t mx Ht Hmx E Hmxm). reflexivity.
+  rewrite (Hu t mx Ht Hmx E Hmxm). reflexivity.
 Qed.
 
 Lemma SX_perm : forall es names m, mmessage es names m -> Permutation (m_signals m) (SX m).
-Proof.
-  intros es names m Hmm. destruct (existsb is_muxb (m_signals m)) eqn:Ex.
-  - apply existsb_exists in Ex. destruct Ex as [mx [Hmx Hm]]. rewrite <- (S0_SX es names m mx Hmm Hmx Hm). apply (S0_perm es m mx names Hmm Hmx Hm).
-  - assert (Hnm : forall s, In s (m_signals m) -> is_muxb s = false).
-    { intros s Hs. destruct (is_muxb s) eqn:E; [|reflexivity]. assert (existsb is_muxb (m_signals m) = true) by (apply existsb_exists; eauto). congruence. }
-    pose proof Hmm as [_ [_ [_ [_ [_ [_ [_ [[_ [_ [_ [_ [Hch _]]]]] _]]]]]]]].
-    assert (Hall : filter is_topb (m_signals m) = m_signals m).
-    { apply filter_all. intros s Hs. destruct (is_topb s) eqn:Et; [reflexivity|]. exfalso.
-      destruct (Hch s Hs Et) as [mx [Hmx [_ [Hm _]]]]. rewrite (Hnm mx Hmx) in Hm. discriminate. }
-    unfold SX. rewrite Hall.
-    assert (G : forall l, (forall s, In s l -> is_muxb s = false) -> flat_map (tx (m_signals m)) l = l).
-    { induction l as [|t r IH]; intros Hl; [reflexivity|]. cbn [flat_map]. unfold tx at 1. rewrite (Hl t (or_introl eq_refl)), IH by (intros x Hx; apply Hl; right; assumption). reflexivity. }
-    rewrite G by assumption. apply Permutation_refl.
-Qed.
+Proof. exact SXg_perm. Qed.
 
 Lemma xbus_keyed : forall b, mbus b -> keyed_bus (xbus b).
 Proof.
@@ -2339,56 +3640,59 @@ Qed.
 
 Lemma ext_ok_bus : forall b nd md sd se, mbus b -> forall m, In m (b_messages b) -> ext_ok (mkienv nd md sd se (import_ext_muxes (bus_exts b))) m.
 Proof.
-  intros b nd md sd se Hb m Hm mx c Hmx Hmxm Hc Hct. cbn [ie_ext_muxes].
+  intros b nd md sd se Hb m Hm. cbn [ie_ext_muxes].
   pose proof (mbus_keyed b Hb) as [_ [_ [Hcan Hk4]]]. pose proof Hb as [_ [_ [_ [_ [_ [Hms _]]]]]]. rewrite Forall_forall in Hms.
   (* every entry of the table comes from a child of a multiplexer of a message *)
   assert (Hsrc : forall k em, In (k, em) (import_ext_muxes (bus_exts b)) ->
-            exists m' mx' c', In m' (b_messages b) /\ In mx' (m_signals m') /\ is_muxb mx' = true /\ In c' (m_signals m') /\ is_topb c' = false /\
-                              In em (ext_of (u32 (m_canid m')) mx' c') /\ k = (u32 (m_canid m'), clear (s_name c'))).
+            exists m' mx' c', In m' (b_messages b) /\ In mx' (m_signals m') /\ is_muxb mx' = true /\ In c' (m_signals m') /\ s_parent c' = Some (s_id mx') /\
+                              In em (ext_of (u32 (m_canid m')) mx' (many_of (m_signals m')) c') /\ k = (u32 (m_canid m'), clear (s_name c'))).
   { intros k em Hin. apply in_import_ext_muxes in Hin. destruct Hin as [Hin ->]. unfold bus_exts in Hin. apply in_flat_map in Hin.
     destruct Hin as [m' [Hm' Hin]]. unfold msg_exts in Hin. apply in_flat_map in Hin. destruct Hin as [t [Ht Hin]].
     apply filter_In in Ht. destruct Ht as [Ht Htt]. unfold texts in Hin. destruct (is_muxb t) eqn:Em; [|destruct Hin].
     apply in_flat_map in Hin. destruct Hin as [c' [Hc' Hin]].
     pose proof (Hms m' Hm') as Hmm'. pose proof Hmm' as [_ [_ [_ [_ [_ [_ [_ [Hmso _]]]]]]]].
     pose proof (kids_ok_of _ _ t Hmso Ht Em) as Hko.
-    assert (Hg1 : 1 <= s_gcount t).
-    { destruct Hmso as [_ [_ [Htops _]]]. rewrite Forall_forall in Htops. destruct (Htops t (proj2 (filter_In _ _ _) (conj Ht Htt))) as [_ [_ [_ [_ [_ [_ Hk]]]]]].
-      unfold is_muxb in Em. destruct (s_kind t); try discriminate. lia. }
-    apply (in_walk_of _ _ _ _ Hko Hg1) in Hc'. unfold children in Hc'. apply Proofs.In_sort_by in Hc'. apply filter_In in Hc'. destruct Hc' as [Hc' Hp].
+    assert (Hg1 : 1 <= s_gcount t) by (destruct (selw_facts _ m' t _ Hmm' Ht Em) as [_ [_ [H _]]]; exact H).
+    apply (in_walk_of _ _ _ _ Hko Hg1) in Hc'.
+    destruct (child_in_sigs_g _ _ m' Hmm' t c' Ht Em Hc') as [Hcs [_ [[_ [Hp _]] _]]].
     exists m', t, c'. split; [assumption|]. split; [assumption|]. split; [assumption|]. split; [assumption|].
-    split; [unfold is_topb; destruct (s_parent c'); [reflexivity|discriminate]|]. split; [assumption|].
-    unfold ext_of in Hin. destruct (Nat.eqb _ 1); [destruct Hin|]. destruct Hin as [<-|[]]. reflexivity. }
-  (* the keys determine message, multiplexer and child *)
-  assert (Hkey : forall m' mx' c', In m' (b_messages b) -> In mx' (m_signals m') -> is_muxb mx' = true -> In c' (m_signals m') ->
+    split; [assumption|]. split; [assumption|].
+    unfold ext_of in Hin. destruct (negb _ && Nat.eqb _ 1); [destruct Hin|]. destruct Hin as [<-|[]]. reflexivity. }
+  (* the keys determine message and child, the child determines its multiplexer *)
+  assert (Hkey : forall m' mx' c' mx c, In m' (b_messages b) -> In mx' (m_signals m') -> In c' (m_signals m') -> s_parent c' = Some (s_id mx') ->
+            In mx (m_signals m) -> In c (m_signals m) -> s_parent c = Some (s_id mx) ->
             (u32 (m_canid m'), clear (s_name c')) = (u32 (m_canid m), clear (s_name c)) -> m' = m /\ mx' = mx /\ c' = c).
-  { intros m' mx' c' Hm' Hmx' Hmxm' Hc' Heq. inversion Heq as [[E1 E2]].
+  { intros m' mx' c' mx c Hm' Hmx' Hc' Hp' Hmx Hc Hp Heq. inversion Heq as [[E1 E2]].
     destruct (Hk4 m Hm) as [Hid Hn]. destruct (Hk4 m' Hm') as [Hid' _]. rewrite !u32_id in E1 by assumption.
     assert (m' = m) by (apply (NoDup_map_inj m_canid (b_messages b)); assumption). subst m'.
-    destruct (Hms m Hm) as [_ [_ [_ [_ [_ [_ [_ [[_ [_ [_ [Hu _]]]] _]]]]]]]].
-    split; [reflexivity|]. split; [apply Hu; assumption|]. apply (NoDup_map_inj (fun s => clear (s_name s)) (m_signals m)); assumption. }
+    destruct (Hms m Hm) as [_ [_ [_ [_ [_ [_ [_ [[Hids _] _]]]]]]]].
+    assert (c' = c) by (apply (NoDup_map_inj (fun s => clear (s_name s)) (m_signals m)); assumption). subst c'.
+    split; [reflexivity|]. split; [|reflexivity]. apply (NoDup_map_inj s_id (m_signals m)); try assumption. congruence. }
   pose proof (Hms m Hm) as Hmm. pose proof Hmm as [_ [_ [_ [_ [_ [_ [_ [Hmso _]]]]]]]].
-  destruct (ext_of (u32 (m_canid m)) mx c) as [|e er] eqn:Ee.
-  - apply lookup_key_absent. intros em Hin. destruct (Hsrc _ _ Hin) as [m' [mx' [c' [H1 [H2 [H3 [H4 [_ [H6 H7]]]]]]]]].
-    destruct (Hkey m' mx' c' H1 H2 H3 H4 (eq_sym H7)) as [-> [-> ->]]. rewrite Ee in H6. destruct H6.
-  - assert (Her : er = []) by (unfold ext_of in Ee; destruct (Nat.eqb _ 1); [discriminate|inversion Ee; reflexivity]). subst er.
-    apply lookup_key_unique.
-    + apply in_import_ext_muxes. split.
-      * unfold bus_exts. apply in_flat_map. exists m. split; [assumption|]. unfold msg_exts. apply in_flat_map. exists mx. split.
-        -- apply filter_In. split; [assumption|]. destruct (is_topb mx) eqn:Et; [reflexivity|]. exfalso.
-           destruct Hmso as [_ [_ [_ [_ [Hch _]]]]]. destruct (Hch mx Hmx Et) as [q [_ [_ [_ [Hk _]]]]]. unfold is_muxb in Hmxm. destruct (s_kind mx); try discriminate. apply Hk. reflexivity.
-        -- unfold texts. rewrite Hmxm. apply in_flat_map. exists c. split; [|rewrite Ee; left; reflexivity].
-           pose proof (kids_ok_of _ _ mx Hmso Hmx Hmxm) as Hko.
-           assert (Hg1 : 1 <= s_gcount mx).
-           { pose proof Hmso as [_ [_ [Htops [_ [Hch _]]]]]. rewrite Forall_forall in Htops.
-             assert (Hmt : is_topb mx = true).
-             { destruct (is_topb mx) eqn:Et; [reflexivity|]. exfalso. destruct (Hch mx Hmx Et) as [q [_ [_ [_ [Hk _]]]]]. unfold is_muxb in Hmxm. destruct (s_kind mx); try discriminate. apply Hk. reflexivity. }
-             destruct (Htops mx (proj2 (filter_In _ _ _) (conj Hmx Hmt))) as [_ [_ [_ [_ [_ [_ Hk]]]]]].
-             unfold is_muxb in Hmxm. destruct (s_kind mx); try discriminate. lia. }
-           apply (in_walk_of _ _ _ _ Hko Hg1). unfold children. apply Proofs.In_sort_by. apply filter_In. split; [assumption|].
-           destruct Hmso as [_ [_ [_ [Hu [Hch _]]]]]. destruct (Hch c Hc Hct) as [q [Hq [_ [Hqm [_ [Hp _]]]]]]. rewrite (Hu mx q Hmx Hq Hmxm Hqm). rewrite Hp. apply Z.eqb_refl.
-      * unfold ext_of in Ee. destruct (Nat.eqb _ 1); [discriminate|]. inversion Ee. reflexivity.
-    + intros em Hin. destruct (Hsrc _ _ Hin) as [m' [mx' [c' [H1 [H2 [H3 [H4 [_ [H6 H7]]]]]]]]].
-      destruct (Hkey m' mx' c' H1 H2 H3 H4 (eq_sym H7)) as [-> [-> ->]]. rewrite Ee in H6. destruct H6 as [<-|[]]. reflexivity.
+  split.
+  - intros mx c Hmx Hmxm Hc Hp.
+    destruct (ext_of (u32 (m_canid m)) mx (many_of (m_signals m)) c) as [|e er] eqn:Ee.
+    + apply lookup_key_absent. intros em Hin. destruct (Hsrc _ _ Hin) as [m' [mx' [c' [H1 [H2 [H3 [H4 [H5 [H6 H7]]]]]]]]].
+      destruct (Hkey m' mx' c' mx c H1 H2 H4 H5 Hmx Hc Hp (eq_sym H7)) as [-> [-> ->]]. rewrite Ee in H6. destruct H6.
+    + assert (Her : er = []) by (unfold ext_of in Ee; destruct (negb _ && Nat.eqb _ 1); [discriminate|inversion Ee; reflexivity]). subst er.
+      apply lookup_key_unique.
+      * apply in_import_ext_muxes. split.
+        -- unfold bus_exts. apply in_flat_map. exists m. split; [assumption|]. unfold msg_exts. apply in_flat_map. exists mx. split.
+           ++ apply filter_In. split; [assumption|]. apply (proj2 (mx_top _ m mx _ Hmm Hmx Hmxm)).
+           ++ unfold texts. rewrite Hmxm. apply in_flat_map. exists c. split; [|rewrite Ee; left; reflexivity].
+              pose proof (kids_ok_of _ _ mx Hmso Hmx Hmxm) as Hko.
+              assert (Hg1 : 1 <= s_gcount mx) by (destruct (selw_facts _ m mx _ Hmm Hmx Hmxm) as [_ [_ [H _]]]; exact H).
+              apply (in_walk_of _ _ _ _ Hko Hg1). unfold children. apply Proofs.In_sort_by. apply filter_In. split; [assumption|].
+              rewrite Hp. apply Z.eqb_refl.
+        -- unfold ext_of in Ee. destruct (negb _ && Nat.eqb _ 1); [discriminate|]. inversion Ee. reflexivity.
+      * intros em Hin. destruct (Hsrc _ _ Hin) as [m' [mx' [c' [H1 [H2 [H3 [H4 [H5 [H6 H7]]]]]]]]].
+        destruct (Hkey m' mx' c' mx c H1 H2 H4 H5 Hmx Hc Hp (eq_sym H7)) as [-> [-> ->]]. rewrite Ee in H6. destruct H6 as [<-|[]]. reflexivity.
+  - intros t Ht Htt. apply lookup_key_absent. intros em Hin. destruct (Hsrc _ _ Hin) as [m' [mx' [c' [H1 [H2 [H3 [H4 [H5 [H6 H7]]]]]]]]].
+    inversion H7 as [[E1 E2]].
+    destruct (Hk4 m Hm) as [Hid Hn]. destruct (Hk4 m' H1) as [Hid' _]. rewrite !u32_id in E1 by assumption.
+    assert (m = m') by (apply (NoDup_map_inj m_canid (b_messages b)); assumption). subst m'.
+    assert (t = c') by (apply (NoDup_map_inj (fun s => clear (s_name s)) (m_signals m)); assumption). subst c'.
+    unfold is_topb in Htt. rewrite H5 in Htt. discriminate.
 Qed.
 
 (* ---------------- the structural part of the import for any document that carries the exported structure
@@ -2500,7 +3804,14 @@ Definition example_mux_bus : bus :=
           std_sig 6 "fx" 8 8 (Some 1) [] "fixed: in every group";
           mksignal 5 "z" KEnum 26 None [] 0 false fl_one fl_zero fl_zero fl_zero "" 0 0 0 "an enum beside the switch" fl_zero 0 [] ];
       mkmessage 512 "other" 1 BigEndian 0 0 0 0 "GW" [] "second" []
-        [ mksignal 0 "n" KEnum 0 None [] 0 false fl_one fl_zero fl_zero fl_zero "" 0 0 0 "" fl_zero 0 [] ] ].
+        [ mksignal 0 "n" KEnum 0 None [] 0 false fl_one fl_zero fl_zero fl_zero "" 0 0 0 "" fl_zero 0 [] ];
+      mkmessage 768 "dual" 8 LittleEndian 0 0 0 0 "GW" ["ECU 1"] "two multiplexers" []
+        [ mksignal 0 "m a" KMux 0 None [] 0 false fl_one fl_zero fl_zero fl_zero "" 0 2 8 "first switch" fl_zero 0 [];
+          std_sig 1 "ka" 0 8 (Some 0) [0] "";
+          mksignal 2 "m b" KMux 16 None [] 0 false fl_one fl_zero fl_zero fl_zero "" 0 2 8 "" fl_zero 0 [];
+          std_sig 3 "kb" 0 4 (Some 2) [1] "under the second switch";
+          std_sig 4 "kf" 4 4 (Some 2) [] "";
+          std_sig 5 "p" 40 8 None [] "" ] ].
 
 Ltac in_cases H := cbn [In] in H; repeat (destruct H as [<-|H]); try contradiction.
 
@@ -2509,7 +3820,7 @@ Proof.
   unfold mbus, example_mux_bus. cbn [b_desc b_attrs b_nodes b_messages b_enums map n_name n_desc n_attrs length].
   split; [reflexivity|]. split; [repeat constructor|]. split; [e_nodup|]. split; [vm_compute; intuition discriminate|].
   split; [cbn; lia|]. split.
-  { constructor; [|constructor; [|constructor]]; unfold mmessage;
+  { constructor; [|constructor; [|constructor; [|constructor]]]; unfold mmessage;
       cbn [m_desc m_attrs m_cycle m_delay m_startdelay m_sendtype m_canid m_size m_signals m_sender m_receivers].
     - refine (conj eq_refl (conj eq_refl (conj eq_refl (conj eq_refl (conj eq_refl (conj _ (conj _ (conj _ (conj _ (conj _ (conj _ (conj _ _)))))))))))).
       + cbn; lia.
@@ -2517,7 +3828,7 @@ Proof.
       + unfold msigs_ok. split; [e_nodup|]. split; [e_nodup|]. split.
         { cbn [filter is_topb std_sig s_parent]. repeat (apply Forall_cons; [unfold top_ok, std_sig; cbn; repeat split; try reflexivity; try lia|]). apply Forall_nil. }
         split.
-        { intros a b Ha Hb Hma Hmb. in_cases Ha; in_cases Hb; try reflexivity; try (cbn in Hma; discriminate Hma); try (cbn in Hmb; discriminate Hmb). }
+        { intros a Ha Hma. in_cases Ha; first [reflexivity|cbn in Hma; discriminate Hma]. }
         split.
         { intros c Hc Ht. in_cases Hc; try (cbn in Ht; discriminate Ht);
             (eexists; split; [right; left; reflexivity|]; split; [reflexivity|]; split; [reflexivity|];
@@ -2527,7 +3838,7 @@ Proof.
              |unfold groups_ok; first [left; split; [reflexivity|lia]
                                       |right; split; [discriminate|]; split; [cbn; lia|]; split; [intros g Hg; cbn in Hg; lia|cbn; lia]]
              |intros Hc; first [lia|discriminate Hc]|lia|vm_compute; intros Hc; discriminate Hc]). }
-        { intros c c' Hc Hc' Ht Ht' Hne [g [Hg0 [Hg1 Hg2]]]. in_cases Hc; in_cases Hc'; try (cbn in Ht; discriminate Ht); try (cbn in Ht'; discriminate Ht');
+        { intros c c' Hc Hc' Ht Ht' Hne _ [g [Hg0 [Hg1 Hg2]]]. in_cases Hc; in_cases Hc'; try (cbn in Ht; discriminate Ht); try (cbn in Ht'; discriminate Ht');
             try contradiction;
             try (vm_compute; first [left; intros Hc; discriminate Hc|right; intros Hc; discriminate Hc]);
             exfalso; unfold in_group, std_sig in Hg1, Hg2; cbn [s_groups mem_z existsb] in Hg1, Hg2; lia. }
@@ -2541,13 +3852,41 @@ Proof.
       + lia.
       + unfold msigs_ok. split; [e_nodup|]. split; [e_nodup|]. split.
         { cbn. repeat (apply Forall_cons; [unfold top_ok; cbn; repeat split; try reflexivity; try lia|]). apply Forall_nil. }
-        split; [intros a b Ha Hb Hma Hmb; in_cases Ha; cbn in Hma; discriminate Hma|].
+        split; [intros a Ha Hma; in_cases Ha; cbn in Hma; discriminate Hma|].
         split; [intros c Hc Ht; in_cases Hc; cbn in Ht; discriminate Ht|].
         intros c c' Hc Hc' Ht; in_cases Hc; cbn in Ht; discriminate Ht.
       + cbn. repeat split; try lia.
       + cbn; auto.
       + intros x Hx; cbn in Hx; contradiction.
       + constructor.
+      + intros Hx; discriminate Hx.
+    - refine (conj eq_refl (conj eq_refl (conj eq_refl (conj eq_refl (conj eq_refl (conj _ (conj _ (conj _ (conj _ (conj _ (conj _ (conj _ _)))))))))))).
+      + cbn; lia.
+      + lia.
+      + unfold msigs_ok. split; [e_nodup|]. split; [e_nodup|]. split.
+        { cbn [filter is_topb std_sig s_parent]. repeat (apply Forall_cons; [unfold top_ok, std_sig; cbn; repeat split; try reflexivity; try lia|]). apply Forall_nil. }
+        split.
+        { intros a Ha Hma. in_cases Ha; first [reflexivity|cbn in Hma; discriminate Hma]. }
+        split.
+        { intros c Hc Ht. in_cases Hc; try (cbn in Ht; discriminate Ht);
+            (first [eexists; split; [left; reflexivity|]; split; [reflexivity|]; split; [reflexivity|];
+                    unfold child_ok, std_sig; cbn [s_kind s_parent s_groups s_startval s_sendtype s_attrs s_size s_rel s_id s_gcount s_gsize];
+                    refine (conj _ (conj eq_refl (conj _ (conj eq_refl (conj eq_refl (conj eq_refl (conj _ (conj _ _))))))))
+                   |eexists; split; [right; right; left; reflexivity|]; split; [reflexivity|]; split; [reflexivity|];
+                    unfold child_ok, std_sig; cbn [s_kind s_parent s_groups s_startval s_sendtype s_attrs s_size s_rel s_id s_gcount s_gsize];
+                    refine (conj _ (conj eq_refl (conj _ (conj eq_refl (conj eq_refl (conj eq_refl (conj _ (conj _ _))))))))];
+             [discriminate
+             |unfold groups_ok; first [left; split; [reflexivity|lia]
+                                      |right; split; [discriminate|]; split; [cbn; lia|]; split; [intros g Hg; cbn in Hg; lia|cbn; lia]]
+             |intros Hc; first [lia|discriminate Hc]|lia|vm_compute; intros Hc; discriminate Hc]). }
+        { intros c c' Hc Hc' Ht Ht' Hne Hpar [g [Hg0 [Hg1 Hg2]]]. in_cases Hc; in_cases Hc'; try (cbn in Ht; discriminate Ht); try (cbn in Ht'; discriminate Ht');
+            try contradiction; try (cbn in Hpar; discriminate Hpar);
+            try (vm_compute; first [left; intros Hc; discriminate Hc|right; intros Hc; discriminate Hc]);
+            exfalso; unfold in_group, std_sig in Hg1, Hg2; cbn [s_groups mem_z existsb] in Hg1, Hg2; lia. }
+      + cbn [filter is_topb std_sig s_parent]. cbn. repeat split; lia.
+      + cbn; auto.
+      + intros x Hx; cbn in Hx; cbn; intuition.
+      + e_nodup.
       + intros Hx; discriminate Hx. }
   split; [e_nodup|]. split; [e_nodup|]. split; [reflexivity|].
   repeat (apply Forall_cons;
@@ -2561,5 +3900,6 @@ Example example_mux_bus_roundtrip :
   exists b', export_import example_mux_bus = Ok b' /\ proj_bus b' = proj_bus example_mux_bus /\
              map (fun m => map (fun s => (s_name s, s_rel s, s_parent s, s_groups s)) (m_signals m)) (b_messages b')
              = [[("a", 0, None, []); ("z", 26, None, []); ("mode_sel", 8, None, []);
-                 ("c0", 0, Some 1, [0; 2]); ("c1", 0, Some 1, [1]); ("c_2", 4, Some 1, [1]); ("fx", 8, Some 1, [])]; [("n", 0, None, [])]].
+                 ("c0", 0, Some 1, [0; 2]); ("c1", 0, Some 1, [1]); ("c_2", 4, Some 1, [1]); ("fx", 8, Some 1, [])]; [("n", 0, None, [])];
+                [("p", 40, None, []); ("m_b", 16, None, []); ("kb", 0, Some 2, [1]); ("kf", 4, Some 2, []); ("m_a", 0, None, []); ("ka", 0, Some 0, [0])]].
 Proof. eexists. split; [vm_compute; reflexivity|]. split; vm_compute; reflexivity. Qed.
